@@ -16,1552 +16,1343 @@ Definition terms (ts : list tok) (t : pt) : string :=
   digest (show_toks (Some ts)) ++ " " ++ digest (show_pt (Some t)) ++ " " ++ digest (show_pt (parse ts)).
 Definition terms_full (ts : list tok) (t : pt) : string :=
   show_toks (Some ts) ++ nl ++ show_pt (Some t) ++ nl ++ show_pt (parse ts).
-Eval vm_compute in ("<<<M17>>>" ++ check (runes_of_ascii "packet Z9_// packet A { u8 x, }
-{ @tag(
-4294967296 )uint8x@calculatedFrom( ""abc"" ), }
-
-")).
-Eval vm_compute in ("<<<M49>>>" ++ check (runes_of_ascii "options
-{ options1= uint64 ;	}
-root packet /// triple
-T {MetaDataX//x
-`// not a comment` , } packet crc {}
-")).
-Eval vm_compute in ("<<<M81>>>" ++ check (runes_of_ascii "root packet Foo {i16 BodyLength `// not a comment`
-    // c
-    ,
-    //x
-    }options { // packet A { u8 x, }
-} options
-    {Z9_ = // trailing space 
-false msg_type //
-=
-true f32a = ' ' zchar  =""`tick`"";}
-")).
-Eval vm_compute in ("<<<M113>>>" ++ check (runes_of_ascii "
-
-
-")).
-Eval vm_compute in ("<<<M145>>>" ++ check (runes_of_ascii "MetaData
-packetx {  zchar[7
-]u128 , }
-")).
-Eval vm_compute in ("<<<M177>>>" ++ check (runes_of_ascii "// " ++ [128512]%N ++ runes_of_ascii " emoji
-packet i64_ { match repeatCount
-as u8x{ // packet A { u8 x, }
-7 : crc , },repeat uint32 roots ,
-} packet options1{ match  MetaDataX as
-chars
-{ ""CRC32""
-    :tag , 00 : lengthOf// a // b
-,	""" ++ [233]%N ++ runes_of_ascii "t" ++ [233]%N ++ runes_of_ascii """ : _x , } , uint16 trueish	,
-char[ 10 ] calculatedFrom	,
-@calculatedFrom( ""a\\""  ) @tag(
-65535 ) @rightPad (	'\x00' ) repeat int32 len , }
-")).
-Eval vm_compute in ("<<<M209>>>" ++ check (runes_of_ascii "root packet body{
-@tag(
-4294967296
-    )
-As @calculatedFrom(""" ++ [128512]%N ++ runes_of_ascii """ )
-    `a\` , /// triple
-} root packet
-    uint8x
-{ MetaDataX{ repeat
-matchKey lengthOf , repeat u32 uint8x
-// packet A { u8 x, }
-// a // b
-`doc`
-    /// triple
-    ,
-} ,  } options { int // a // b
-=
-    ""abc"" } packet
-    // trailing space 
-    u8x {
-} root
-packet // " ++ [128512]%N ++ runes_of_ascii " emoji
-falsey {repeat float32	u , repeat	char[]
-// " ++ [128512]%N ++ runes_of_ascii " emoji
-// packet A { u8 x, }
-msg_type
-    `
-` , @leftPad ( ' ')
-    @tag(255
-)match Header as msg_type
-    { 3 :uint8x
-    ,
-    255 :
-x , // trailing space 
-7 // " ++ [27880; 37322]%N ++ runes_of_ascii "
-: leftPad
-// c
-// `tick` ""quote"" 'q'
-""" ++ [28040; 24687]%N ++ runes_of_ascii """
-// packet A { u8 x, }
-// c
-: Packet ,[ 4294967296
-    ,""1"" ] :
-    T , } ,
-    //	t
-    Logon @calculatedFrom( ""x y"")  `it's`
-, string charz @calculatedFrom(
-// " ++ [128512]%N ++ runes_of_ascii " emoji
-//	t
-""abc""
-) ,
-string options1	,
-/// triple
-/// triple
-@lengthOf(
-//
-//x
-As
-    ) repeat zchar[ // `tick` ""quote"" 'q'
-7 ]zchar , @lengthOf(
-    crc)x_y_z
-    @calculatedFrom(
-""" ++ [28040; 24687]%N ++ runes_of_ascii """ ) ,
-}
-")).
-Eval vm_compute in ("<<<T209>>>" ++ terms [mkTok 34 "root" 1 0 false; mkTok 35 "packet" 1 5 false; mkTok 42 "body" 1 12 false; mkTok 2 "{" 1 16 false; mkTok 9 "@tag(" 2 0 false; mkTok 30 "4294967296" 3 0 false; mkTok 6 ")" 4 4 false; mkTok 42 "As" 5 0 false; mkTok 5 "@calculatedFrom(" 5 3 false; mkTok 31 (string_of_bytes [34; 240; 159; 152; 128; 34]%N) 5 19 false; mkTok 6 ")" 5 23 false; mkTok 43 "`a\`" 6 4 false; mkTok 40 "," 6 9 false; mkTok 44 "/// triple" 6 11 true; mkTok 3 "}" 7 0 false; mkTok 34 "root" 7 2 false; mkTok 35 "packet" 7 7 false; mkTok 42 "uint8x" 8 4 false; mkTok 2 "{" 9 0 false; mkTok 42 "MetaDataX" 9 2 false; mkTok 2 "{" 9 11 false; mkTok 36 "repeat" 9 13 false; mkTok 42 "matchKey" 10 0 false; mkTok 42 "lengthOf" 10 9 false; mkTok 40 "," 10 18 false; mkTok 36 "repeat" 10 20 false; mkTok 22 "u32" 10 27 false; mkTok 42 "uint8x" 10 31 false; mkTok 44 "// packet A { u8 x, }" 11 0 true; mkTok 44 "// a // b" 12 0 true; mkTok 43 "`doc`" 13 0 false; mkTok 44 "/// triple" 14 4 true; mkTok 40 "," 15 4 false; mkTok 3 "}" 16 0 false; mkTok 40 "," 16 2 false; mkTok 3 "}" 16 5 false; mkTok 1 "options" 16 7 false; mkTok 2 "{" 16 15 false; mkTok 42 "int" 16 17 false; mkTok 44 "// a // b" 16 21 true; mkTok 4 "=" 17 0 false; mkTok 31 """abc""" 18 4 false; mkTok 3 "}" 18 10 false; mkTok 35 "packet" 18 12 false; mkTok 44 "// trailing space " 19 4 true; mkTok 42 "u8x" 20 4 false; mkTok 2 "{" 20 8 false; mkTok 3 "}" 21 0 false; mkTok 34 "root" 21 2 false; mkTok 35 "packet" 22 0 false; mkTok 44 (string_of_bytes [47; 47; 32; 240; 159; 152; 128; 32; 101; 109; 111; 106; 105]%N) 22 7 true; mkTok 42 "falsey" 23 0 false; mkTok 2 "{" 23 7 false; mkTok 36 "repeat" 23 8 false; mkTok 28 "float32" 23 15 false; mkTok 42 "u" 23 23 false; mkTok 40 "," 23 25 false; mkTok 36 "repeat" 23 27 false; mkTok 16 "char[]" 23 34 false; mkTok 44 (string_of_bytes [47; 47; 32; 240; 159; 152; 128; 32; 101; 109; 111; 106; 105]%N) 24 0 true; mkTok 44 "// packet A { u8 x, }" 25 0 true; mkTok 42 "msg_type" 26 0 false; mkTok 43 (string_of_bytes [96; 10; 96]%N) 27 4 false; mkTok 40 "," 28 2 false; mkTok 32 "@leftPad" 28 4 false; mkTok 8 "(" 28 13 false; mkTok 33 "' '" 28 15 false; mkTok 6 ")" 28 18 false; mkTok 9 "@tag(" 29 4 false; mkTok 30 "255" 29 9 false; mkTok 6 ")" 30 0 false; mkTok 38 "match" 30 1 false; mkTok 42 "Header" 30 7 false; mkTok 17 "as" 30 14 false; mkTok 42 "msg_type" 30 17 false; mkTok 2 "{" 31 4 false; mkTok 30 "3" 31 6 false; mkTok 39 ":" 31 8 false; mkTok 42 "uint8x" 31 9 false; mkTok 40 "," 32 4 false; mkTok 30 "255" 33 4 false; mkTok 39 ":" 33 8 false; mkTok 42 "x" 34 0 false; mkTok 40 "," 34 2 false; mkTok 44 "// trailing space " 34 4 true; mkTok 30 "7" 35 0 false; mkTok 44 (string_of_bytes [47; 47; 32; 230; 179; 168; 233; 135; 138]%N) 35 2 true; mkTok 39 ":" 36 0 false; mkTok 42 "leftPad" 36 2 false; mkTok 44 "// c" 37 0 true; mkTok 44 "// `tick` ""quote"" 'q'" 38 0 true; mkTok 31 (string_of_bytes [34; 230; 182; 136; 230; 129; 175; 34]%N) 39 0 false; mkTok 44 "// packet A { u8 x, }" 40 0 true; mkTok 44 "// c" 41 0 true; mkTok 39 ":" 42 0 false; mkTok 42 "Packet" 42 2 false; mkTok 40 "," 42 9 false; mkTok 18 "[" 42 10 false; mkTok 30 "4294967296" 42 12 false; mkTok 40 "," 43 4 false; mkTok 31 """1""" 43 5 false; mkTok 13 "]" 43 9 false; mkTok 39 ":" 43 11 false; mkTok 42 "T" 44 4 false; mkTok 40 "," 44 6 false; mkTok 3 "}" 44 8 false; mkTok 40 "," 44 10 false; mkTok 44 (string_of_bytes [47; 47; 9; 116]%N) 45 4 true; mkTok 42 "Logon" 46 4 false; mkTok 5 "@calculatedFrom(" 46 10 false; mkTok 31 """x y""" 46 27 false; mkTok 6 ")" 46 32 false; mkTok 43 "`it's`" 46 35 false; mkTok 40 "," 47 0 false; mkTok 15 "string" 47 2 false; mkTok 42 "charz" 47 9 false; mkTok 5 "@calculatedFrom(" 47 15 false; mkTok 44 (string_of_bytes [47; 47; 32; 240; 159; 152; 128; 32; 101; 109; 111; 106; 105]%N) 48 0 true; mkTok 44 (string_of_bytes [47; 47; 9; 116]%N) 49 0 true; mkTok 31 """abc""" 50 0 false; mkTok 6 ")" 51 0 false; mkTok 40 "," 51 2 false; mkTok 15 "string" 52 0 false; mkTok 42 "options1" 52 7 false; mkTok 40 "," 52 16 false; mkTok 44 "/// triple" 53 0 true; mkTok 44 "/// triple" 54 0 true; mkTok 7 "@lengthOf(" 55 0 false; mkTok 44 "//" 56 0 true; mkTok 44 "//x" 57 0 true; mkTok 42 "As" 58 0 false; mkTok 6 ")" 59 4 false; mkTok 36 "repeat" 59 6 false; mkTok 14 "zchar[" 59 13 false; mkTok 44 "// `tick` ""quote"" 'q'" 59 20 true; mkTok 30 "7" 60 0 false; mkTok 13 "]" 60 2 false; mkTok 42 "zchar" 60 3 false; mkTok 40 "," 60 9 false; mkTok 7 "@lengthOf(" 60 11 false; mkTok 42 "crc" 61 4 false; mkTok 6 ")" 61 7 false; mkTok 42 "x_y_z" 61 8 false; mkTok 5 "@calculatedFrom(" 62 4 false; mkTok 31 (string_of_bytes [34; 230; 182; 136; 230; 129; 175; 34]%N) 63 0 false; mkTok 6 ")" 63 5 false; mkTok 40 "," 63 7 false; mkTok 3 "}" 64 0 false; mkTok 0 "<EOF>" 65 0 false] (mkPacket (mkPtok 34 "root" 1 0 0) (Some (mkPtok 3 "}" 64 0 147)) [(DPacket (mkPacketDef (mkSpan (mkPtok 34 "root" 1 0 0) (mkPtok 3 "}" 7 0 14)) (Some (mkPtok 34 "root" 1 0 0)) (mkPtok 35 "packet" 1 5 1) (mkPtok 42 "body" 1 12 2) (mkPtok 2 "{" 1 16 3) [(mkFieldWithAttr (mkSpan (mkPtok 9 "@tag(" 2 0 4) (mkPtok 40 "," 6 9 12)) [(FATag (mkSpan (mkPtok 9 "@tag(" 2 0 4) (mkPtok 6 ")" 4 4 6)) (mkTagAttr (mkSpan (mkPtok 9 "@tag(" 2 0 4) (mkPtok 6 ")" 4 4 6)) (mkPtok 9 "@tag(" 2 0 4) (mkPtok 30 "4294967296" 3 0 5) (mkPtok 6 ")" 4 4 6)))] (CheckSumField (mkSpan (mkPtok 42 "As" 5 0 7) (mkPtok 40 "," 6 9 12)) (mkChecksumFieldDecl (mkSpan (mkPtok 42 "As" 5 0 7) (mkPtok 40 "," 6 9 12)) None (mkPtok 42 "As" 5 0 7) (mkCalculatedFrom (mkSpan (mkPtok 5 "@calculatedFrom(" 5 3 8) (mkPtok 6 ")" 5 23 10)) (mkPtok 5 "@calculatedFrom(" 5 3 8) (mkPtok 31 (string_of_bytes [34; 240; 159; 152; 128; 34]%N) 5 19 9) (mkPtok 6 ")" 5 23 10)) (Some (mkPtok 43 "`a\`" 6 4 11)) (mkPtok 40 "," 6 9 12))))] (mkPtok 3 "}" 7 0 14))); (DPacket (mkPacketDef (mkSpan (mkPtok 34 "root" 7 2 15) (mkPtok 3 "}" 16 5 35)) (Some (mkPtok 34 "root" 7 2 15)) (mkPtok 35 "packet" 7 7 16) (mkPtok 42 "uint8x" 8 4 17) (mkPtok 2 "{" 9 0 18) [(mkFieldWithAttr (mkSpan (mkPtok 42 "MetaDataX" 9 2 19) (mkPtok 40 "," 16 2 34)) [] (InerObjectField (mkSpan (mkPtok 42 "MetaDataX" 9 2 19) (mkPtok 40 "," 16 2 34)) None (InerObjectDecl (mkSpan (mkPtok 42 "MetaDataX" 9 2 19) (mkPtok 3 "}" 16 0 33)) (mkPtok 42 "MetaDataX" 9 2 19) (mkPtok 2 "{" 9 11 20) [(ObjectField (mkSpan (mkPtok 36 "repeat" 9 13 21) (mkPtok 40 "," 10 18 24)) (Some (mkPtok 36 "repeat" 9 13 21)) (mkPtok 42 "matchKey" 10 0 22) (Some (mkPtok 42 "lengthOf" 10 9 23)) None (mkPtok 40 "," 10 18 24)); (MetaField (mkSpan (mkPtok 36 "repeat" 10 20 25) (mkPtok 40 "," 15 4 32)) (Some (mkPtok 36 "repeat" 10 20 25)) (mkMetaDecl (mkSpan (mkPtok 22 "u32" 10 27 26) (mkPtok 40 "," 15 4 32)) (TyBasic (mkSpan (mkPtok 22 "u32" 10 27 26) (mkPtok 22 "u32" 10 27 26)) (mkBasicType (mkSpan (mkPtok 22 "u32" 10 27 26) (mkPtok 22 "u32" 10 27 26)) (mkPtok 22 "u32" 10 27 26))) (mkPtok 42 "uint8x" 10 31 27) (Some (mkPtok 43 "`doc`" 13 0 30)) (mkPtok 40 "," 15 4 32)))] (mkPtok 3 "}" 16 0 33)) (mkPtok 40 "," 16 2 34)))] (mkPtok 3 "}" 16 5 35))); (DOption (mkOptionDef (mkSpan (mkPtok 1 "options" 16 7 36) (mkPtok 3 "}" 18 10 42)) (mkPtok 1 "options" 16 7 36) (mkPtok 2 "{" 16 15 37) [(mkOptionDecl (mkSpan (mkPtok 42 "int" 16 17 38) (mkPtok 31 """abc""" 18 4 41)) (mkPtok 42 "int" 16 17 38) (mkPtok 4 "=" 17 0 40) (VString (mkSpan (mkPtok 31 """abc""" 18 4 41) (mkPtok 31 """abc""" 18 4 41)) (mkPtok 31 """abc""" 18 4 41)) None)] (mkPtok 3 "}" 18 10 42))); (DPacket (mkPacketDef (mkSpan (mkPtok 35 "packet" 18 12 43) (mkPtok 3 "}" 21 0 47)) None (mkPtok 35 "packet" 18 12 43) (mkPtok 42 "u8x" 20 4 45) (mkPtok 2 "{" 20 8 46) [] (mkPtok 3 "}" 21 0 47))); (DPacket (mkPacketDef (mkSpan (mkPtok 34 "root" 21 2 48) (mkPtok 3 "}" 64 0 147)) (Some (mkPtok 34 "root" 21 2 48)) (mkPtok 35 "packet" 22 0 49) (mkPtok 42 "falsey" 23 0 51) (mkPtok 2 "{" 23 7 52) [(mkFieldWithAttr (mkSpan (mkPtok 36 "repeat" 23 8 53) (mkPtok 40 "," 23 25 56)) [] (MetaField (mkSpan (mkPtok 36 "repeat" 23 8 53) (mkPtok 40 "," 23 25 56)) (Some (mkPtok 36 "repeat" 23 8 53)) (mkMetaDecl (mkSpan (mkPtok 28 "float32" 23 15 54) (mkPtok 40 "," 23 25 56)) (TyBasic (mkSpan (mkPtok 28 "float32" 23 15 54) (mkPtok 28 "float32" 23 15 54)) (mkBasicType (mkSpan (mkPtok 28 "float32" 23 15 54) (mkPtok 28 "float32" 23 15 54)) (mkPtok 28 "float32" 23 15 54))) (mkPtok 42 "u" 23 23 55) None (mkPtok 40 "," 23 25 56)))); (mkFieldWithAttr (mkSpan (mkPtok 36 "repeat" 23 27 57) (mkPtok 40 "," 28 2 63)) [] (MetaField (mkSpan (mkPtok 36 "repeat" 23 27 57) (mkPtok 40 "," 28 2 63)) (Some (mkPtok 36 "repeat" 23 27 57)) (mkMetaDecl (mkSpan (mkPtok 16 "char[]" 23 34 58) (mkPtok 40 "," 28 2 63)) (TyDynamic (mkSpan (mkPtok 16 "char[]" 23 34 58) (mkPtok 16 "char[]" 23 34 58)) (mkDynamicString (mkSpan (mkPtok 16 "char[]" 23 34 58) (mkPtok 16 "char[]" 23 34 58)) (mkPtok 16 "char[]" 23 34 58))) (mkPtok 42 "msg_type" 26 0 61) (Some (mkPtok 43 (string_of_bytes [96; 10; 96]%N) 27 4 62)) (mkPtok 40 "," 28 2 63)))); (mkFieldWithAttr (mkSpan (mkPtok 32 "@leftPad" 28 4 64) (mkPtok 40 "," 44 10 106)) [(FAPadding (mkSpan (mkPtok 32 "@leftPad" 28 4 64) (mkPtok 6 ")" 28 18 67)) (mkPaddingAttr (mkSpan (mkPtok 32 "@leftPad" 28 4 64) (mkPtok 6 ")" 28 18 67)) (mkPtok 32 "@leftPad" 28 4 64) (mkPtok 8 "(" 28 13 65) (Some (mkPtok 33 "' '" 28 15 66)) (mkPtok 6 ")" 28 18 67))); (FATag (mkSpan (mkPtok 9 "@tag(" 29 4 68) (mkPtok 6 ")" 30 0 70)) (mkTagAttr (mkSpan (mkPtok 9 "@tag(" 29 4 68) (mkPtok 6 ")" 30 0 70)) (mkPtok 9 "@tag(" 29 4 68) (mkPtok 30 "255" 29 9 69) (mkPtok 6 ")" 30 0 70)))] (MatchField (mkSpan (mkPtok 38 "match" 30 1 71) (mkPtok 40 "," 44 10 106)) (mkMatchFieldDecl (mkSpan (mkPtok 38 "match" 30 1 71) (mkPtok 3 "}" 44 8 105)) (mkPtok 38 "match" 30 1 71) (mkPtok 42 "Header" 30 7 72) (mkPtok 17 "as" 30 14 73) (mkPtok 42 "msg_type" 30 17 74) (mkPtok 2 "{" 31 4 75) [(mkMatchPair (mkSpan (mkPtok 30 "3" 31 6 76) (mkPtok 40 "," 32 4 79)) (MKDigits (mkPtok 30 "3" 31 6 76)) (mkPtok 39 ":" 31 8 77) (mkPtok 42 "uint8x" 31 9 78) (Some (mkPtok 40 "," 32 4 79))); (mkMatchPair (mkSpan (mkPtok 30 "255" 33 4 80) (mkPtok 40 "," 34 2 83)) (MKDigits (mkPtok 30 "255" 33 4 80)) (mkPtok 39 ":" 33 8 81) (mkPtok 42 "x" 34 0 82) (Some (mkPtok 40 "," 34 2 83))); (mkMatchPair (mkSpan (mkPtok 30 "7" 35 0 85) (mkPtok 42 "leftPad" 36 2 88)) (MKDigits (mkPtok 30 "7" 35 0 85)) (mkPtok 39 ":" 36 0 87) (mkPtok 42 "leftPad" 36 2 88) None); (mkMatchPair (mkSpan (mkPtok 31 (string_of_bytes [34; 230; 182; 136; 230; 129; 175; 34]%N) 39 0 91) (mkPtok 40 "," 42 9 96)) (MKString (mkPtok 31 (string_of_bytes [34; 230; 182; 136; 230; 129; 175; 34]%N) 39 0 91)) (mkPtok 39 ":" 42 0 94) (mkPtok 42 "Packet" 42 2 95) (Some (mkPtok 40 "," 42 9 96))); (mkMatchPair (mkSpan (mkPtok 18 "[" 42 10 97) (mkPtok 40 "," 44 6 104)) (MKList (mkKeyList (mkSpan (mkPtok 18 "[" 42 10 97) (mkPtok 13 "]" 43 9 101)) (mkPtok 18 "[" 42 10 97) (mkPtok 30 "4294967296" 42 12 98) [((mkPtok 40 "," 43 4 99), (mkPtok 31 """1""" 43 5 100))] (mkPtok 13 "]" 43 9 101))) (mkPtok 39 ":" 43 11 102) (mkPtok 42 "T" 44 4 103) (Some (mkPtok 40 "," 44 6 104)))] (mkPtok 3 "}" 44 8 105)) (mkPtok 40 "," 44 10 106))); (mkFieldWithAttr (mkSpan (mkPtok 42 "Logon" 46 4 108) (mkPtok 40 "," 47 0 113)) [] (CheckSumField (mkSpan (mkPtok 42 "Logon" 46 4 108) (mkPtok 40 "," 47 0 113)) (mkChecksumFieldDecl (mkSpan (mkPtok 42 "Logon" 46 4 108) (mkPtok 40 "," 47 0 113)) None (mkPtok 42 "Logon" 46 4 108) (mkCalculatedFrom (mkSpan (mkPtok 5 "@calculatedFrom(" 46 10 109) (mkPtok 6 ")" 46 32 111)) (mkPtok 5 "@calculatedFrom(" 46 10 109) (mkPtok 31 """x y""" 46 27 110) (mkPtok 6 ")" 46 32 111)) (Some (mkPtok 43 "`it's`" 46 35 112)) (mkPtok 40 "," 47 0 113)))); (mkFieldWithAttr (mkSpan (mkPtok 15 "string" 47 2 114) (mkPtok 40 "," 51 2 121)) [] (CheckSumField (mkSpan (mkPtok 15 "string" 47 2 114) (mkPtok 40 "," 51 2 121)) (mkChecksumFieldDecl (mkSpan (mkPtok 15 "string" 47 2 114) (mkPtok 40 "," 51 2 121)) (Some (TyDynamic (mkSpan (mkPtok 15 "string" 47 2 114) (mkPtok 15 "string" 47 2 114)) (mkDynamicString (mkSpan (mkPtok 15 "string" 47 2 114) (mkPtok 15 "string" 47 2 114)) (mkPtok 15 "string" 47 2 114)))) (mkPtok 42 "charz" 47 9 115) (mkCalculatedFrom (mkSpan (mkPtok 5 "@calculatedFrom(" 47 15 116) (mkPtok 6 ")" 51 0 120)) (mkPtok 5 "@calculatedFrom(" 47 15 116) (mkPtok 31 """abc""" 50 0 119) (mkPtok 6 ")" 51 0 120)) None (mkPtok 40 "," 51 2 121)))); (mkFieldWithAttr (mkSpan (mkPtok 15 "string" 52 0 122) (mkPtok 40 "," 52 16 124)) [] (MetaField (mkSpan (mkPtok 15 "string" 52 0 122) (mkPtok 40 "," 52 16 124)) None (mkMetaDecl (mkSpan (mkPtok 15 "string" 52 0 122) (mkPtok 40 "," 52 16 124)) (TyDynamic (mkSpan (mkPtok 15 "string" 52 0 122) (mkPtok 15 "string" 52 0 122)) (mkDynamicString (mkSpan (mkPtok 15 "string" 52 0 122) (mkPtok 15 "string" 52 0 122)) (mkPtok 15 "string" 52 0 122))) (mkPtok 42 "options1" 52 7 123) None (mkPtok 40 "," 52 16 124)))); (mkFieldWithAttr (mkSpan (mkPtok 7 "@lengthOf(" 55 0 127) (mkPtok 40 "," 60 9 138)) [(FALengthOf (mkSpan (mkPtok 7 "@lengthOf(" 55 0 127) (mkPtok 6 ")" 59 4 131)) (mkLengthOf (mkSpan (mkPtok 7 "@lengthOf(" 55 0 127) (mkPtok 6 ")" 59 4 131)) (mkPtok 7 "@lengthOf(" 55 0 127) (mkPtok 42 "As" 58 0 130) (mkPtok 6 ")" 59 4 131)))] (MetaField (mkSpan (mkPtok 36 "repeat" 59 6 132) (mkPtok 40 "," 60 9 138)) (Some (mkPtok 36 "repeat" 59 6 132)) (mkMetaDecl (mkSpan (mkPtok 14 "zchar[" 59 13 133) (mkPtok 40 "," 60 9 138)) (TyFixed (mkSpan (mkPtok 14 "zchar[" 59 13 133) (mkPtok 13 "]" 60 2 136)) (mkFixedString (mkSpan (mkPtok 14 "zchar[" 59 13 133) (mkPtok 13 "]" 60 2 136)) (mkPtok 14 "zchar[" 59 13 133) (mkPtok 30 "7" 60 0 135) (mkPtok 13 "]" 60 2 136))) (mkPtok 42 "zchar" 60 3 137) None (mkPtok 40 "," 60 9 138)))); (mkFieldWithAttr (mkSpan (mkPtok 7 "@lengthOf(" 60 11 139) (mkPtok 40 "," 63 7 146)) [(FALengthOf (mkSpan (mkPtok 7 "@lengthOf(" 60 11 139) (mkPtok 6 ")" 61 7 141)) (mkLengthOf (mkSpan (mkPtok 7 "@lengthOf(" 60 11 139) (mkPtok 6 ")" 61 7 141)) (mkPtok 7 "@lengthOf(" 60 11 139) (mkPtok 42 "crc" 61 4 140) (mkPtok 6 ")" 61 7 141)))] (CheckSumField (mkSpan (mkPtok 42 "x_y_z" 61 8 142) (mkPtok 40 "," 63 7 146)) (mkChecksumFieldDecl (mkSpan (mkPtok 42 "x_y_z" 61 8 142) (mkPtok 40 "," 63 7 146)) None (mkPtok 42 "x_y_z" 61 8 142) (mkCalculatedFrom (mkSpan (mkPtok 5 "@calculatedFrom(" 62 4 143) (mkPtok 6 ")" 63 5 145)) (mkPtok 5 "@calculatedFrom(" 62 4 143) (mkPtok 31 (string_of_bytes [34; 230; 182; 136; 230; 129; 175; 34]%N) 63 0 144) (mkPtok 6 ")" 63 5 145)) None (mkPtok 40 "," 63 7 146))))] (mkPtok 3 "}" 64 0 147)))])).
-Eval vm_compute in ("<<<M241>>>" ++ check (runes_of_ascii "packet falsey { int64
-BodyLength , @tag( 4294967296) // packet A { u8 x, }
-@leftPad (
-    )
-match _x as Foo
-//	t
-// packet A { u8 x, }
-{ ""\n"": asx
-// `tick` ""quote"" 'q'
-// `tick` ""quote"" 'q'
-[ ""{,}""
-,	4294967296, """ ++ [128512]%N ++ runes_of_ascii """//	t
-, """ ++ [28040; 24687]%N ++ runes_of_ascii """,
-""packet"", ""packet""
-    // " ++ [27880; 37322]%N ++ runes_of_ascii "
-    , ""x y"" ,
-// trailing space 
-// " ++ [128512]%N ++ runes_of_ascii " emoji
-7 ]	: x_y_z	, } , // `tick` ""quote"" 'q'
-A len`// not a comment`
-    ,
+Eval vm_compute in ("<<<M17>>>" ++ check (runes_of_ascii "MetaData
+matchKey
+    { trueish Packet `// not a comment` , stringy calculatedFrom`tab	here`
     //
-    repeat char[]
-i64_ `crlf
-line` ,
-// trailing space 
-// trailing space 
-repeat char[] u `line1
-line2`	, tag {string metadata ,
-    } ,
-// " ++ [27880; 37322]%N ++ runes_of_ascii "
-// " ++ [128512]%N ++ runes_of_ascii " emoji
-char[3
-    ] falsey @lengthOf(
-    leftPad ) `crlf
-line`
-,  } root	packet
-MetaDataX {@lengthOf( //
-u8x )
-    match f32a as Header {[ ""a\""b""
-//x
-// `tick` ""quote"" 'q'
-,255]:  u8x , ""packet""
-:
-uint8x
-    ,""1""
-:
-_x , },
-    Packet `doc` , zchar[
-    3 // " ++ [128512]%N ++ runes_of_ascii " emoji
-] u128 @lengthOf( asx  ) ,
-    }  MetaData x/// triple
-{
-// `tick` ""quote"" 'q'
-// `tick` ""quote"" 'q'
-As  roots , char[
-10	] crc
-// " ++ [128512]%N ++ runes_of_ascii " emoji
-/// triple
-`{ , }` ,
-    BodyLength
-asx  `u8 x,` ,matchKey i8i8 , falsey pack `" ++ [233]%N ++ runes_of_ascii "`,leftPad metadata ,
-    }
-options { pack	= 0 tag
-= f32 i64_ =""abc""	;
-// " ++ [128512]%N ++ runes_of_ascii " emoji
-// " ++ [128512]%N ++ runes_of_ascii " emoji
-f32a=
-    true ; } packet Foo { }
-")).
-Eval vm_compute in ("<<<M273>>>" ++ check (runes_of_ascii "MetaData u128 { uint8x msg_type `line1
-line2`	, }")).
-Eval vm_compute in ("<<<M305>>>" ++ check (runes_of_ascii "//	t
-root
-packet
-packetx { @lengthOf( BodyLength )zchar[ // " ++ [27880; 37322]%N ++ runes_of_ascii "
-00 ]	uint8x	@lengthOf(
-    i8i8)`tab	here` , @lengthOf( x_y_z )@leftPad ( '0'
-)
-@lengthOf( Header )
-f32 pack @calculatedFrom( ""a\\""),
-@calculatedFrom(
-""`tick`"")
-//x
-// " ++ [27880; 37322]%N ++ runes_of_ascii "
-lengthOf// " ++ [128512]%N ++ runes_of_ascii " emoji
-MetaDataX ,@lengthOf( Packet ) lengthOf @calculatedFrom(
-""\n"" )
-    `doc`
-//	t
-//	t
-, @rightPad ( )	char[	0123456789	] float , @lengthOf(
-    options1 )
-//x
-//	t
-@tag(7
-    ) @tag(
-    007) crc int, chars @calculatedFrom(
-""" ++ [233]%N ++ runes_of_ascii "t" ++ [233]%N ++ runes_of_ascii """ )//x
-, @calculatedFrom(//x
-""CRC32"" )
-repeat char[] packetx `two words` , }
-packet T { }
-packet T {char[10
-] u128 ,
-    @lengthOf( calculatedFrom  )
-    chars
-    o
+    , matchKey  o `doc` , } // 50% %s")).
+Eval vm_compute in ("<<<M49>>>" ++ check (runes_of_ascii "packet uint8x // 50% %s
+{ char[]
+crc`" ++ [233]%N ++ runes_of_ascii "`
 ,
-@calculatedFrom(""\n"" ) match// @lengthOf(
-pack  as Logon  {
-    [
-""// no comment"" , 255 , 42 , ""CRC32"", ""// no comment"" ] : asx
-""it's"" :msg_type	,
-    // `tick` ""quote"" 'q'
-    0123456789  : //	t
-msg_type
-    //	t
-    ,
-255  : //
-len
-,
-}
-    , match chars as int
-    { [ 00
-    , 42,42 ] : x
-    4294967296	: i64_, [""a	b""  ,  007// c
-, """ ++ [128512]%N ++ runes_of_ascii """ , ""// no comment""
-// @lengthOf(
-// trailing space 
-] :f32a, 42 : packetx }
-, /// triple
-crc	{a1 `" ++ [233]%N ++ runes_of_ascii "` , } ,@tag(
-3 )
-    /// triple
-    zchar[7 ]  o`
-`
-, }
-    packet roots{u64 i64_ ``,
-    }")).
-Eval vm_compute in ("<<<M337>>>" ++ check (runes_of_ascii "
-packet
-metadata {
-i8 BodyLength,
-asx `two words`  ,char[ 0123456789] asx`" ++ [28040; 24687; 31867; 22411]%N ++ runes_of_ascii "`// " ++ [128512]%N ++ runes_of_ascii " emoji
-, @tag(
-42/// triple
-)
-    repeat	charz `crlf
-line` ,
-body ,@tag( 65535  ) match
-    // " ++ [128512]%N ++ runes_of_ascii " emoji
-    Pad as x_y_z  { ""{,}"" :
-u , } ,
-    repeat Foo
-    {repeat pack {
-// `tick` ""quote"" 'q'
-// `tick` ""quote"" 'q'
-f32 calculatedFrom
-    @lengthOf( options1
-    )
-,
-//x
-// c
-}
-, int32 Header @calculatedFrom(""a	b"")
-, char[]
-zchar
-    `
-`
-    ,
-    zchar[00 ]a1 @calculatedFrom(
-    // c
-    ""{,}"") `crlf
-line` , }
-,
-    body zchar ,i64_ @calculatedFrom( ""a\\""  )
-, // " ++ [27880; 37322]%N ++ runes_of_ascii "
-match
-/// triple
-// " ++ [27880; 37322]%N ++ runes_of_ascii "
-zchar
-as zchar {	1 : u128
-    ,
-255
-: packetx, [""{,}"" ,""// no comment"",  0 , 65535 ,  3 ] :  u8x, 0123456789:  calculatedFrom // `tick` ""quote"" 'q'
-, 10 : Header	,
-}
-    ,
-}packet string_
-{ @tag( 10 ) T, @calculatedFrom(""CRC32""//	t
-)@lengthOf(charz )@lengthOf(
-zchar) zchar[
-42
-    ] // a // b
-a1 `" ++ [233]%N ++ runes_of_ascii "` , int32 x `two words` //
-, float32 repeatCount ,
-    //
-    @lengthOf(
-    Packet) @rightPad('0'	) // @lengthOf(
-@calculatedFrom(""a\""b"") zchar[ 0 ]	repeatCount @lengthOf(
-BodyLength  ) // trailing space 
-, float,
-repeat
-zchar
-// trailing space 
-//x
-,} root packet body
-{  @lengthOf(msg_type) repeat
-    u128 {// trailing space 
-char[
-// " ++ [128512]%N ++ runes_of_ascii " emoji
-//
-0123456789 ]options1
-,
-}	, //	t
-f64
-    u128`it's`	,// @lengthOf(
-repeat  i64 charz ,
-@calculatedFrom( """ ++ [128512]%N ++ runes_of_ascii """ )
-    repeat char
-    roots, } packet
-metadata // @lengthOf(
-{ // trailing space 
-@lengthOf( // packet A { u8 x, }
-BodyLength ) @tag( 4294967296  ) f32a
-A
-, } MetaData u128 { } //")).
-Eval vm_compute in ("<<<M369>>>" ++ check (runes_of_ascii "packet lengthOf
-    { @tag(007 )trueish
-    // c
-    {
-    repeat string asx,
-} , } options
-    {roots=
-    ""x y""	; }
-")).
-Eval vm_compute in ("<<<M401>>>" ++ check (runes_of_ascii "packet float { @leftPad ( ' ' )repeat
-metadata falsey
-,lengthOf matchKey , int32
-roots , int16 Pad@calculatedFrom( // " ++ [128512]%N ++ runes_of_ascii " emoji
-""\" ++ [233]%N ++ runes_of_ascii """)
-, // a // b
+u8 //x
+BodyLength`crlf
+line` , @tag(65535 )
+@calculatedFrom( ""packet"" ) uint8x {
 lengthOf
-    @calculatedFrom( ""`tick`"")// c
-`" ++ [28040; 24687; 31867; 22411]%N ++ runes_of_ascii "` ,
-@lengthOf( metadata) i8i8
-,@rightPad(
-// packet A { u8 x, }
-//	t
-'0'
-) Foo ,
-    // trailing space 
-    @tag(
-10 //
-)chars	`
-`
-    , @tag( 7
-)
-    // " ++ [128512]%N ++ runes_of_ascii " emoji
-    @leftPad ( ) repeat zchar[ 255 ]
-u128
-, // c
-}
-    options {//	t
-msg_type =
-0	; // @lengthOf(
-u = ' ' x_y_z =65535 u128 // packet A { u8 x, }
-= char[] ; zchar	= zchar[ 3
-    ]
-; }
-
-")).
-Eval vm_compute in ("<<<M433>>>" ++ check (runes_of_ascii "packet body{ @tag(42 )
-rootA Logon `line1
-line2`
-, repeatCount{ repeat lengthOf x_y_z , Pad
-    , repeat falsey packetx
-    ,	string rootA`` /// triple
-,} ,
-@leftPad
-    // a // b
-    ('\x00' )char[
-0
-]
-    roots , msg_type
-,
-u128 charz
-    ,
-    string crc`" ++ [28040; 24687; 31867; 22411]%N ++ runes_of_ascii "`
-    , match Header as Packet
-    {
-10  :x , [
-//x
-// `tick` ""quote"" 'q'
-""1""] : matchKey
-, 10
-: // @lengthOf(
-i64_ 255// a // b
-:T , } ,
-} packet	o { }")).
-Eval vm_compute in ("<<<T433>>>" ++ terms [mkTok 35 "packet" 1 0 false; mkTok 42 "body" 1 7 false; mkTok 2 "{" 1 11 false; mkTok 9 "@tag(" 1 13 false; mkTok 30 "42" 1 18 false; mkTok 6 ")" 1 21 false; mkTok 42 "rootA" 2 0 false; mkTok 42 "Logon" 2 6 false; mkTok 43 (string_of_bytes [96; 108; 105; 110; 101; 49; 10; 108; 105; 110; 101; 50; 96]%N) 2 12 false; mkTok 40 "," 4 0 false; mkTok 42 "repeatCount" 4 2 false; mkTok 2 "{" 4 13 false; mkTok 36 "repeat" 4 15 false; mkTok 42 "lengthOf" 4 22 false; mkTok 42 "x_y_z" 4 31 false; mkTok 40 "," 4 37 false; mkTok 42 "Pad" 4 39 false; mkTok 40 "," 5 4 false; mkTok 36 "repeat" 5 6 false; mkTok 42 "falsey" 5 13 false; mkTok 42 "packetx" 5 20 false; mkTok 40 "," 6 4 false; mkTok 15 "string" 6 6 false; mkTok 42 "rootA" 6 13 false; mkTok 43 "``" 6 18 false; mkTok 44 "/// triple" 6 21 true; mkTok 40 "," 7 0 false; mkTok 3 "}" 7 1 false; mkTok 40 "," 7 3 false; mkTok 32 "@leftPad" 8 0 false; mkTok 44 "// a // b" 9 4 true; mkTok 8 "(" 10 4 false; mkTok 33 "'\x00'" 10 5 false; mkTok 6 ")" 10 12 false; mkTok 12 "char[" 10 13 false; mkTok 30 "0" 11 0 false; mkTok 13 "]" 12 0 false; mkTok 42 "roots" 13 4 false; mkTok 40 "," 13 10 false; mkTok 42 "msg_type" 13 12 false; mkTok 40 "," 14 0 false; mkTok 42 "u128" 15 0 false; mkTok 42 "charz" 15 5 false; mkTok 40 "," 16 4 false; mkTok 15 "string" 17 4 false; mkTok 42 "crc" 17 11 false; mkTok 43 (string_of_bytes [96; 230; 182; 136; 230; 129; 175; 231; 177; 187; 229; 158; 139; 96]%N) 17 14 false; mkTok 40 "," 18 4 false; mkTok 38 "match" 18 6 false; mkTok 42 "Header" 18 12 false; mkTok 17 "as" 18 19 false; mkTok 42 "Packet" 18 22 false; mkTok 2 "{" 19 4 false; mkTok 30 "10" 20 0 false; mkTok 39 ":" 20 4 false; mkTok 42 "x" 20 5 false; mkTok 40 "," 20 7 false; mkTok 18 "[" 20 9 false; mkTok 44 "//x" 21 0 true; mkTok 44 "// `tick` ""quote"" 'q'" 22 0 true; mkTok 31 """1""" 23 0 false; mkTok 13 "]" 23 3 false; mkTok 39 ":" 23 5 false; mkTok 42 "matchKey" 23 7 false; mkTok 40 "," 24 0 false; mkTok 30 "10" 24 2 false; mkTok 39 ":" 25 0 false; mkTok 44 "// @lengthOf(" 25 2 true; mkTok 42 "i64_" 26 0 false; mkTok 30 "255" 26 5 false; mkTok 44 "// a // b" 26 8 true; mkTok 39 ":" 27 0 false; mkTok 42 "T" 27 1 false; mkTok 40 "," 27 3 false; mkTok 3 "}" 27 5 false; mkTok 40 "," 27 7 false; mkTok 3 "}" 28 0 false; mkTok 35 "packet" 28 2 false; mkTok 42 "o" 28 9 false; mkTok 2 "{" 28 11 false; mkTok 3 "}" 28 13 false; mkTok 0 "<EOF>" 28 14 false] (mkPacket (mkPtok 35 "packet" 1 0 0) (Some (mkPtok 3 "}" 28 13 80)) [(DPacket (mkPacketDef (mkSpan (mkPtok 35 "packet" 1 0 0) (mkPtok 3 "}" 28 0 76)) None (mkPtok 35 "packet" 1 0 0) (mkPtok 42 "body" 1 7 1) (mkPtok 2 "{" 1 11 2) [(mkFieldWithAttr (mkSpan (mkPtok 9 "@tag(" 1 13 3) (mkPtok 40 "," 4 0 9)) [(FATag (mkSpan (mkPtok 9 "@tag(" 1 13 3) (mkPtok 6 ")" 1 21 5)) (mkTagAttr (mkSpan (mkPtok 9 "@tag(" 1 13 3) (mkPtok 6 ")" 1 21 5)) (mkPtok 9 "@tag(" 1 13 3) (mkPtok 30 "42" 1 18 4) (mkPtok 6 ")" 1 21 5)))] (ObjectField (mkSpan (mkPtok 42 "rootA" 2 0 6) (mkPtok 40 "," 4 0 9)) None (mkPtok 42 "rootA" 2 0 6) (Some (mkPtok 42 "Logon" 2 6 7)) (Some (mkPtok 43 (string_of_bytes [96; 108; 105; 110; 101; 49; 10; 108; 105; 110; 101; 50; 96]%N) 2 12 8)) (mkPtok 40 "," 4 0 9))); (mkFieldWithAttr (mkSpan (mkPtok 42 "repeatCount" 4 2 10) (mkPtok 40 "," 7 3 28)) [] (InerObjectField (mkSpan (mkPtok 42 "repeatCount" 4 2 10) (mkPtok 40 "," 7 3 28)) None (InerObjectDecl (mkSpan (mkPtok 42 "repeatCount" 4 2 10) (mkPtok 3 "}" 7 1 27)) (mkPtok 42 "repeatCount" 4 2 10) (mkPtok 2 "{" 4 13 11) [(ObjectField (mkSpan (mkPtok 36 "repeat" 4 15 12) (mkPtok 40 "," 4 37 15)) (Some (mkPtok 36 "repeat" 4 15 12)) (mkPtok 42 "lengthOf" 4 22 13) (Some (mkPtok 42 "x_y_z" 4 31 14)) None (mkPtok 40 "," 4 37 15)); (ObjectField (mkSpan (mkPtok 42 "Pad" 4 39 16) (mkPtok 40 "," 5 4 17)) None (mkPtok 42 "Pad" 4 39 16) None None (mkPtok 40 "," 5 4 17)); (ObjectField (mkSpan (mkPtok 36 "repeat" 5 6 18) (mkPtok 40 "," 6 4 21)) (Some (mkPtok 36 "repeat" 5 6 18)) (mkPtok 42 "falsey" 5 13 19) (Some (mkPtok 42 "packetx" 5 20 20)) None (mkPtok 40 "," 6 4 21)); (MetaField (mkSpan (mkPtok 15 "string" 6 6 22) (mkPtok 40 "," 7 0 26)) None (mkMetaDecl (mkSpan (mkPtok 15 "string" 6 6 22) (mkPtok 40 "," 7 0 26)) (TyDynamic (mkSpan (mkPtok 15 "string" 6 6 22) (mkPtok 15 "string" 6 6 22)) (mkDynamicString (mkSpan (mkPtok 15 "string" 6 6 22) (mkPtok 15 "string" 6 6 22)) (mkPtok 15 "string" 6 6 22))) (mkPtok 42 "rootA" 6 13 23) (Some (mkPtok 43 "``" 6 18 24)) (mkPtok 40 "," 7 0 26)))] (mkPtok 3 "}" 7 1 27)) (mkPtok 40 "," 7 3 28))); (mkFieldWithAttr (mkSpan (mkPtok 32 "@leftPad" 8 0 29) (mkPtok 40 "," 13 10 38)) [(FAPadding (mkSpan (mkPtok 32 "@leftPad" 8 0 29) (mkPtok 6 ")" 10 12 33)) (mkPaddingAttr (mkSpan (mkPtok 32 "@leftPad" 8 0 29) (mkPtok 6 ")" 10 12 33)) (mkPtok 32 "@leftPad" 8 0 29) (mkPtok 8 "(" 10 4 31) (Some (mkPtok 33 "'\x00'" 10 5 32)) (mkPtok 6 ")" 10 12 33)))] (MetaField (mkSpan (mkPtok 12 "char[" 10 13 34) (mkPtok 40 "," 13 10 38)) None (mkMetaDecl (mkSpan (mkPtok 12 "char[" 10 13 34) (mkPtok 40 "," 13 10 38)) (TyFixed (mkSpan (mkPtok 12 "char[" 10 13 34) (mkPtok 13 "]" 12 0 36)) (mkFixedString (mkSpan (mkPtok 12 "char[" 10 13 34) (mkPtok 13 "]" 12 0 36)) (mkPtok 12 "char[" 10 13 34) (mkPtok 30 "0" 11 0 35) (mkPtok 13 "]" 12 0 36))) (mkPtok 42 "roots" 13 4 37) None (mkPtok 40 "," 13 10 38)))); (mkFieldWithAttr (mkSpan (mkPtok 42 "msg_type" 13 12 39) (mkPtok 40 "," 14 0 40)) [] (ObjectField (mkSpan (mkPtok 42 "msg_type" 13 12 39) (mkPtok 40 "," 14 0 40)) None (mkPtok 42 "msg_type" 13 12 39) None None (mkPtok 40 "," 14 0 40))); (mkFieldWithAttr (mkSpan (mkPtok 42 "u128" 15 0 41) (mkPtok 40 "," 16 4 43)) [] (ObjectField (mkSpan (mkPtok 42 "u128" 15 0 41) (mkPtok 40 "," 16 4 43)) None (mkPtok 42 "u128" 15 0 41) (Some (mkPtok 42 "charz" 15 5 42)) None (mkPtok 40 "," 16 4 43))); (mkFieldWithAttr (mkSpan (mkPtok 15 "string" 17 4 44) (mkPtok 40 "," 18 4 47)) [] (MetaField (mkSpan (mkPtok 15 "string" 17 4 44) (mkPtok 40 "," 18 4 47)) None (mkMetaDecl (mkSpan (mkPtok 15 "string" 17 4 44) (mkPtok 40 "," 18 4 47)) (TyDynamic (mkSpan (mkPtok 15 "string" 17 4 44) (mkPtok 15 "string" 17 4 44)) (mkDynamicString (mkSpan (mkPtok 15 "string" 17 4 44) (mkPtok 15 "string" 17 4 44)) (mkPtok 15 "string" 17 4 44))) (mkPtok 42 "crc" 17 11 45) (Some (mkPtok 43 (string_of_bytes [96; 230; 182; 136; 230; 129; 175; 231; 177; 187; 229; 158; 139; 96]%N) 17 14 46)) (mkPtok 40 "," 18 4 47)))); (mkFieldWithAttr (mkSpan (mkPtok 38 "match" 18 6 48) (mkPtok 40 "," 27 7 75)) [] (MatchField (mkSpan (mkPtok 38 "match" 18 6 48) (mkPtok 40 "," 27 7 75)) (mkMatchFieldDecl (mkSpan (mkPtok 38 "match" 18 6 48) (mkPtok 3 "}" 27 5 74)) (mkPtok 38 "match" 18 6 48) (mkPtok 42 "Header" 18 12 49) (mkPtok 17 "as" 18 19 50) (mkPtok 42 "Packet" 18 22 51) (mkPtok 2 "{" 19 4 52) [(mkMatchPair (mkSpan (mkPtok 30 "10" 20 0 53) (mkPtok 40 "," 20 7 56)) (MKDigits (mkPtok 30 "10" 20 0 53)) (mkPtok 39 ":" 20 4 54) (mkPtok 42 "x" 20 5 55) (Some (mkPtok 40 "," 20 7 56))); (mkMatchPair (mkSpan (mkPtok 18 "[" 20 9 57) (mkPtok 40 "," 24 0 64)) (MKList (mkKeyList (mkSpan (mkPtok 18 "[" 20 9 57) (mkPtok 13 "]" 23 3 61)) (mkPtok 18 "[" 20 9 57) (mkPtok 31 """1""" 23 0 60) [] (mkPtok 13 "]" 23 3 61))) (mkPtok 39 ":" 23 5 62) (mkPtok 42 "matchKey" 23 7 63) (Some (mkPtok 40 "," 24 0 64))); (mkMatchPair (mkSpan (mkPtok 30 "10" 24 2 65) (mkPtok 42 "i64_" 26 0 68)) (MKDigits (mkPtok 30 "10" 24 2 65)) (mkPtok 39 ":" 25 0 66) (mkPtok 42 "i64_" 26 0 68) None); (mkMatchPair (mkSpan (mkPtok 30 "255" 26 5 69) (mkPtok 40 "," 27 3 73)) (MKDigits (mkPtok 30 "255" 26 5 69)) (mkPtok 39 ":" 27 0 71) (mkPtok 42 "T" 27 1 72) (Some (mkPtok 40 "," 27 3 73)))] (mkPtok 3 "}" 27 5 74)) (mkPtok 40 "," 27 7 75)))] (mkPtok 3 "}" 28 0 76))); (DPacket (mkPacketDef (mkSpan (mkPtok 35 "packet" 28 2 77) (mkPtok 3 "}" 28 13 80)) None (mkPtok 35 "packet" 28 2 77) (mkPtok 42 "o" 28 9 78) (mkPtok 2 "{" 28 11 79) [] (mkPtok 3 "}" 28 13 80)))])).
-Eval vm_compute in ("<<<M465>>>" ++ check (runes_of_ascii "packet Packet {
-@calculatedFrom( ""a	b"" ) int16 int
-    @lengthOf(
-// @lengthOf(
-// packet A { u8 x, }
-rootA ) ,Foo{ repeat string int
-    // `tick` ""quote"" 'q'
-    ,
-    rootA packetx
-    ,match
-    uint8x as Pad{ 1	:
-    // packet A { u8 x, }
-    Foo , 3	:
-chars , 255
-:
-//
-// `tick` ""quote"" 'q'
-charz ""x y""
-: lengthOf , [
-    4294967296 ,	""" ++ [233]%N ++ runes_of_ascii "t" ++ [233]%N ++ runes_of_ascii """//x
-] : crc } //x
-,	} //	t
-,
-    string
-msg_type , }
-
-")).
-Eval vm_compute in ("<<<M497>>>" ++ check (@nil rune)).
-Eval vm_compute in ("<<<M529>>>" ++ check (runes_of_ascii "
-")).
-Eval vm_compute in ("<<<M561>>>" ++ check (runes_of_ascii "
-")).
-Eval vm_compute in ("<<<M593>>>" ++ check (@nil rune)).
-Eval vm_compute in ("<<<M625>>>" ++ check (runes_of_ascii "options { len
-=""x y""; } packet // @lengthOf(
-repeatCount { zchar[ // a // b
-7]
-f32a ,
-} packet
-    asx { len @calculatedFrom( ""a\\"" ) `line1
-line2`
-// @lengthOf(
-// " ++ [27880; 37322]%N ++ runes_of_ascii "
-, @lengthOf(T
-    ) u8x`a\` ,@tag(3 )
-    char Pad `
-` ,
-    char[
-    4294967296 //	t
-]
-    metadata
-    @calculatedFrom( ""CRC32"") ,	@lengthOf( Header ) u64
-    uint8x// `tick` ""quote"" 'q'
-@calculatedFrom(""x y""
-    ) , }
-// " ++ [128512]%N ++ runes_of_ascii " emoji
-")).
-Eval vm_compute in ("<<<M657>>>" ++ check (runes_of_ascii "MetaData BodyLength {  zchar[ 00 ]a1 ,
-i64 A
-`" ++ [233]%N ++ runes_of_ascii "` , int8 i8i8
-`doc`
-,char[ 1 ]Header
-``// " ++ [128512]%N ++ runes_of_ascii " emoji
-, } options
-    {asx
-=
-false;
-    T=	""CRC32""u8x
-= ' '
-    float =
-3 } packet o /// triple
-{ @rightPad( '0'
-    // a // b
-    ) calculatedFrom `crlf
-line` ,}")).
-Eval vm_compute in ("<<<T657>>>" ++ terms [mkTok 37 "MetaData" 1 0 false; mkTok 42 "BodyLength" 1 9 false; mkTok 2 "{" 1 20 false; mkTok 14 "zchar[" 1 23 false; mkTok 30 "00" 1 30 false; mkTok 13 "]" 1 33 false; mkTok 42 "a1" 1 34 false; mkTok 40 "," 1 37 false; mkTok 27 "i64" 2 0 false; mkTok 42 "A" 2 4 false; mkTok 43 (string_of_bytes [96; 195; 169; 96]%N) 3 0 false; mkTok 40 "," 3 4 false; mkTok 24 "int8" 3 6 false; mkTok 42 "i8i8" 3 11 false; mkTok 43 "`doc`" 4 0 false; mkTok 40 "," 5 0 false; mkTok 12 "char[" 5 1 false; mkTok 30 "1" 5 7 false; mkTok 13 "]" 5 9 false; mkTok 42 "Header" 5 10 false; mkTok 43 "``" 6 0 false; mkTok 44 (string_of_bytes [47; 47; 32; 240; 159; 152; 128; 32; 101; 109; 111; 106; 105]%N) 6 2 true; mkTok 40 "," 7 0 false; mkTok 3 "}" 7 2 false; mkTok 1 "options" 7 4 false; mkTok 2 "{" 8 4 false; mkTok 42 "asx" 8 5 false; mkTok 4 "=" 9 0 false; mkTok 11 "false" 10 0 false; mkTok 41 ";" 10 5 false; mkTok 42 "T" 11 4 false; mkTok 4 "=" 11 5 false; mkTok 31 """CRC32""" 11 7 false; mkTok 42 "u8x" 11 14 false; mkTok 4 "=" 12 0 false; mkTok 33 "' '" 12 2 false; mkTok 42 "float" 13 4 false; mkTok 4 "=" 13 10 false; mkTok 30 "3" 14 0 false; mkTok 3 "}" 14 2 false; mkTok 35 "packet" 14 4 false; mkTok 42 "o" 14 11 false; mkTok 44 "/// triple" 14 13 true; mkTok 2 "{" 15 0 false; mkTok 32 "@rightPad" 15 2 false; mkTok 8 "(" 15 11 false; mkTok 33 "'0'" 15 13 false; mkTok 44 "// a // b" 16 4 true; mkTok 6 ")" 17 4 false; mkTok 42 "calculatedFrom" 17 6 false; mkTok 43 (string_of_bytes [96; 99; 114; 108; 102; 13; 10; 108; 105; 110; 101; 96]%N) 17 21 false; mkTok 40 "," 18 6 false; mkTok 3 "}" 18 7 false; mkTok 0 "<EOF>" 18 8 false] (mkPacket (mkPtok 37 "MetaData" 1 0 0) (Some (mkPtok 3 "}" 18 7 52)) [(DMeta (mkMetaDef (mkSpan (mkPtok 37 "MetaData" 1 0 0) (mkPtok 3 "}" 7 2 23)) (mkPtok 37 "MetaData" 1 0 0) (mkPtok 42 "BodyLength" 1 9 1) (mkPtok 2 "{" 1 20 2) [(MIDecl (mkMetaDecl (mkSpan (mkPtok 14 "zchar[" 1 23 3) (mkPtok 40 "," 1 37 7)) (TyFixed (mkSpan (mkPtok 14 "zchar[" 1 23 3) (mkPtok 13 "]" 1 33 5)) (mkFixedString (mkSpan (mkPtok 14 "zchar[" 1 23 3) (mkPtok 13 "]" 1 33 5)) (mkPtok 14 "zchar[" 1 23 3) (mkPtok 30 "00" 1 30 4) (mkPtok 13 "]" 1 33 5))) (mkPtok 42 "a1" 1 34 6) None (mkPtok 40 "," 1 37 7))); (MIDecl (mkMetaDecl (mkSpan (mkPtok 27 "i64" 2 0 8) (mkPtok 40 "," 3 4 11)) (TyBasic (mkSpan (mkPtok 27 "i64" 2 0 8) (mkPtok 27 "i64" 2 0 8)) (mkBasicType (mkSpan (mkPtok 27 "i64" 2 0 8) (mkPtok 27 "i64" 2 0 8)) (mkPtok 27 "i64" 2 0 8))) (mkPtok 42 "A" 2 4 9) (Some (mkPtok 43 (string_of_bytes [96; 195; 169; 96]%N) 3 0 10)) (mkPtok 40 "," 3 4 11))); (MIDecl (mkMetaDecl (mkSpan (mkPtok 24 "int8" 3 6 12) (mkPtok 40 "," 5 0 15)) (TyBasic (mkSpan (mkPtok 24 "int8" 3 6 12) (mkPtok 24 "int8" 3 6 12)) (mkBasicType (mkSpan (mkPtok 24 "int8" 3 6 12) (mkPtok 24 "int8" 3 6 12)) (mkPtok 24 "int8" 3 6 12))) (mkPtok 42 "i8i8" 3 11 13) (Some (mkPtok 43 "`doc`" 4 0 14)) (mkPtok 40 "," 5 0 15))); (MIDecl (mkMetaDecl (mkSpan (mkPtok 12 "char[" 5 1 16) (mkPtok 40 "," 7 0 22)) (TyFixed (mkSpan (mkPtok 12 "char[" 5 1 16) (mkPtok 13 "]" 5 9 18)) (mkFixedString (mkSpan (mkPtok 12 "char[" 5 1 16) (mkPtok 13 "]" 5 9 18)) (mkPtok 12 "char[" 5 1 16) (mkPtok 30 "1" 5 7 17) (mkPtok 13 "]" 5 9 18))) (mkPtok 42 "Header" 5 10 19) (Some (mkPtok 43 "``" 6 0 20)) (mkPtok 40 "," 7 0 22)))] (mkPtok 3 "}" 7 2 23))); (DOption (mkOptionDef (mkSpan (mkPtok 1 "options" 7 4 24) (mkPtok 3 "}" 14 2 39)) (mkPtok 1 "options" 7 4 24) (mkPtok 2 "{" 8 4 25) [(mkOptionDecl (mkSpan (mkPtok 42 "asx" 8 5 26) (mkPtok 41 ";" 10 5 29)) (mkPtok 42 "asx" 8 5 26) (mkPtok 4 "=" 9 0 27) (VFalse (mkSpan (mkPtok 11 "false" 10 0 28) (mkPtok 11 "false" 10 0 28)) (mkPtok 11 "false" 10 0 28)) (Some (mkPtok 41 ";" 10 5 29))); (mkOptionDecl (mkSpan (mkPtok 42 "T" 11 4 30) (mkPtok 31 """CRC32""" 11 7 32)) (mkPtok 42 "T" 11 4 30) (mkPtok 4 "=" 11 5 31) (VString (mkSpan (mkPtok 31 """CRC32""" 11 7 32) (mkPtok 31 """CRC32""" 11 7 32)) (mkPtok 31 """CRC32""" 11 7 32)) None); (mkOptionDecl (mkSpan (mkPtok 42 "u8x" 11 14 33) (mkPtok 33 "' '" 12 2 35)) (mkPtok 42 "u8x" 11 14 33) (mkPtok 4 "=" 12 0 34) (VPaddingChar (mkSpan (mkPtok 33 "' '" 12 2 35) (mkPtok 33 "' '" 12 2 35)) (mkPtok 33 "' '" 12 2 35)) None); (mkOptionDecl (mkSpan (mkPtok 42 "float" 13 4 36) (mkPtok 30 "3" 14 0 38)) (mkPtok 42 "float" 13 4 36) (mkPtok 4 "=" 13 10 37) (VDigits (mkSpan (mkPtok 30 "3" 14 0 38) (mkPtok 30 "3" 14 0 38)) (mkPtok 30 "3" 14 0 38)) None)] (mkPtok 3 "}" 14 2 39))); (DPacket (mkPacketDef (mkSpan (mkPtok 35 "packet" 14 4 40) (mkPtok 3 "}" 18 7 52)) None (mkPtok 35 "packet" 14 4 40) (mkPtok 42 "o" 14 11 41) (mkPtok 2 "{" 15 0 43) [(mkFieldWithAttr (mkSpan (mkPtok 32 "@rightPad" 15 2 44) (mkPtok 40 "," 18 6 51)) [(FAPadding (mkSpan (mkPtok 32 "@rightPad" 15 2 44) (mkPtok 6 ")" 17 4 48)) (mkPaddingAttr (mkSpan (mkPtok 32 "@rightPad" 15 2 44) (mkPtok 6 ")" 17 4 48)) (mkPtok 32 "@rightPad" 15 2 44) (mkPtok 8 "(" 15 11 45) (Some (mkPtok 33 "'0'" 15 13 46)) (mkPtok 6 ")" 17 4 48)))] (ObjectField (mkSpan (mkPtok 42 "calculatedFrom" 17 6 49) (mkPtok 40 "," 18 6 51)) None (mkPtok 42 "calculatedFrom" 17 6 49) None (Some (mkPtok 43 (string_of_bytes [96; 99; 114; 108; 102; 13; 10; 108; 105; 110; 101; 96]%N) 17 21 50)) (mkPtok 40 "," 18 6 51)))] (mkPtok 3 "}" 18 7 52)))])).
-Eval vm_compute in ("<<<M689>>>" ++ check (runes_of_ascii "packet
-falsey { uint64 calculatedFrom@lengthOf(//	t
-msg_type )
-/// triple
-//	t
-, i16
-    zchar , f32	a1 ,
-    // " ++ [27880; 37322]%N ++ runes_of_ascii "
-    @calculatedFrom(
-""// no comment"")a1 /// triple
-`say ""hi""`,
-As
-// " ++ [128512]%N ++ runes_of_ascii " emoji
-//x
-Z9_ ,
-    // packet A { u8 x, }
-    repeatCount @lengthOf(uint8x ) , u8 o @calculatedFrom(	""`tick`"")`say ""hi""`
-,
-f32
-    A @lengthOf(
-    //
-    packetx
-    // `tick` ""quote"" 'q'
-    )`line1
-line2` ,}	MetaData len
-    {As rootA
-, zchar[ 10
-]
-BodyLength `it's` ,
-int32	crc
-`
-` ,
-zchar
-u8x
-, leftPad BodyLength ,
-} MetaData zchar
-{options1 calculatedFrom, zchar[ 7  ]trueish
-    // c
-    , } // " ++ [27880; 37322]%N ++ runes_of_ascii "
-root
-    packet Foo { @lengthOf( i8i8 )	repeat	zchar[  255 ] u `// not a comment`
-,} MetaData // " ++ [27880; 37322]%N ++ runes_of_ascii "
-int
-    /// triple
-    { uint16 matchKey  , int16 // `tick` ""quote"" 'q'
-x_y_z//
-`say ""hi""` ,
-leftPad Logon ,}
-")).
-Eval vm_compute in ("<<<M721>>>" ++ check (runes_of_ascii "packet uint8x {@lengthOf( Z9_) match A as As { 3
-    : float,""x y"" :
-    pack
-, 255  :
-    roots
-    ,
-    [  ""\n""]	: int
-    , // " ++ [27880; 37322]%N ++ runes_of_ascii "
-[ // @lengthOf(
-""CRC32"" , ""1""] :
-    len , } ,char[] options1`{ , }` ,	@tag(
-    255  )	f32a @calculatedFrom( """ ++ [28040; 24687]%N ++ runes_of_ascii """)`// not a comment` ,match
-    x as pack{ ""// no comment"" : roots //
-,
-    """ ++ [233]%N ++ runes_of_ascii "t" ++ [233]%N ++ runes_of_ascii """ :	asx, [ ""1"",
-""abc"" , 4294967296
-    , """ ++ [128512]%N ++ runes_of_ascii """  ]
-    // `tick` ""quote"" 'q'
-    :crc , ""{,}"" :
-    // a // b
-    As
-00 //
-: string_
-    ,
-}
-, Logon ,
-    } packet tag { // " ++ [27880; 37322]%N ++ runes_of_ascii "
-@tag(00
-)a1 { u8
-zchar
-`` , }, @rightPad ( ' '
-    )o i8i8 , f64 Logon @lengthOf(options1)
-    , }
-    packet pack{ }
-// a // b
-")).
-Eval vm_compute in ("<<<M753>>>" ++ check (runes_of_ascii "
-")).
-Eval vm_compute in ("<<<M785>>>" ++ check (runes_of_ascii "  root packet Packet{ @lengthOf( u128 ) match Foo
-    as metadata{[ """ ++ [28040; 24687]%N ++ runes_of_ascii """, ""a	b"" ] :Z9_ ""packet""
-: metadata	,[
-    0123456789 , 10 ,
-    // @lengthOf(
-    ""1"" , ""1""
-    /// triple
-    , 4294967296	,""it's"" ,
-    ""`tick`"" , ""{,}""]:
-As ,
-0 : repeatCount } , match rootA	as  zchar { 7
-    // `tick` ""quote"" 'q'
-    : // `tick` ""quote"" 'q'
-Logon
-    ,""a\\"" :
-body""" ++ [128512]%N ++ runes_of_ascii """
-: T// a // b
-, [ ""1""
-,
-""a\\"" , 65535
-    ,
-""" ++ [233]%N ++ runes_of_ascii "t" ++ [233]%N ++ runes_of_ascii """ ,	""x y"" // c
-, 3 // c
-]
-// a // b
-// trailing space 
-:
-/// triple
-// trailing space 
-len // trailing space 
-,""" ++ [128512]%N ++ runes_of_ascii """
-: o , }  ,  @lengthOf( options1 ) A @calculatedFrom(
-""a\""b"" )`" ++ [233]%N ++ runes_of_ascii "`
-, /// triple
-@rightPad
-    ( // c
-)  u64 i8i8 @calculatedFrom(""{,}"" ) `// not a comment`, repeat pack
-{ char[] MetaDataX
-, } , @lengthOf(
-// c
-// " ++ [128512]%N ++ runes_of_ascii " emoji
-roots ) // packet A { u8 x, }
-@lengthOf(	msg_type )
-@calculatedFrom( ""// no comment"" ) char[ 3 ]
-string_@lengthOf(
-    pack
-    ) // " ++ [27880; 37322]%N ++ runes_of_ascii "
-`doc` , }
-// `tick` ""quote"" 'q'
-")).
-Eval vm_compute in ("<<<M817>>>" ++ check (runes_of_ascii "
-packet Packet {
-@tag( 10 // a // b
-) match trueish as x_y_z
-{ ""it's"" : i8i8 ,
-// " ++ [27880; 37322]%N ++ runes_of_ascii "
-// " ++ [27880; 37322]%N ++ runes_of_ascii "
-00: asx } , zchar[ 007] u
-@calculatedFrom( ""`tick`"")`line1
-line2`  ,
-    /// triple
-    chars @calculatedFrom( """"),
-    match
-    zchar
-as _x
-{00 : rootA
-""\" ++ [233]%N ++ runes_of_ascii """: metadata
-// c
-// trailing space 
-,	}
-// a // b
-//
-, body
-    {
-    u32 u128 @calculatedFrom( ""{,}"" ) , repeat char[
-    //x
-    4294967296	]u `say ""hi""` ,
-} // c
-,
-    @lengthOf(stringy
-    ) float
-{string//x
-leftPad, repeat	uint16 Pad ,char u // @lengthOf(
-, // " ++ [128512]%N ++ runes_of_ascii " emoji
-i8i8 u ,
-    } ,	match o as
-x
-    {  [ ""`tick`"" ,
-""1"" , 10 ,
-//
-// c
-1 , 00, 0 , 255] :uint8x//
-, 0 : T , //
-1 :trueish 1
-: rootA, } // @lengthOf(
-, zchar[ //	t
-255 ] T`line1
-line2` , @leftPad ( '0' // c
-) @leftPad
-( '\x00')
-@tag(	007 ) match T
-as
-    u8x{ [ 007
-]
-: A , 0 :x,[ 4294967296 ] :
-charz,"""" : As //
-, 7
-    :// `tick` ""quote"" 'q'
-int ,
-65535: x_y_z
-,
-    }, // trailing space 
-} options{ /// triple
-x
-= '\x00' ; // packet A { u8 x, }
-}
-    // " ++ [128512]%N ++ runes_of_ascii " emoji
-    root packet i64_ {  @tag(4294967296  ) falsey options1// `tick` ""quote"" 'q'
-, uint64 Pad `doc` , @tag(
-65535 )
-    char
-// " ++ [128512]%N ++ runes_of_ascii " emoji
-/// triple
-Logon @calculatedFrom(
-    """"
-// @lengthOf(
-// c
-)
-    ,char[ 0 // @lengthOf(
-]MetaDataX `a\` /// triple
-, //
-metadata f32a `tab	here` , stringy Header ,
-    @leftPad () //x
-@calculatedFrom(// c
-""\" ++ [233]%N ++ runes_of_ascii """ ) @calculatedFrom(""" ++ [128512]%N ++ runes_of_ascii """ )
-    char[] body @calculatedFrom( ""a	b"" )	`a\` , }")).
-Eval vm_compute in ("<<<M849>>>" ++ check (runes_of_ascii "//
-MetaData  u{uint64	string_
-`doc` ,A metadata`u8 x,`
-, string Logon `u8 x,` , float64 float ,
-    char[] T
-`crlf
-line` , u8 Logon, }
-")).
-Eval vm_compute in ("<<<M881>>>" ++ check (runes_of_ascii "packet As {// " ++ [27880; 37322]%N ++ runes_of_ascii "
-@leftPad	( '0'
-    /// triple
-    ) @lengthOf( i64_ )
-// @lengthOf(
-/// triple
-@leftPad (
-    '\x00' )
-    calculatedFrom  f32a,
-match x	as x_y_z { """"
-    // c
-    : body ,
-007
-:
-o
-,
-    [	""{,}"" ] :As, ""\n"" : stringy ,4294967296 : roots ,	}
-,	calculatedFrom ,
-match
-Pad as asx
-    { [ """ ++ [28040; 24687]%N ++ runes_of_ascii """ , ""1"" ,""a	b"" ,  3 ,""x y""
-,00
-    ,
-10 , ""\" ++ [233]%N ++ runes_of_ascii """ ] :Pad 65535 :x 7
-:x_y_z 3 : charz,""" ++ [233]%N ++ runes_of_ascii "t" ++ [233]%N ++ runes_of_ascii """
-:lengthOf
-} , @calculatedFrom(
-    ""{,}"" )
-@calculatedFrom( ""CRC32"" ) @calculatedFrom(""a	b"" )
-/// triple
-// trailing space 
-crc As /// triple
-,calculatedFrom{
-char[]	x
-    ``
-    , } , @rightPad// `tick` ""quote"" 'q'
-(
-    '\x00' )
-repeat char[]
-    asx /// triple
-`tab	here` ,f32a
-{ repeat char u
-,} // `tick` ""quote"" 'q'
-,
-}")).
-Eval vm_compute in ("<<<T881>>>" ++ terms [mkTok 35 "packet" 1 0 false; mkTok 42 "As" 1 7 false; mkTok 2 "{" 1 10 false; mkTok 44 (string_of_bytes [47; 47; 32; 230; 179; 168; 233; 135; 138]%N) 1 11 true; mkTok 32 "@leftPad" 2 0 false; mkTok 8 "(" 2 9 false; mkTok 33 "'0'" 2 11 false; mkTok 44 "/// triple" 3 4 true; mkTok 6 ")" 4 4 false; mkTok 7 "@lengthOf(" 4 6 false; mkTok 42 "i64_" 4 17 false; mkTok 6 ")" 4 22 false; mkTok 44 "// @lengthOf(" 5 0 true; mkTok 44 "/// triple" 6 0 true; mkTok 32 "@leftPad" 7 0 false; mkTok 8 "(" 7 9 false; mkTok 33 "'\x00'" 8 4 false; mkTok 6 ")" 8 11 false; mkTok 42 "calculatedFrom" 9 4 false; mkTok 42 "f32a" 9 20 false; mkTok 40 "," 9 24 false; mkTok 38 "match" 10 0 false; mkTok 42 "x" 10 6 false; mkTok 17 "as" 10 8 false; mkTok 42 "x_y_z" 10 11 false; mkTok 2 "{" 10 17 false; mkTok 31 """""" 10 19 false; mkTok 44 "// c" 11 4 true; mkTok 39 ":" 12 4 false; mkTok 42 "body" 12 6 false; mkTok 40 "," 12 11 false; mkTok 30 "007" 13 0 false; mkTok 39 ":" 14 0 false; mkTok 42 "o" 15 0 false; mkTok 40 "," 16 0 false; mkTok 18 "[" 17 4 false; mkTok 31 """{,}""" 17 6 false; mkTok 13 "]" 17 12 false; mkTok 39 ":" 17 14 false; mkTok 42 "As" 17 15 false; mkTok 40 "," 17 17 false; mkTok 31 """\n""" 17 19 false; mkTok 39 ":" 17 24 false; mkTok 42 "stringy" 17 26 false; mkTok 40 "," 17 34 false; mkTok 30 "4294967296" 17 35 false; mkTok 39 ":" 17 46 false; mkTok 42 "roots" 17 48 false; mkTok 40 "," 17 54 false; mkTok 3 "}" 17 56 false; mkTok 40 "," 18 0 false; mkTok 42 "calculatedFrom" 18 2 false; mkTok 40 "," 18 17 false; mkTok 38 "match" 19 0 false; mkTok 42 "Pad" 20 0 false; mkTok 17 "as" 20 4 false; mkTok 42 "asx" 20 7 false; mkTok 2 "{" 21 4 false; mkTok 18 "[" 21 6 false; mkTok 31 (string_of_bytes [34; 230; 182; 136; 230; 129; 175; 34]%N) 21 8 false; mkTok 40 "," 21 13 false; mkTok 31 """1""" 21 15 false; mkTok 40 "," 21 19 false; mkTok 31 (string_of_bytes [34; 97; 9; 98; 34]%N) 21 20 false; mkTok 40 "," 21 26 false; mkTok 30 "3" 21 29 false; mkTok 40 "," 21 31 false; mkTok 31 """x y""" 21 32 false; mkTok 40 "," 22 0 false; mkTok 30 "00" 22 1 false; mkTok 40 "," 23 4 false; mkTok 30 "10" 24 0 false; mkTok 40 "," 24 3 false; mkTok 31 (string_of_bytes [34; 92; 195; 169; 34]%N) 24 5 false; mkTok 13 "]" 24 10 false; mkTok 39 ":" 24 12 false; mkTok 42 "Pad" 24 13 false; mkTok 30 "65535" 24 17 false; mkTok 39 ":" 24 23 false; mkTok 42 "x" 24 24 false; mkTok 30 "7" 24 26 false; mkTok 39 ":" 25 0 false; mkTok 42 "x_y_z" 25 1 false; mkTok 30 "3" 25 7 false; mkTok 39 ":" 25 9 false; mkTok 42 "charz" 25 11 false; mkTok 40 "," 25 16 false; mkTok 31 (string_of_bytes [34; 195; 169; 116; 195; 169; 34]%N) 25 17 false; mkTok 39 ":" 26 0 false; mkTok 42 "lengthOf" 26 1 false; mkTok 3 "}" 27 0 false; mkTok 40 "," 27 2 false; mkTok 5 "@calculatedFrom(" 27 4 false; mkTok 31 """{,}""" 28 4 false; mkTok 6 ")" 28 10 false; mkTok 5 "@calculatedFrom(" 29 0 false; mkTok 31 """CRC32""" 29 17 false; mkTok 6 ")" 29 25 false; mkTok 5 "@calculatedFrom(" 29 27 false; mkTok 31 (string_of_bytes [34; 97; 9; 98; 34]%N) 29 43 false; mkTok 6 ")" 29 49 false; mkTok 44 "/// triple" 30 0 true; mkTok 44 "// trailing space " 31 0 true; mkTok 42 "crc" 32 0 false; mkTok 42 "As" 32 4 false; mkTok 44 "/// triple" 32 7 true; mkTok 40 "," 33 0 false; mkTok 42 "calculatedFrom" 33 1 false; mkTok 2 "{" 33 15 false; mkTok 16 "char[]" 34 0 false; mkTok 42 "x" 34 7 false; mkTok 43 "``" 35 4 false; mkTok 40 "," 36 4 false; mkTok 3 "}" 36 6 false; mkTok 40 "," 36 8 false; mkTok 32 "@rightPad" 36 10 false; mkTok 44 "// `tick` ""quote"" 'q'" 36 19 true; mkTok 8 "(" 37 0 false; mkTok 33 "'\x00'" 38 4 false; mkTok 6 ")" 38 11 false; mkTok 36 "repeat" 39 0 false; mkTok 16 "char[]" 39 7 false; mkTok 42 "asx" 40 4 false; mkTok 44 "/// triple" 40 8 true; mkTok 43 (string_of_bytes [96; 116; 97; 98; 9; 104; 101; 114; 101; 96]%N) 41 0 false; mkTok 40 "," 41 11 false; mkTok 42 "f32a" 41 12 false; mkTok 2 "{" 42 0 false; mkTok 36 "repeat" 42 2 false; mkTok 19 "char" 42 9 false; mkTok 42 "u" 42 14 false; mkTok 40 "," 43 0 false; mkTok 3 "}" 43 1 false; mkTok 44 "// `tick` ""quote"" 'q'" 43 3 true; mkTok 40 "," 44 0 false; mkTok 3 "}" 45 0 false; mkTok 0 "<EOF>" 45 1 false] (mkPacket (mkPtok 35 "packet" 1 0 0) (Some (mkPtok 3 "}" 45 0 135)) [(DPacket (mkPacketDef (mkSpan (mkPtok 35 "packet" 1 0 0) (mkPtok 3 "}" 45 0 135)) None (mkPtok 35 "packet" 1 0 0) (mkPtok 42 "As" 1 7 1) (mkPtok 2 "{" 1 10 2) [(mkFieldWithAttr (mkSpan (mkPtok 32 "@leftPad" 2 0 4) (mkPtok 40 "," 9 24 20)) [(FAPadding (mkSpan (mkPtok 32 "@leftPad" 2 0 4) (mkPtok 6 ")" 4 4 8)) (mkPaddingAttr (mkSpan (mkPtok 32 "@leftPad" 2 0 4) (mkPtok 6 ")" 4 4 8)) (mkPtok 32 "@leftPad" 2 0 4) (mkPtok 8 "(" 2 9 5) (Some (mkPtok 33 "'0'" 2 11 6)) (mkPtok 6 ")" 4 4 8))); (FALengthOf (mkSpan (mkPtok 7 "@lengthOf(" 4 6 9) (mkPtok 6 ")" 4 22 11)) (mkLengthOf (mkSpan (mkPtok 7 "@lengthOf(" 4 6 9) (mkPtok 6 ")" 4 22 11)) (mkPtok 7 "@lengthOf(" 4 6 9) (mkPtok 42 "i64_" 4 17 10) (mkPtok 6 ")" 4 22 11))); (FAPadding (mkSpan (mkPtok 32 "@leftPad" 7 0 14) (mkPtok 6 ")" 8 11 17)) (mkPaddingAttr (mkSpan (mkPtok 32 "@leftPad" 7 0 14) (mkPtok 6 ")" 8 11 17)) (mkPtok 32 "@leftPad" 7 0 14) (mkPtok 8 "(" 7 9 15) (Some (mkPtok 33 "'\x00'" 8 4 16)) (mkPtok 6 ")" 8 11 17)))] (ObjectField (mkSpan (mkPtok 42 "calculatedFrom" 9 4 18) (mkPtok 40 "," 9 24 20)) None (mkPtok 42 "calculatedFrom" 9 4 18) (Some (mkPtok 42 "f32a" 9 20 19)) None (mkPtok 40 "," 9 24 20))); (mkFieldWithAttr (mkSpan (mkPtok 38 "match" 10 0 21) (mkPtok 40 "," 18 0 50)) [] (MatchField (mkSpan (mkPtok 38 "match" 10 0 21) (mkPtok 40 "," 18 0 50)) (mkMatchFieldDecl (mkSpan (mkPtok 38 "match" 10 0 21) (mkPtok 3 "}" 17 56 49)) (mkPtok 38 "match" 10 0 21) (mkPtok 42 "x" 10 6 22) (mkPtok 17 "as" 10 8 23) (mkPtok 42 "x_y_z" 10 11 24) (mkPtok 2 "{" 10 17 25) [(mkMatchPair (mkSpan (mkPtok 31 """""" 10 19 26) (mkPtok 40 "," 12 11 30)) (MKString (mkPtok 31 """""" 10 19 26)) (mkPtok 39 ":" 12 4 28) (mkPtok 42 "body" 12 6 29) (Some (mkPtok 40 "," 12 11 30))); (mkMatchPair (mkSpan (mkPtok 30 "007" 13 0 31) (mkPtok 40 "," 16 0 34)) (MKDigits (mkPtok 30 "007" 13 0 31)) (mkPtok 39 ":" 14 0 32) (mkPtok 42 "o" 15 0 33) (Some (mkPtok 40 "," 16 0 34))); (mkMatchPair (mkSpan (mkPtok 18 "[" 17 4 35) (mkPtok 40 "," 17 17 40)) (MKList (mkKeyList (mkSpan (mkPtok 18 "[" 17 4 35) (mkPtok 13 "]" 17 12 37)) (mkPtok 18 "[" 17 4 35) (mkPtok 31 """{,}""" 17 6 36) [] (mkPtok 13 "]" 17 12 37))) (mkPtok 39 ":" 17 14 38) (mkPtok 42 "As" 17 15 39) (Some (mkPtok 40 "," 17 17 40))); (mkMatchPair (mkSpan (mkPtok 31 """\n""" 17 19 41) (mkPtok 40 "," 17 34 44)) (MKString (mkPtok 31 """\n""" 17 19 41)) (mkPtok 39 ":" 17 24 42) (mkPtok 42 "stringy" 17 26 43) (Some (mkPtok 40 "," 17 34 44))); (mkMatchPair (mkSpan (mkPtok 30 "4294967296" 17 35 45) (mkPtok 40 "," 17 54 48)) (MKDigits (mkPtok 30 "4294967296" 17 35 45)) (mkPtok 39 ":" 17 46 46) (mkPtok 42 "roots" 17 48 47) (Some (mkPtok 40 "," 17 54 48)))] (mkPtok 3 "}" 17 56 49)) (mkPtok 40 "," 18 0 50))); (mkFieldWithAttr (mkSpan (mkPtok 42 "calculatedFrom" 18 2 51) (mkPtok 40 "," 18 17 52)) [] (ObjectField (mkSpan (mkPtok 42 "calculatedFrom" 18 2 51) (mkPtok 40 "," 18 17 52)) None (mkPtok 42 "calculatedFrom" 18 2 51) None None (mkPtok 40 "," 18 17 52))); (mkFieldWithAttr (mkSpan (mkPtok 38 "match" 19 0 53) (mkPtok 40 "," 27 2 91)) [] (MatchField (mkSpan (mkPtok 38 "match" 19 0 53) (mkPtok 40 "," 27 2 91)) (mkMatchFieldDecl (mkSpan (mkPtok 38 "match" 19 0 53) (mkPtok 3 "}" 27 0 90)) (mkPtok 38 "match" 19 0 53) (mkPtok 42 "Pad" 20 0 54) (mkPtok 17 "as" 20 4 55) (mkPtok 42 "asx" 20 7 56) (mkPtok 2 "{" 21 4 57) [(mkMatchPair (mkSpan (mkPtok 18 "[" 21 6 58) (mkPtok 42 "Pad" 24 13 76)) (MKList (mkKeyList (mkSpan (mkPtok 18 "[" 21 6 58) (mkPtok 13 "]" 24 10 74)) (mkPtok 18 "[" 21 6 58) (mkPtok 31 (string_of_bytes [34; 230; 182; 136; 230; 129; 175; 34]%N) 21 8 59) [((mkPtok 40 "," 21 13 60), (mkPtok 31 """1""" 21 15 61)); ((mkPtok 40 "," 21 19 62), (mkPtok 31 (string_of_bytes [34; 97; 9; 98; 34]%N) 21 20 63)); ((mkPtok 40 "," 21 26 64), (mkPtok 30 "3" 21 29 65)); ((mkPtok 40 "," 21 31 66), (mkPtok 31 """x y""" 21 32 67)); ((mkPtok 40 "," 22 0 68), (mkPtok 30 "00" 22 1 69)); ((mkPtok 40 "," 23 4 70), (mkPtok 30 "10" 24 0 71)); ((mkPtok 40 "," 24 3 72), (mkPtok 31 (string_of_bytes [34; 92; 195; 169; 34]%N) 24 5 73))] (mkPtok 13 "]" 24 10 74))) (mkPtok 39 ":" 24 12 75) (mkPtok 42 "Pad" 24 13 76) None); (mkMatchPair (mkSpan (mkPtok 30 "65535" 24 17 77) (mkPtok 42 "x" 24 24 79)) (MKDigits (mkPtok 30 "65535" 24 17 77)) (mkPtok 39 ":" 24 23 78) (mkPtok 42 "x" 24 24 79) None); (mkMatchPair (mkSpan (mkPtok 30 "7" 24 26 80) (mkPtok 42 "x_y_z" 25 1 82)) (MKDigits (mkPtok 30 "7" 24 26 80)) (mkPtok 39 ":" 25 0 81) (mkPtok 42 "x_y_z" 25 1 82) None); (mkMatchPair (mkSpan (mkPtok 30 "3" 25 7 83) (mkPtok 40 "," 25 16 86)) (MKDigits (mkPtok 30 "3" 25 7 83)) (mkPtok 39 ":" 25 9 84) (mkPtok 42 "charz" 25 11 85) (Some (mkPtok 40 "," 25 16 86))); (mkMatchPair (mkSpan (mkPtok 31 (string_of_bytes [34; 195; 169; 116; 195; 169; 34]%N) 25 17 87) (mkPtok 42 "lengthOf" 26 1 89)) (MKString (mkPtok 31 (string_of_bytes [34; 195; 169; 116; 195; 169; 34]%N) 25 17 87)) (mkPtok 39 ":" 26 0 88) (mkPtok 42 "lengthOf" 26 1 89) None)] (mkPtok 3 "}" 27 0 90)) (mkPtok 40 "," 27 2 91))); (mkFieldWithAttr (mkSpan (mkPtok 5 "@calculatedFrom(" 27 4 92) (mkPtok 40 "," 33 0 106)) [(FACalculatedFrom (mkSpan (mkPtok 5 "@calculatedFrom(" 27 4 92) (mkPtok 6 ")" 28 10 94)) (mkCalculatedFrom (mkSpan (mkPtok 5 "@calculatedFrom(" 27 4 92) (mkPtok 6 ")" 28 10 94)) (mkPtok 5 "@calculatedFrom(" 27 4 92) (mkPtok 31 """{,}""" 28 4 93) (mkPtok 6 ")" 28 10 94))); (FACalculatedFrom (mkSpan (mkPtok 5 "@calculatedFrom(" 29 0 95) (mkPtok 6 ")" 29 25 97)) (mkCalculatedFrom (mkSpan (mkPtok 5 "@calculatedFrom(" 29 0 95) (mkPtok 6 ")" 29 25 97)) (mkPtok 5 "@calculatedFrom(" 29 0 95) (mkPtok 31 """CRC32""" 29 17 96) (mkPtok 6 ")" 29 25 97))); (FACalculatedFrom (mkSpan (mkPtok 5 "@calculatedFrom(" 29 27 98) (mkPtok 6 ")" 29 49 100)) (mkCalculatedFrom (mkSpan (mkPtok 5 "@calculatedFrom(" 29 27 98) (mkPtok 6 ")" 29 49 100)) (mkPtok 5 "@calculatedFrom(" 29 27 98) (mkPtok 31 (string_of_bytes [34; 97; 9; 98; 34]%N) 29 43 99) (mkPtok 6 ")" 29 49 100)))] (ObjectField (mkSpan (mkPtok 42 "crc" 32 0 103) (mkPtok 40 "," 33 0 106)) None (mkPtok 42 "crc" 32 0 103) (Some (mkPtok 42 "As" 32 4 104)) None (mkPtok 40 "," 33 0 106))); (mkFieldWithAttr (mkSpan (mkPtok 42 "calculatedFrom" 33 1 107) (mkPtok 40 "," 36 8 114)) [] (InerObjectField (mkSpan (mkPtok 42 "calculatedFrom" 33 1 107) (mkPtok 40 "," 36 8 114)) None (InerObjectDecl (mkSpan (mkPtok 42 "calculatedFrom" 33 1 107) (mkPtok 3 "}" 36 6 113)) (mkPtok 42 "calculatedFrom" 33 1 107) (mkPtok 2 "{" 33 15 108) [(MetaField (mkSpan (mkPtok 16 "char[]" 34 0 109) (mkPtok 40 "," 36 4 112)) None (mkMetaDecl (mkSpan (mkPtok 16 "char[]" 34 0 109) (mkPtok 40 "," 36 4 112)) (TyDynamic (mkSpan (mkPtok 16 "char[]" 34 0 109) (mkPtok 16 "char[]" 34 0 109)) (mkDynamicString (mkSpan (mkPtok 16 "char[]" 34 0 109) (mkPtok 16 "char[]" 34 0 109)) (mkPtok 16 "char[]" 34 0 109))) (mkPtok 42 "x" 34 7 110) (Some (mkPtok 43 "``" 35 4 111)) (mkPtok 40 "," 36 4 112)))] (mkPtok 3 "}" 36 6 113)) (mkPtok 40 "," 36 8 114))); (mkFieldWithAttr (mkSpan (mkPtok 32 "@rightPad" 36 10 115) (mkPtok 40 "," 41 11 125)) [(FAPadding (mkSpan (mkPtok 32 "@rightPad" 36 10 115) (mkPtok 6 ")" 38 11 119)) (mkPaddingAttr (mkSpan (mkPtok 32 "@rightPad" 36 10 115) (mkPtok 6 ")" 38 11 119)) (mkPtok 32 "@rightPad" 36 10 115) (mkPtok 8 "(" 37 0 117) (Some (mkPtok 33 "'\x00'" 38 4 118)) (mkPtok 6 ")" 38 11 119)))] (MetaField (mkSpan (mkPtok 36 "repeat" 39 0 120) (mkPtok 40 "," 41 11 125)) (Some (mkPtok 36 "repeat" 39 0 120)) (mkMetaDecl (mkSpan (mkPtok 16 "char[]" 39 7 121) (mkPtok 40 "," 41 11 125)) (TyDynamic (mkSpan (mkPtok 16 "char[]" 39 7 121) (mkPtok 16 "char[]" 39 7 121)) (mkDynamicString (mkSpan (mkPtok 16 "char[]" 39 7 121) (mkPtok 16 "char[]" 39 7 121)) (mkPtok 16 "char[]" 39 7 121))) (mkPtok 42 "asx" 40 4 122) (Some (mkPtok 43 (string_of_bytes [96; 116; 97; 98; 9; 104; 101; 114; 101; 96]%N) 41 0 124)) (mkPtok 40 "," 41 11 125)))); (mkFieldWithAttr (mkSpan (mkPtok 42 "f32a" 41 12 126) (mkPtok 40 "," 44 0 134)) [] (InerObjectField (mkSpan (mkPtok 42 "f32a" 41 12 126) (mkPtok 40 "," 44 0 134)) None (InerObjectDecl (mkSpan (mkPtok 42 "f32a" 41 12 126) (mkPtok 3 "}" 43 1 132)) (mkPtok 42 "f32a" 41 12 126) (mkPtok 2 "{" 42 0 127) [(MetaField (mkSpan (mkPtok 36 "repeat" 42 2 128) (mkPtok 40 "," 43 0 131)) (Some (mkPtok 36 "repeat" 42 2 128)) (mkMetaDecl (mkSpan (mkPtok 19 "char" 42 9 129) (mkPtok 40 "," 43 0 131)) (TyBasic (mkSpan (mkPtok 19 "char" 42 9 129) (mkPtok 19 "char" 42 9 129)) (mkBasicType (mkSpan (mkPtok 19 "char" 42 9 129) (mkPtok 19 "char" 42 9 129)) (mkPtok 19 "char" 42 9 129))) (mkPtok 42 "u" 42 14 130) None (mkPtok 40 "," 43 0 131)))] (mkPtok 3 "}" 43 1 132)) (mkPtok 40 "," 44 0 134)))] (mkPtok 3 "}" 45 0 135)))])).
-Eval vm_compute in ("<<<M913>>>" ++ check (runes_of_ascii "MetaData calculatedFrom{
-// @lengthOf(
-// a // b
-string Packet // a // b
-,
-zchar[
-    42
-    ] msg_type , char[
-    3] u128
-, i16 f32a , }
-
-")).
-Eval vm_compute in ("<<<M945>>>" ++ check (runes_of_ascii "packet// " ++ [27880; 37322]%N ++ runes_of_ascii "
-pack {
-    //	t
-    repeat zchar As
-    , i16 roots ,
-    }")).
-Eval vm_compute in ("<<<M977>>>" ++ check (runes_of_ascii "
-packet rootA
-    {
-}")).
-Eval vm_compute in ("<<<M1009>>>" ++ check (runes_of_ascii "MetaData
-Logon {
-    string_ MetaDataX
-`
-` ,}root packet Pad
-{ asx
-@lengthOf(BodyLength )
-,
-}
-    packet
-Pad {
-@calculatedFrom( ""a	b""
-) zchar[ 7]x	`a\` , @lengthOf(msg_type
-// " ++ [27880; 37322]%N ++ runes_of_ascii "
-// trailing space 
-) int32 Logon  @lengthOf(u128//	t
-)
-`two words`,	@lengthOf(asx)
-match o
-    as
-    asx {1 : crc , 00:f32a, }
-    ,
-char[ 1
-    ]
-leftPad @lengthOf(
-    string_ ) `
-` , f32
-    // a // b
-    trueish @calculatedFrom(//x
-"""" )``
-    // " ++ [128512]%N ++ runes_of_ascii " emoji
-    ,As ,
-x_y_z
-{ match	Packet as int { 007: x , // packet A { u8 x, }
-""" ++ [28040; 24687]%N ++ runes_of_ascii """  :
-    options1 , ""packet""
-:// packet A { u8 x, }
-repeatCount ""\n"" :
-x
-, }
-    //
-    ,char[]
-    i8i8 @lengthOf( x_y_z )
-`two words` ,match crc as
-x_y_z{""CRC32"" : Z9_, } , packetx ,
-} ,
-repeat
-    char[0
-// packet A { u8 x, }
-// `tick` ""quote"" 'q'
-] asx , @calculatedFrom(
-""1"" ) char[
-00 ] float,repeat i32 msg_type	,
-} packet x_y_z { // `tick` ""quote"" 'q'
-@calculatedFrom(
-    ""a\\"")
-    @calculatedFrom( ""packet""  ) uint8x @calculatedFrom( """" ) ,
-    //	t
-    @lengthOf( x )	u8x x, @calculatedFrom(
-    ""a	b"" ) int16 pack
-// packet A { u8 x, }
-//x
-, match  Pad as
-T
-//	t
-// @lengthOf(
-{
-    [ 00 ] : leftPad ,
-    ""CRC32""
-    : body	, //x
-3 :
-    zchar
-1:  u8x  7 : options1	,
-4294967296 :falsey
-    /// triple
-    , } , }
-    packet T {
-    zchar[
-65535 ]//x
-roots ,
-    int x`crlf
-line`
-,@lengthOf( //	t
-int)charz {	i64_
-    `" ++ [28040; 24687; 31867; 22411]%N ++ runes_of_ascii "` ,zchar[
-    // `tick` ""quote"" 'q'
-    42 ]
-    len
-    // @lengthOf(
-    @calculatedFrom( // " ++ [128512]%N ++ runes_of_ascii " emoji
-""" ++ [233]%N ++ runes_of_ascii "t" ++ [233]%N ++ runes_of_ascii """ ),	repeat
-i8 o , // " ++ [27880; 37322]%N ++ runes_of_ascii "
-char[0 ] // a // b
-options1`doc` , } ,
-@lengthOf( roots ) string
-Header, }")).
-Eval vm_compute in ("<<<M1041>>>" ++ check (runes_of_ascii "options { }
-")).
-Eval vm_compute in ("<<<M1073>>>" ++ check (runes_of_ascii "options
-{ Header
-    // c
-    =""a	b"" ;  } // a // b")).
-Eval vm_compute in ("<<<M1105>>>" ++ check (runes_of_ascii "/// triple
-packet string_{ repeat As
-u128 ,
-    @lengthOf( Header  ) i8i8@lengthOf(len )`" ++ [28040; 24687; 31867; 22411]%N ++ runes_of_ascii "` , uint8x { match i8i8
-as// trailing space 
-msg_type
-{ 65535 :
-    Foo	, [ ""abc"" ,	00 ,
-    ""// no comment"" ,0 ,0123456789,
-    ""// no comment"" ]
-// `tick` ""quote"" 'q'
-// " ++ [128512]%N ++ runes_of_ascii " emoji
-:	int,
-""" ++ [128512]%N ++ runes_of_ascii """ : u8x , ""x y"" :x_y_z , 7
+{ match
+u8x as msg_type  {
+    ""{,}"" : metadata
+, 4294967296 : float ,10 :
+a1 ,	65535 : len, """ ++ [128512]%N ++ runes_of_ascii """
+: zchar ,[
+""" ++ [128512]%N ++ runes_of_ascii """ ]
     :
-len , 42 : As // c
-, } , } , @tag(
-    4294967296
-// packet A { u8 x, }
-// packet A { u8 x, }
-)zchar[
-    255
-] repeatCount , repeat int16 x ,u16 Foo `two words` ,repeat char[42 ] f32a ,string msg_type
-    /// triple
-    , @rightPad  (
-    ' ' ) Z9_@calculatedFrom(//
-""it's""	)  ,} packet stringy// packet A { u8 x, }
-{
-    // `tick` ""quote"" 'q'
-    float32 metadata ,}
-packet// @lengthOf(
-body{match leftPad
-as
-falsey { """ ++ [233]%N ++ runes_of_ascii "t" ++ [233]%N ++ runes_of_ascii """ :	len  ,
-} ,
-    // trailing space 
-    @calculatedFrom( ""CRC32""
-    ) f32a { uint32 body @lengthOf(
-    Z9_ ) /// triple
-`line1
-line2` ,
-    // @lengthOf(
-    f64 u `line1
-line2`, trueish @lengthOf( rootA )
-    ,char[ 255
-    ]	u@calculatedFrom( ""a	b""
-// `tick` ""quote"" 'q'
-// @lengthOf(
-) ,
-} , @tag(  42 )
-options1  a1
-    //
-    ,
-    char[]	Z9_	@calculatedFrom( ""\n""// c
-) , }
-//
-")).
-Eval vm_compute in ("<<<T1105>>>" ++ terms [mkTok 44 "/// triple" 1 0 true; mkTok 35 "packet" 2 0 false; mkTok 42 "string_" 2 7 false; mkTok 2 "{" 2 14 false; mkTok 36 "repeat" 2 16 false; mkTok 42 "As" 2 23 false; mkTok 42 "u128" 3 0 false; mkTok 40 "," 3 5 false; mkTok 7 "@lengthOf(" 4 4 false; mkTok 42 "Header" 4 15 false; mkTok 6 ")" 4 23 false; mkTok 42 "i8i8" 4 25 false; mkTok 7 "@lengthOf(" 4 29 false; mkTok 42 "len" 4 39 false; mkTok 6 ")" 4 43 false; mkTok 43 (string_of_bytes [96; 230; 182; 136; 230; 129; 175; 231; 177; 187; 229; 158; 139; 96]%N) 4 44 false; mkTok 40 "," 4 51 false; mkTok 42 "uint8x" 4 53 false; mkTok 2 "{" 4 60 false; mkTok 38 "match" 4 62 false; mkTok 42 "i8i8" 4 68 false; mkTok 17 "as" 5 0 false; mkTok 44 "// trailing space " 5 2 true; mkTok 42 "msg_type" 6 0 false; mkTok 2 "{" 7 0 false; mkTok 30 "65535" 7 2 false; mkTok 39 ":" 7 8 false; mkTok 42 "Foo" 8 4 false; mkTok 40 "," 8 8 false; mkTok 18 "[" 8 10 false; mkTok 31 """abc""" 8 12 false; mkTok 40 "," 8 18 false; mkTok 30 "00" 8 20 false; mkTok 40 "," 8 23 false; mkTok 31 """// no comment""" 9 4 false; mkTok 40 "," 9 20 false; mkTok 30 "0" 9 21 false; mkTok 40 "," 9 23 false; mkTok 30 "0123456789" 9 24 false; mkTok 40 "," 9 34 false; mkTok 31 """// no comment""" 10 4 false; mkTok 13 "]" 10 20 false; mkTok 44 "// `tick` ""quote"" 'q'" 11 0 true; mkTok 44 (string_of_bytes [47; 47; 32; 240; 159; 152; 128; 32; 101; 109; 111; 106; 105]%N) 12 0 true; mkTok 39 ":" 13 0 false; mkTok 42 "int" 13 2 false; mkTok 40 "," 13 5 false; mkTok 31 (string_of_bytes [34; 240; 159; 152; 128; 34]%N) 14 0 false; mkTok 39 ":" 14 4 false; mkTok 42 "u8x" 14 6 false; mkTok 40 "," 14 10 false; mkTok 31 """x y""" 14 12 false; mkTok 39 ":" 14 18 false; mkTok 42 "x_y_z" 14 19 false; mkTok 40 "," 14 25 false; mkTok 30 "7" 14 27 false; mkTok 39 ":" 15 4 false; mkTok 42 "len" 16 0 false; mkTok 40 "," 16 4 false; mkTok 30 "42" 16 6 false; mkTok 39 ":" 16 9 false; mkTok 42 "As" 16 11 false; mkTok 44 "// c" 16 14 true; mkTok 40 "," 17 0 false; mkTok 3 "}" 17 2 false; mkTok 40 "," 17 4 false; mkTok 3 "}" 17 6 false; mkTok 40 "," 17 8 false; mkTok 9 "@tag(" 17 10 false; mkTok 30 "4294967296" 18 4 false; mkTok 44 "// packet A { u8 x, }" 19 0 true; mkTok 44 "// packet A { u8 x, }" 20 0 true; mkTok 6 ")" 21 0 false; mkTok 14 "zchar[" 21 1 false; mkTok 30 "255" 22 4 false; mkTok 13 "]" 23 0 false; mkTok 42 "repeatCount" 23 2 false; mkTok 40 "," 23 14 false; mkTok 36 "repeat" 23 16 false; mkTok 25 "int16" 23 23 false; mkTok 42 "x" 23 29 false; mkTok 40 "," 23 31 false; mkTok 21 "u16" 23 32 false; mkTok 42 "Foo" 23 36 false; mkTok 43 "`two words`" 23 40 false; mkTok 40 "," 23 52 false; mkTok 36 "repeat" 23 53 false; mkTok 12 "char[" 23 60 false; mkTok 30 "42" 23 65 false; mkTok 13 "]" 23 68 false; mkTok 42 "f32a" 23 70 false; mkTok 40 "," 23 75 false; mkTok 15 "string" 23 76 false; mkTok 42 "msg_type" 23 83 false; mkTok 44 "/// triple" 24 4 true; mkTok 40 "," 25 4 false; mkTok 32 "@rightPad" 25 6 false; mkTok 8 "(" 25 17 false; mkTok 33 "' '" 26 4 false; mkTok 6 ")" 26 8 false; mkTok 42 "Z9_" 26 10 false; mkTok 5 "@calculatedFrom(" 26 13 false; mkTok 44 "//" 26 29 true; mkTok 31 """it's""" 27 0 false; mkTok 6 ")" 27 7 false; mkTok 40 "," 27 10 false; mkTok 3 "}" 27 11 false; mkTok 35 "packet" 27 13 false; mkTok 42 "stringy" 27 20 false; mkTok 44 "// packet A { u8 x, }" 27 27 true; mkTok 2 "{" 28 0 false; mkTok 44 "// `tick` ""quote"" 'q'" 29 4 true; mkTok 28 "float32" 30 4 false; mkTok 42 "metadata" 30 12 false; mkTok 40 "," 30 21 false; mkTok 3 "}" 30 22 false; mkTok 35 "packet" 31 0 false; mkTok 44 "// @lengthOf(" 31 6 true; mkTok 42 "body" 32 0 false; mkTok 2 "{" 32 4 false; mkTok 38 "match" 32 5 false; mkTok 42 "leftPad" 32 11 false; mkTok 17 "as" 33 0 false; mkTok 42 "falsey" 34 0 false; mkTok 2 "{" 34 7 false; mkTok 31 (string_of_bytes [34; 195; 169; 116; 195; 169; 34]%N) 34 9 false; mkTok 39 ":" 34 15 false; mkTok 42 "len" 34 17 false; mkTok 40 "," 34 22 false; mkTok 3 "}" 35 0 false; mkTok 40 "," 35 2 false; mkTok 44 "// trailing space " 36 4 true; mkTok 5 "@calculatedFrom(" 37 4 false; mkTok 31 """CRC32""" 37 21 false; mkTok 6 ")" 38 4 false; mkTok 42 "f32a" 38 6 false; mkTok 2 "{" 38 11 false; mkTok 22 "uint32" 38 13 false; mkTok 42 "body" 38 20 false; mkTok 7 "@lengthOf(" 38 25 false; mkTok 42 "Z9_" 39 4 false; mkTok 6 ")" 39 8 false; mkTok 44 "/// triple" 39 10 true; mkTok 43 (string_of_bytes [96; 108; 105; 110; 101; 49; 10; 108; 105; 110; 101; 50; 96]%N) 40 0 false; mkTok 40 "," 41 7 false; mkTok 44 "// @lengthOf(" 42 4 true; mkTok 29 "f64" 43 4 false; mkTok 42 "u" 43 8 false; mkTok 43 (string_of_bytes [96; 108; 105; 110; 101; 49; 10; 108; 105; 110; 101; 50; 96]%N) 43 10 false; mkTok 40 "," 44 6 false; mkTok 42 "trueish" 44 8 false; mkTok 7 "@lengthOf(" 44 16 false; mkTok 42 "rootA" 44 27 false; mkTok 6 ")" 44 33 false; mkTok 40 "," 45 4 false; mkTok 12 "char[" 45 5 false; mkTok 30 "255" 45 11 false; mkTok 13 "]" 46 4 false; mkTok 42 "u" 46 6 false; mkTok 5 "@calculatedFrom(" 46 7 false; mkTok 31 (string_of_bytes [34; 97; 9; 98; 34]%N) 46 24 false; mkTok 44 "// `tick` ""quote"" 'q'" 47 0 true; mkTok 44 "// @lengthOf(" 48 0 true; mkTok 6 ")" 49 0 false; mkTok 40 "," 49 2 false; mkTok 3 "}" 50 0 false; mkTok 40 "," 50 2 false; mkTok 9 "@tag(" 50 4 false; mkTok 30 "42" 50 11 false; mkTok 6 ")" 50 14 false; mkTok 42 "options1" 51 0 false; mkTok 42 "a1" 51 10 false; mkTok 44 "//" 52 4 true; mkTok 40 "," 53 4 false; mkTok 16 "char[]" 54 4 false; mkTok 42 "Z9_" 54 11 false; mkTok 5 "@calculatedFrom(" 54 15 false; mkTok 31 """\n""" 54 32 false; mkTok 44 "// c" 54 36 true; mkTok 6 ")" 55 0 false; mkTok 40 "," 55 2 false; mkTok 3 "}" 55 4 false; mkTok 44 "//" 56 0 true; mkTok 0 "<EOF>" 57 0 false] (mkPacket (mkPtok 35 "packet" 2 0 1) (Some (mkPtok 3 "}" 55 4 181)) [(DPacket (mkPacketDef (mkSpan (mkPtok 35 "packet" 2 0 1) (mkPtok 3 "}" 27 11 106)) None (mkPtok 35 "packet" 2 0 1) (mkPtok 42 "string_" 2 7 2) (mkPtok 2 "{" 2 14 3) [(mkFieldWithAttr (mkSpan (mkPtok 36 "repeat" 2 16 4) (mkPtok 40 "," 3 5 7)) [] (ObjectField (mkSpan (mkPtok 36 "repeat" 2 16 4) (mkPtok 40 "," 3 5 7)) (Some (mkPtok 36 "repeat" 2 16 4)) (mkPtok 42 "As" 2 23 5) (Some (mkPtok 42 "u128" 3 0 6)) None (mkPtok 40 "," 3 5 7))); (mkFieldWithAttr (mkSpan (mkPtok 7 "@lengthOf(" 4 4 8) (mkPtok 40 "," 4 51 16)) [(FALengthOf (mkSpan (mkPtok 7 "@lengthOf(" 4 4 8) (mkPtok 6 ")" 4 23 10)) (mkLengthOf (mkSpan (mkPtok 7 "@lengthOf(" 4 4 8) (mkPtok 6 ")" 4 23 10)) (mkPtok 7 "@lengthOf(" 4 4 8) (mkPtok 42 "Header" 4 15 9) (mkPtok 6 ")" 4 23 10)))] (LengthField (mkSpan (mkPtok 42 "i8i8" 4 25 11) (mkPtok 40 "," 4 51 16)) (mkLengthFieldDecl (mkSpan (mkPtok 42 "i8i8" 4 25 11) (mkPtok 40 "," 4 51 16)) None (mkPtok 42 "i8i8" 4 25 11) (mkLengthOf (mkSpan (mkPtok 7 "@lengthOf(" 4 29 12) (mkPtok 6 ")" 4 43 14)) (mkPtok 7 "@lengthOf(" 4 29 12) (mkPtok 42 "len" 4 39 13) (mkPtok 6 ")" 4 43 14)) (Some (mkPtok 43 (string_of_bytes [96; 230; 182; 136; 230; 129; 175; 231; 177; 187; 229; 158; 139; 96]%N) 4 44 15)) (mkPtok 40 "," 4 51 16)))); (mkFieldWithAttr (mkSpan (mkPtok 42 "uint8x" 4 53 17) (mkPtok 40 "," 17 8 67)) [] (InerObjectField (mkSpan (mkPtok 42 "uint8x" 4 53 17) (mkPtok 40 "," 17 8 67)) None (InerObjectDecl (mkSpan (mkPtok 42 "uint8x" 4 53 17) (mkPtok 3 "}" 17 6 66)) (mkPtok 42 "uint8x" 4 53 17) (mkPtok 2 "{" 4 60 18) [(MatchField (mkSpan (mkPtok 38 "match" 4 62 19) (mkPtok 40 "," 17 4 65)) (mkMatchFieldDecl (mkSpan (mkPtok 38 "match" 4 62 19) (mkPtok 3 "}" 17 2 64)) (mkPtok 38 "match" 4 62 19) (mkPtok 42 "i8i8" 4 68 20) (mkPtok 17 "as" 5 0 21) (mkPtok 42 "msg_type" 6 0 23) (mkPtok 2 "{" 7 0 24) [(mkMatchPair (mkSpan (mkPtok 30 "65535" 7 2 25) (mkPtok 40 "," 8 8 28)) (MKDigits (mkPtok 30 "65535" 7 2 25)) (mkPtok 39 ":" 7 8 26) (mkPtok 42 "Foo" 8 4 27) (Some (mkPtok 40 "," 8 8 28))); (mkMatchPair (mkSpan (mkPtok 18 "[" 8 10 29) (mkPtok 40 "," 13 5 46)) (MKList (mkKeyList (mkSpan (mkPtok 18 "[" 8 10 29) (mkPtok 13 "]" 10 20 41)) (mkPtok 18 "[" 8 10 29) (mkPtok 31 """abc""" 8 12 30) [((mkPtok 40 "," 8 18 31), (mkPtok 30 "00" 8 20 32)); ((mkPtok 40 "," 8 23 33), (mkPtok 31 """// no comment""" 9 4 34)); ((mkPtok 40 "," 9 20 35), (mkPtok 30 "0" 9 21 36)); ((mkPtok 40 "," 9 23 37), (mkPtok 30 "0123456789" 9 24 38)); ((mkPtok 40 "," 9 34 39), (mkPtok 31 """// no comment""" 10 4 40))] (mkPtok 13 "]" 10 20 41))) (mkPtok 39 ":" 13 0 44) (mkPtok 42 "int" 13 2 45) (Some (mkPtok 40 "," 13 5 46))); (mkMatchPair (mkSpan (mkPtok 31 (string_of_bytes [34; 240; 159; 152; 128; 34]%N) 14 0 47) (mkPtok 40 "," 14 10 50)) (MKString (mkPtok 31 (string_of_bytes [34; 240; 159; 152; 128; 34]%N) 14 0 47)) (mkPtok 39 ":" 14 4 48) (mkPtok 42 "u8x" 14 6 49) (Some (mkPtok 40 "," 14 10 50))); (mkMatchPair (mkSpan (mkPtok 31 """x y""" 14 12 51) (mkPtok 40 "," 14 25 54)) (MKString (mkPtok 31 """x y""" 14 12 51)) (mkPtok 39 ":" 14 18 52) (mkPtok 42 "x_y_z" 14 19 53) (Some (mkPtok 40 "," 14 25 54))); (mkMatchPair (mkSpan (mkPtok 30 "7" 14 27 55) (mkPtok 40 "," 16 4 58)) (MKDigits (mkPtok 30 "7" 14 27 55)) (mkPtok 39 ":" 15 4 56) (mkPtok 42 "len" 16 0 57) (Some (mkPtok 40 "," 16 4 58))); (mkMatchPair (mkSpan (mkPtok 30 "42" 16 6 59) (mkPtok 40 "," 17 0 63)) (MKDigits (mkPtok 30 "42" 16 6 59)) (mkPtok 39 ":" 16 9 60) (mkPtok 42 "As" 16 11 61) (Some (mkPtok 40 "," 17 0 63)))] (mkPtok 3 "}" 17 2 64)) (mkPtok 40 "," 17 4 65))] (mkPtok 3 "}" 17 6 66)) (mkPtok 40 "," 17 8 67))); (mkFieldWithAttr (mkSpan (mkPtok 9 "@tag(" 17 10 68) (mkPtok 40 "," 23 14 77)) [(FATag (mkSpan (mkPtok 9 "@tag(" 17 10 68) (mkPtok 6 ")" 21 0 72)) (mkTagAttr (mkSpan (mkPtok 9 "@tag(" 17 10 68) (mkPtok 6 ")" 21 0 72)) (mkPtok 9 "@tag(" 17 10 68) (mkPtok 30 "4294967296" 18 4 69) (mkPtok 6 ")" 21 0 72)))] (MetaField (mkSpan (mkPtok 14 "zchar[" 21 1 73) (mkPtok 40 "," 23 14 77)) None (mkMetaDecl (mkSpan (mkPtok 14 "zchar[" 21 1 73) (mkPtok 40 "," 23 14 77)) (TyFixed (mkSpan (mkPtok 14 "zchar[" 21 1 73) (mkPtok 13 "]" 23 0 75)) (mkFixedString (mkSpan (mkPtok 14 "zchar[" 21 1 73) (mkPtok 13 "]" 23 0 75)) (mkPtok 14 "zchar[" 21 1 73) (mkPtok 30 "255" 22 4 74) (mkPtok 13 "]" 23 0 75))) (mkPtok 42 "repeatCount" 23 2 76) None (mkPtok 40 "," 23 14 77)))); (mkFieldWithAttr (mkSpan (mkPtok 36 "repeat" 23 16 78) (mkPtok 40 "," 23 31 81)) [] (MetaField (mkSpan (mkPtok 36 "repeat" 23 16 78) (mkPtok 40 "," 23 31 81)) (Some (mkPtok 36 "repeat" 23 16 78)) (mkMetaDecl (mkSpan (mkPtok 25 "int16" 23 23 79) (mkPtok 40 "," 23 31 81)) (TyBasic (mkSpan (mkPtok 25 "int16" 23 23 79) (mkPtok 25 "int16" 23 23 79)) (mkBasicType (mkSpan (mkPtok 25 "int16" 23 23 79) (mkPtok 25 "int16" 23 23 79)) (mkPtok 25 "int16" 23 23 79))) (mkPtok 42 "x" 23 29 80) None (mkPtok 40 "," 23 31 81)))); (mkFieldWithAttr (mkSpan (mkPtok 21 "u16" 23 32 82) (mkPtok 40 "," 23 52 85)) [] (MetaField (mkSpan (mkPtok 21 "u16" 23 32 82) (mkPtok 40 "," 23 52 85)) None (mkMetaDecl (mkSpan (mkPtok 21 "u16" 23 32 82) (mkPtok 40 "," 23 52 85)) (TyBasic (mkSpan (mkPtok 21 "u16" 23 32 82) (mkPtok 21 "u16" 23 32 82)) (mkBasicType (mkSpan (mkPtok 21 "u16" 23 32 82) (mkPtok 21 "u16" 23 32 82)) (mkPtok 21 "u16" 23 32 82))) (mkPtok 42 "Foo" 23 36 83) (Some (mkPtok 43 "`two words`" 23 40 84)) (mkPtok 40 "," 23 52 85)))); (mkFieldWithAttr (mkSpan (mkPtok 36 "repeat" 23 53 86) (mkPtok 40 "," 23 75 91)) [] (MetaField (mkSpan (mkPtok 36 "repeat" 23 53 86) (mkPtok 40 "," 23 75 91)) (Some (mkPtok 36 "repeat" 23 53 86)) (mkMetaDecl (mkSpan (mkPtok 12 "char[" 23 60 87) (mkPtok 40 "," 23 75 91)) (TyFixed (mkSpan (mkPtok 12 "char[" 23 60 87) (mkPtok 13 "]" 23 68 89)) (mkFixedString (mkSpan (mkPtok 12 "char[" 23 60 87) (mkPtok 13 "]" 23 68 89)) (mkPtok 12 "char[" 23 60 87) (mkPtok 30 "42" 23 65 88) (mkPtok 13 "]" 23 68 89))) (mkPtok 42 "f32a" 23 70 90) None (mkPtok 40 "," 23 75 91)))); (mkFieldWithAttr (mkSpan (mkPtok 15 "string" 23 76 92) (mkPtok 40 "," 25 4 95)) [] (MetaField (mkSpan (mkPtok 15 "string" 23 76 92) (mkPtok 40 "," 25 4 95)) None (mkMetaDecl (mkSpan (mkPtok 15 "string" 23 76 92) (mkPtok 40 "," 25 4 95)) (TyDynamic (mkSpan (mkPtok 15 "string" 23 76 92) (mkPtok 15 "string" 23 76 92)) (mkDynamicString (mkSpan (mkPtok 15 "string" 23 76 92) (mkPtok 15 "string" 23 76 92)) (mkPtok 15 "string" 23 76 92))) (mkPtok 42 "msg_type" 23 83 93) None (mkPtok 40 "," 25 4 95)))); (mkFieldWithAttr (mkSpan (mkPtok 32 "@rightPad" 25 6 96) (mkPtok 40 "," 27 10 105)) [(FAPadding (mkSpan (mkPtok 32 "@rightPad" 25 6 96) (mkPtok 6 ")" 26 8 99)) (mkPaddingAttr (mkSpan (mkPtok 32 "@rightPad" 25 6 96) (mkPtok 6 ")" 26 8 99)) (mkPtok 32 "@rightPad" 25 6 96) (mkPtok 8 "(" 25 17 97) (Some (mkPtok 33 "' '" 26 4 98)) (mkPtok 6 ")" 26 8 99)))] (CheckSumField (mkSpan (mkPtok 42 "Z9_" 26 10 100) (mkPtok 40 "," 27 10 105)) (mkChecksumFieldDecl (mkSpan (mkPtok 42 "Z9_" 26 10 100) (mkPtok 40 "," 27 10 105)) None (mkPtok 42 "Z9_" 26 10 100) (mkCalculatedFrom (mkSpan (mkPtok 5 "@calculatedFrom(" 26 13 101) (mkPtok 6 ")" 27 7 104)) (mkPtok 5 "@calculatedFrom(" 26 13 101) (mkPtok 31 """it's""" 27 0 103) (mkPtok 6 ")" 27 7 104)) None (mkPtok 40 "," 27 10 105))))] (mkPtok 3 "}" 27 11 106))); (DPacket (mkPacketDef (mkSpan (mkPtok 35 "packet" 27 13 107) (mkPtok 3 "}" 30 22 115)) None (mkPtok 35 "packet" 27 13 107) (mkPtok 42 "stringy" 27 20 108) (mkPtok 2 "{" 28 0 110) [(mkFieldWithAttr (mkSpan (mkPtok 28 "float32" 30 4 112) (mkPtok 40 "," 30 21 114)) [] (MetaField (mkSpan (mkPtok 28 "float32" 30 4 112) (mkPtok 40 "," 30 21 114)) None (mkMetaDecl (mkSpan (mkPtok 28 "float32" 30 4 112) (mkPtok 40 "," 30 21 114)) (TyBasic (mkSpan (mkPtok 28 "float32" 30 4 112) (mkPtok 28 "float32" 30 4 112)) (mkBasicType (mkSpan (mkPtok 28 "float32" 30 4 112) (mkPtok 28 "float32" 30 4 112)) (mkPtok 28 "float32" 30 4 112))) (mkPtok 42 "metadata" 30 12 113) None (mkPtok 40 "," 30 21 114))))] (mkPtok 3 "}" 30 22 115))); (DPacket (mkPacketDef (mkSpan (mkPtok 35 "packet" 31 0 116) (mkPtok 3 "}" 55 4 181)) None (mkPtok 35 "packet" 31 0 116) (mkPtok 42 "body" 32 0 118) (mkPtok 2 "{" 32 4 119) [(mkFieldWithAttr (mkSpan (mkPtok 38 "match" 32 5 120) (mkPtok 40 "," 35 2 130)) [] (MatchField (mkSpan (mkPtok 38 "match" 32 5 120) (mkPtok 40 "," 35 2 130)) (mkMatchFieldDecl (mkSpan (mkPtok 38 "match" 32 5 120) (mkPtok 3 "}" 35 0 129)) (mkPtok 38 "match" 32 5 120) (mkPtok 42 "leftPad" 32 11 121) (mkPtok 17 "as" 33 0 122) (mkPtok 42 "falsey" 34 0 123) (mkPtok 2 "{" 34 7 124) [(mkMatchPair (mkSpan (mkPtok 31 (string_of_bytes [34; 195; 169; 116; 195; 169; 34]%N) 34 9 125) (mkPtok 40 "," 34 22 128)) (MKString (mkPtok 31 (string_of_bytes [34; 195; 169; 116; 195; 169; 34]%N) 34 9 125)) (mkPtok 39 ":" 34 15 126) (mkPtok 42 "len" 34 17 127) (Some (mkPtok 40 "," 34 22 128)))] (mkPtok 3 "}" 35 0 129)) (mkPtok 40 "," 35 2 130))); (mkFieldWithAttr (mkSpan (mkPtok 5 "@calculatedFrom(" 37 4 132) (mkPtok 40 "," 50 2 166)) [(FACalculatedFrom (mkSpan (mkPtok 5 "@calculatedFrom(" 37 4 132) (mkPtok 6 ")" 38 4 134)) (mkCalculatedFrom (mkSpan (mkPtok 5 "@calculatedFrom(" 37 4 132) (mkPtok 6 ")" 38 4 134)) (mkPtok 5 "@calculatedFrom(" 37 4 132) (mkPtok 31 """CRC32""" 37 21 133) (mkPtok 6 ")" 38 4 134)))] (InerObjectField (mkSpan (mkPtok 42 "f32a" 38 6 135) (mkPtok 40 "," 50 2 166)) None (InerObjectDecl (mkSpan (mkPtok 42 "f32a" 38 6 135) (mkPtok 3 "}" 50 0 165)) (mkPtok 42 "f32a" 38 6 135) (mkPtok 2 "{" 38 11 136) [(LengthField (mkSpan (mkPtok 22 "uint32" 38 13 137) (mkPtok 40 "," 41 7 144)) (mkLengthFieldDecl (mkSpan (mkPtok 22 "uint32" 38 13 137) (mkPtok 40 "," 41 7 144)) (Some (TyBasic (mkSpan (mkPtok 22 "uint32" 38 13 137) (mkPtok 22 "uint32" 38 13 137)) (mkBasicType (mkSpan (mkPtok 22 "uint32" 38 13 137) (mkPtok 22 "uint32" 38 13 137)) (mkPtok 22 "uint32" 38 13 137)))) (mkPtok 42 "body" 38 20 138) (mkLengthOf (mkSpan (mkPtok 7 "@lengthOf(" 38 25 139) (mkPtok 6 ")" 39 8 141)) (mkPtok 7 "@lengthOf(" 38 25 139) (mkPtok 42 "Z9_" 39 4 140) (mkPtok 6 ")" 39 8 141)) (Some (mkPtok 43 (string_of_bytes [96; 108; 105; 110; 101; 49; 10; 108; 105; 110; 101; 50; 96]%N) 40 0 143)) (mkPtok 40 "," 41 7 144))); (MetaField (mkSpan (mkPtok 29 "f64" 43 4 146) (mkPtok 40 "," 44 6 149)) None (mkMetaDecl (mkSpan (mkPtok 29 "f64" 43 4 146) (mkPtok 40 "," 44 6 149)) (TyBasic (mkSpan (mkPtok 29 "f64" 43 4 146) (mkPtok 29 "f64" 43 4 146)) (mkBasicType (mkSpan (mkPtok 29 "f64" 43 4 146) (mkPtok 29 "f64" 43 4 146)) (mkPtok 29 "f64" 43 4 146))) (mkPtok 42 "u" 43 8 147) (Some (mkPtok 43 (string_of_bytes [96; 108; 105; 110; 101; 49; 10; 108; 105; 110; 101; 50; 96]%N) 43 10 148)) (mkPtok 40 "," 44 6 149))); (LengthField (mkSpan (mkPtok 42 "trueish" 44 8 150) (mkPtok 40 "," 45 4 154)) (mkLengthFieldDecl (mkSpan (mkPtok 42 "trueish" 44 8 150) (mkPtok 40 "," 45 4 154)) None (mkPtok 42 "trueish" 44 8 150) (mkLengthOf (mkSpan (mkPtok 7 "@lengthOf(" 44 16 151) (mkPtok 6 ")" 44 33 153)) (mkPtok 7 "@lengthOf(" 44 16 151) (mkPtok 42 "rootA" 44 27 152) (mkPtok 6 ")" 44 33 153)) None (mkPtok 40 "," 45 4 154))); (CheckSumField (mkSpan (mkPtok 12 "char[" 45 5 155) (mkPtok 40 "," 49 2 164)) (mkChecksumFieldDecl (mkSpan (mkPtok 12 "char[" 45 5 155) (mkPtok 40 "," 49 2 164)) (Some (TyFixed (mkSpan (mkPtok 12 "char[" 45 5 155) (mkPtok 13 "]" 46 4 157)) (mkFixedString (mkSpan (mkPtok 12 "char[" 45 5 155) (mkPtok 13 "]" 46 4 157)) (mkPtok 12 "char[" 45 5 155) (mkPtok 30 "255" 45 11 156) (mkPtok 13 "]" 46 4 157)))) (mkPtok 42 "u" 46 6 158) (mkCalculatedFrom (mkSpan (mkPtok 5 "@calculatedFrom(" 46 7 159) (mkPtok 6 ")" 49 0 163)) (mkPtok 5 "@calculatedFrom(" 46 7 159) (mkPtok 31 (string_of_bytes [34; 97; 9; 98; 34]%N) 46 24 160) (mkPtok 6 ")" 49 0 163)) None (mkPtok 40 "," 49 2 164)))] (mkPtok 3 "}" 50 0 165)) (mkPtok 40 "," 50 2 166))); (mkFieldWithAttr (mkSpan (mkPtok 9 "@tag(" 50 4 167) (mkPtok 40 "," 53 4 173)) [(FATag (mkSpan (mkPtok 9 "@tag(" 50 4 167) (mkPtok 6 ")" 50 14 169)) (mkTagAttr (mkSpan (mkPtok 9 "@tag(" 50 4 167) (mkPtok 6 ")" 50 14 169)) (mkPtok 9 "@tag(" 50 4 167) (mkPtok 30 "42" 50 11 168) (mkPtok 6 ")" 50 14 169)))] (ObjectField (mkSpan (mkPtok 42 "options1" 51 0 170) (mkPtok 40 "," 53 4 173)) None (mkPtok 42 "options1" 51 0 170) (Some (mkPtok 42 "a1" 51 10 171)) None (mkPtok 40 "," 53 4 173))); (mkFieldWithAttr (mkSpan (mkPtok 16 "char[]" 54 4 174) (mkPtok 40 "," 55 2 180)) [] (CheckSumField (mkSpan (mkPtok 16 "char[]" 54 4 174) (mkPtok 40 "," 55 2 180)) (mkChecksumFieldDecl (mkSpan (mkPtok 16 "char[]" 54 4 174) (mkPtok 40 "," 55 2 180)) (Some (TyDynamic (mkSpan (mkPtok 16 "char[]" 54 4 174) (mkPtok 16 "char[]" 54 4 174)) (mkDynamicString (mkSpan (mkPtok 16 "char[]" 54 4 174) (mkPtok 16 "char[]" 54 4 174)) (mkPtok 16 "char[]" 54 4 174)))) (mkPtok 42 "Z9_" 54 11 175) (mkCalculatedFrom (mkSpan (mkPtok 5 "@calculatedFrom(" 54 15 176) (mkPtok 6 ")" 55 0 179)) (mkPtok 5 "@calculatedFrom(" 54 15 176) (mkPtok 31 """\n""" 54 32 177) (mkPtok 6 ")" 55 0 179)) None (mkPtok 40 "," 55 2 180))))] (mkPtok 3 "}" 55 4 181)))])).
-Eval vm_compute in ("<<<M1137>>>" ++ check (runes_of_ascii "options { }")).
-Eval vm_compute in ("<<<M1169>>>" ++ check (runes_of_ascii "// c
-options
-    //	t
-    {
-// `tick` ""quote"" 'q'
-/// triple
-repeatCount =
-    00 tag
-= ""{,}""MetaDataX = '0'o=
-""`tick`""
-//x
-// `tick` ""quote"" 'q'
-a1 = ""abc""
-}
-")).
-Eval vm_compute in ("<<<M1201>>>" ++ check (runes_of_ascii "packet  metadata { f64 float
-    //
-    `crlf
-line` , i32 asx @calculatedFrom(
-""`tick`"" ) ,
-/// triple
-// c
-A ,}
-root packet zchar  {
-// trailing space 
-// packet A { u8 x, }
-match matchKey
-    as
-    roots//x
-{
-""a\""b"" :	zchar ,""`tick`""
-:
-    int
-    ,""\n"" : packetx ,
-0// " ++ [27880; 37322]%N ++ runes_of_ascii "
-: Z9_ , }, int32 a1
-, @tag(42 ) // " ++ [128512]%N ++ runes_of_ascii " emoji
-@rightPad ('0') @tag( 65535 )char[ 00 ] calculatedFrom
-,packetx@lengthOf( options1 )
+Pad	,} , zchar[ 42 ] leftPad , f64/// triple
+crc ,
+    u64
+A@calculatedFrom( ""CRC32"" ) , }
     , }
-root
-packet body{ match
-    f32a as msg_type {[ 42 ]: matchKey // a // b
-, 3 :
-rootA
-    // @lengthOf(
-    , [
-    // c
-    00]
-    : packetx 10 : falsey	, }	,}options {
+, @lengthOf(
+crc) repeat
+u128 Pad
+    , stringy
+    trueish`say ""hi""`
+,
+As matchKey  ,@tag( 10 )
+    charz @calculatedFrom( ""it's"") // trailing space 
+, // " ++ [128512]%N ++ runes_of_ascii " emoji
+@rightPad (
+' ' ) a1 float	,
 }
 ")).
-Eval vm_compute in ("<<<M1233>>>" ++ check (runes_of_ascii "root
-    packet Foo	{@rightPad ( '\x00' ) Header
-    // " ++ [27880; 37322]%N ++ runes_of_ascii "
-    Pad
-`tab	here`,@rightPad  (
-'\x00'
-) zchar[ 1	]x_y_z , }
-")).
-Eval vm_compute in ("<<<M1265>>>" ++ check (runes_of_ascii "
-MetaData T
-{ leftPad msg_type, float Foo `doc`
-,
-uint64 charz `two words` ,
-    crc Pad `" ++ [28040; 24687; 31867; 22411]%N ++ runes_of_ascii "` ,  } root packet zchar
-{
-    @tag(  0123456789
-)
-    zchar[
-    42  ]
-lengthOf `" ++ [233]%N ++ runes_of_ascii "`
-    ,
-@tag(  0123456789)
-i64_
-i8i8	`say ""hi""`
-, Header
-    , @lengthOf(i64_
-)uint16 T
-// " ++ [128512]%N ++ runes_of_ascii " emoji
-// c
-@calculatedFrom(
-    ""x y"" ) , @lengthOf(/// triple
-u)
-    // a // b
-    As {int64 // `tick` ""quote"" 'q'
-options1
-@lengthOf( leftPad
-) `u8 x,` ,char[1	]
-falsey @lengthOf( Pad ) `u8 x,`
-    ,  char[]
-charz
-@lengthOf( Packet // c
-), repeat
-//x
-// " ++ [128512]%N ++ runes_of_ascii " emoji
-zchar { zchar[00
-    ]chars ,
-    msg_type @lengthOf(u128  )
-, } // " ++ [27880; 37322]%N ++ runes_of_ascii "
-,} , @leftPad ( '\x00' ) Foo @lengthOf(
-    Logon)
-, @lengthOf(Packet
-) repeat int {
-// @lengthOf(
-// trailing space 
-repeat char zchar , repeat
-string	stringy , string
-matchKey @calculatedFrom(""a	b"" ) `u8 x,`, }, match Logon as calculatedFrom { [ 42 ]
-:
-    x
-,""`tick`""
-:
-    x, 65535
-: Packet , },
-    char[ 7 ]trueish ``,
-match roots
-as
-    float { 007	: u8x// packet A { u8 x, }
-""\" ++ [233]%N ++ runes_of_ascii """ :MetaDataX // " ++ [27880; 37322]%N ++ runes_of_ascii "
-, //x
-[ 255 , ""{,}"",
-    """" , 255 ]// c
-:
-x_y_z , ""// no comment"" : Header // " ++ [27880; 37322]%N ++ runes_of_ascii "
-,} // " ++ [128512]%N ++ runes_of_ascii " emoji
-, }")).
-Eval vm_compute in ("<<<M1297>>>" ++ check (runes_of_ascii "root packet msg_type{
-repeat
-char[ 7 ]
-    o  `doc`,
-    @calculatedFrom( // packet A { u8 x, }
-""x y""
-    )repeat packetx tag ,
-char[]A
-    `doc`,
-    repeat
-// " ++ [128512]%N ++ runes_of_ascii " emoji
-// trailing space 
-BodyLength {
-//
-//
-int8
-As , i16 stringy , x_y_z {
-zchar[ 65535 ] matchKey
-@lengthOf( zchar ) ,}
-, }, } //")).
-Eval vm_compute in ("<<<M1329>>>" ++ check (@nil rune)).
-Eval vm_compute in ("<<<T1329>>>" ++ terms [mkTok 0 "<EOF>" 1 0 false] (mkPacket (mkPtok 0 "<EOF>" 1 0 0) None [])).
-Eval vm_compute in ("<<<M1361>>>" ++ check (runes_of_ascii "root packet falsey {
-repeat char[] leftPad	, repeat
-f64 // " ++ [128512]%N ++ runes_of_ascii " emoji
-_x `{ , }` , @tag(  0)
-    // `tick` ""quote"" 'q'
-    uint64 float
-    @calculatedFrom(""{,}"") , }
-")).
-Eval vm_compute in ("<<<M1393>>>" ++ check (runes_of_ascii "root	packet rootA
-/// triple
-//	t
-{
-    @lengthOf( A) zchar[
-    65535 ]len	`a\` ,  } root packet
-packetx
-{ uint8 i8i8 , }
-// c
-")).
-Eval vm_compute in ("<<<M1425>>>" ++ check (runes_of_ascii "packet As
-{stringy i8i8
-,} // c")).
-Eval vm_compute in ("<<<M1457>>>" ++ check (runes_of_ascii "options { tag = 0;} packet u8x
-    { // trailing space 
-u Z9_ , @tag(
-    00 )@rightPad ( '\x00'
-    )  @calculatedFrom(
-""CRC32"" ) //	t
-crc, metadata	@calculatedFrom(
-""a	b""
-    ) // c
-, @tag( 4294967296  ) u64 rootA
-    `tab	here`, // @lengthOf(
-@calculatedFrom( ""\n""
-    )char[]	pack
-    @lengthOf( chars) `" ++ [28040; 24687; 31867; 22411]%N ++ runes_of_ascii "` ,zchar[ 255 ]Foo @lengthOf( f32a ) , @leftPad
-(	) @lengthOf( string_ )
-@rightPad(
-' '
-    )
-    match
-msg_type
-as // " ++ [128512]%N ++ runes_of_ascii " emoji
-falsey  {
-    // a // b
-    ""a	b"" :
-x ,} , @calculatedFrom( ""{,}"" )
-match
-body as MetaDataX {42 // " ++ [27880; 37322]%N ++ runes_of_ascii "
-: u8x 0123456789
-: options1 , // c
-[ 3 ]: As , [ 00 ] :// c
-A ,
-""CRC32""
-: zchar , [	""it's"" ,
-""" ++ [233]%N ++ runes_of_ascii "t" ++ [233]%N ++ runes_of_ascii """  ,	""1"", 3, ""a	b""
-    , 1
-    //x
-    ,  0123456789, //	t
-4294967296
-] :
-    packetx
-    , // " ++ [27880; 37322]%N ++ runes_of_ascii "
-}, repeat uint8 o`{ , }`
-    ,
-//	t
-//
-} packet leftPad {
-u32
-// packet A { u8 x, }
-//x
-packetx
-`a\` ,@calculatedFrom( ""// no comment""	) @rightPad ( ) @lengthOf(
-    asx
-    )
-// c
-// trailing space 
-char[ 42
-    ] calculatedFrom @lengthOf( packetx ), @tag(
-    00
-)stringy  msg_type , u128 i64_ `it's` ,@rightPad
-    ('\x00') u8x
-, @calculatedFrom( """ ++ [28040; 24687]%N ++ runes_of_ascii """
-) len msg_type , // packet A { u8 x, }
-MetaDataX pack
-    // c
-    ,@calculatedFrom( """ ++ [28040; 24687]%N ++ runes_of_ascii """ ) string MetaDataX//	t
-`
-` , }
-")).
-Eval vm_compute in ("<<<M1489>>>" ++ check (runes_of_ascii "options{
-    A = ""\n"" ; matchKey = 4294967296 } root packet repeatCount
-{ rootA `{ , }`
-    , @tag(0 )	@tag(  007 )
-    string
-    packetx
-    ,  repeat // c
-u128
-u128	`u8 x,`	, @leftPad
-    ( ' '	)
-    i64_ @calculatedFrom(""`tick`""	)
-    // @lengthOf(
-    `it's`
-, char[ 00 ] lengthOf `it's` , Foo`u8 x,`, zchar[
-65535] i64_ , char[
-    // c
-    0	]_x
-    ,
-    repeat zchar[0123456789]	u
-,  @tag(
-    10 // trailing space 
-)
-/// triple
-// packet A { u8 x, }
-int64 pack
-@calculatedFrom( ""packet""
-    )
-`u8 x,`
-// a // b
-// trailing space 
-, } packet
-    float
-// a // b
-//x
-{@tag(
-0
-    // " ++ [27880; 37322]%N ++ runes_of_ascii "
-    )
-char[0
-]
-stringy `" ++ [28040; 24687; 31867; 22411]%N ++ runes_of_ascii "`	, } /// triple")).
-Eval vm_compute in ("<<<M1521>>>" ++ check (runes_of_ascii "// " ++ [27880; 37322]%N ++ runes_of_ascii "
-
-// packet A { u8 x, }
-")).
-Eval vm_compute in ("<<<M1553>>>" ++ check (runes_of_ascii "packet // `tick` ""quote"" 'q'
-MetaDataX// c
-{ } packet calculatedFrom{ float32 metadata `u8 x,`, }
-    // packet A { u8 x, }
-    packet // a // b
-metadata //x
-{ char[
-3
-    ]
-As
-    `tab	here` , @tag( 10 ) @lengthOf(	As ) @tag( 00
-// @lengthOf(
-//
-)repeat options1
-    `say ""hi""` // " ++ [128512]%N ++ runes_of_ascii " emoji
-,@calculatedFrom(	""\" ++ [233]%N ++ runes_of_ascii """  )
-    o A `" ++ [233]%N ++ runes_of_ascii "` , @lengthOf( // c
-body
-    ) zchar[  255
-] len
-    `it's` ,// packet A { u8 x, }
-@lengthOf(
-metadata ) @calculatedFrom( ""x y"")
-// " ++ [27880; 37322]%N ++ runes_of_ascii "
+Eval vm_compute in ("<<<M81>>>" ++ check (runes_of_ascii "options {	Z9_ // packet A { u8 x, }
+=	'0'charz
+= 10 T =
 // `tick` ""quote"" 'q'
-float32 /// triple
-f32a `tab	here`
-    , chars ,} packet body { pack
+//
+""// no comment"" ; }
+")).
+Eval vm_compute in ("<<<M113>>>" ++ check (runes_of_ascii "options {
+body ='\x00' u128 =
+    i16 ; float = // packet A { u8 x, }
+zchar[
+65535 ]
+; Z9_ =
+""// no comment"" trueish
+=// packet A { u8 x, }
+false } // packet A { u8 x, }")).
+Eval vm_compute in ("<<<M145>>>" ++ check (runes_of_ascii "root packet
+chars{ @rightPad
+    ( )o { roots `100% of %d` ,repeat uint64 pack
+`` ,} // " ++ [128512]%N ++ runes_of_ascii " emoji
+, }
+")).
+Eval vm_compute in ("<<<M177>>>" ++ check (runes_of_ascii "options{
+    metadata = '0'}
+options{u =
+1 ;msg_type = string;	As = ""{,}"";
+i8i8 = string; crc// `tick` ""quote"" 'q'
+=
+char[ 4294967296
+] }")).
+Eval vm_compute in ("<<<M209>>>" ++ check (runes_of_ascii "MetaData i64_
+    { lengthOf tag ,
+char[] falsey `a\`
+/// triple
+//	t
+,}
+")).
+Eval vm_compute in ("<<<T209>>>" ++ terms [mkTok 37 "MetaData" 1 0 false; mkTok 42 "i64_" 1 9 false; mkTok 2 "{" 2 4 false; mkTok 42 "lengthOf" 2 6 false; mkTok 42 "tag" 2 15 false; mkTok 40 "," 2 19 false; mkTok 16 "char[]" 3 0 false; mkTok 42 "falsey" 3 7 false; mkTok 43 "`a\`" 3 14 false; mkTok 44 "/// triple" 4 0 true; mkTok 44 (string_of_bytes [47; 47; 9; 116]%N) 5 0 true; mkTok 40 "," 6 0 false; mkTok 3 "}" 6 1 false; mkTok 0 "<EOF>" 7 0 false] (mkPacket (mkPtok 37 "MetaData" 1 0 0) (Some (mkPtok 3 "}" 6 1 12)) [(DMeta (mkMetaDef (mkSpan (mkPtok 37 "MetaData" 1 0 0) (mkPtok 3 "}" 6 1 12)) (mkPtok 37 "MetaData" 1 0 0) (mkPtok 42 "i64_" 1 9 1) (mkPtok 2 "{" 2 4 2) [(MIRef (mkRefMetaDecl (mkSpan (mkPtok 42 "lengthOf" 2 6 3) (mkPtok 40 "," 2 19 5)) (mkPtok 42 "lengthOf" 2 6 3) (mkPtok 42 "tag" 2 15 4) None (mkPtok 40 "," 2 19 5))); (MIDecl (mkMetaDecl (mkSpan (mkPtok 16 "char[]" 3 0 6) (mkPtok 40 "," 6 0 11)) (TyDynamic (mkSpan (mkPtok 16 "char[]" 3 0 6) (mkPtok 16 "char[]" 3 0 6)) (mkDynamicString (mkSpan (mkPtok 16 "char[]" 3 0 6) (mkPtok 16 "char[]" 3 0 6)) (mkPtok 16 "char[]" 3 0 6))) (mkPtok 42 "falsey" 3 7 7) (Some (mkPtok 43 "`a\`" 3 14 8)) (mkPtok 40 "," 6 0 11)))] (mkPtok 3 "}" 6 1 12)))])).
+Eval vm_compute in ("<<<M241>>>" ++ check (runes_of_ascii "
+packet msg_type
+{ match
+    x_y_z as i8i8  { 0:As
+// `tick` ""quote"" 'q'
+//
+,""packet"":
+    // " ++ [27880; 37322]%N ++ runes_of_ascii "
+    T
+    , [
+65535 , ""1"" ,00 , """ ++ [128512]%N ++ runes_of_ascii """
+,  4294967296,
+// " ++ [27880; 37322]%N ++ runes_of_ascii "
+//	t
+4294967296 ] : Logon// `tick` ""quote"" 'q'
+,
+[  ""\n"" ,// @lengthOf(
+""packet"" ,
+""// no comment""  ,1 , 1 ,
+    ""`tick`""]  : rootA ,0123456789:falsey , } , As o , char[0 ]  float `// not a comment` , @calculatedFrom(""abc"")	@tag( 4294967296 ) repeat float32 BodyLength`crlf
+line`
+, msg_type @calculatedFrom(
+""" ++ [128512]%N ++ runes_of_ascii """ )
+// " ++ [27880; 37322]%N ++ runes_of_ascii "
+// @lengthOf(
+`a\` // `tick` ""quote"" 'q'
+,
+repeat int64 body , int16 a1 // trailing space 
+@calculatedFrom( ""it's""
+    // @lengthOf(
+    ) , i16 //x
+float `u8 x,`
+    ,
+    @leftPad // " ++ [27880; 37322]%N ++ runes_of_ascii "
+(	'\x00' // " ++ [27880; 37322]%N ++ runes_of_ascii "
+)// c
+uint32 roots ,
+    } packet Header { @calculatedFrom( ""`tick`"" ) char[
+    00 ] packetx , @lengthOf( matchKey ) repeatCount
+x_y_z
+`{ , }` ,
+}")).
+Eval vm_compute in ("<<<M273>>>" ++ check (runes_of_ascii "
+")).
+Eval vm_compute in ("<<<M305>>>" ++ check (runes_of_ascii "packet // " ++ [128512]%N ++ runes_of_ascii " emoji
+a1 {
+@rightPad (
+    //	t
+    '\x00' )repeat string
+x `" ++ [28040; 24687; 31867; 22411]%N ++ runes_of_ascii "` // a // b
+,
+    }packet i8i8 {zchar[  42 ] matchKey @calculatedFrom(""CRC32"")`it's` ,_x
+    @calculatedFrom( ""x y""	),float32 Logon @lengthOf( matchKey
+    ) , }
+MetaData Foo { //x
+Foo
+T, }root packet pack	{ //
+@calculatedFrom( ""1"" )Foo `" ++ [28040; 24687; 31867; 22411]%N ++ runes_of_ascii "`,
+    @tag( //
+00)u64 trueish ,repeat leftPad float `say ""hi""`
+, i64 u @calculatedFrom( """" ) , }	MetaData o {
+char[]i64_ ,body
+    BodyLength
+    `" ++ [233]%N ++ runes_of_ascii "`	,
+string
+Pad
+`100% of %d`
+    , calculatedFrom BodyLength`say ""hi""` , zchar[10 ] x , i64 falsey, }
+")).
+Eval vm_compute in ("<<<M337>>>" ++ check (runes_of_ascii "  root packet matchKey {zchar[1//x
+]
+i64_//x
+@lengthOf(Pad ) ,  char[ 0123456789
+    ] BodyLength`crlf
+line`,@calculatedFrom(""" ++ [128512]%N ++ runes_of_ascii """)//x
+o @calculatedFrom( ""1""
+    ) `two words` ,
+    char pack// " ++ [128512]%N ++ runes_of_ascii " emoji
+@calculatedFrom(""it's"" ) ,} packet string_ { } root packet Z9_// " ++ [27880; 37322]%N ++ runes_of_ascii "
+{ char[ 10] a1 , @tag(00) match
+    metadata as tag  { ""it's"" : A ""{,}"" :body, }, @calculatedFrom(  ""a\""b""
+    ) @rightPad( '0' ) i16 msg_type
+@lengthOf( zchar) ``
+,
+float64// @lengthOf(
+matchKey @lengthOf(  roots )`two words` ,
+    @calculatedFrom( ""CRC32"" //x
+)
+    // " ++ [128512]%N ++ runes_of_ascii " emoji
+    @tag( // packet A { u8 x, }
+0
+)@rightPad ( ' ' ) Foo @lengthOf( int
+    //x
+    ) `" ++ [28040; 24687; 31867; 22411]%N ++ runes_of_ascii "` ,
+    @lengthOf(  o )	@tag( 42 )@tag( 1 //	t
+) char[] Logon ,
+@calculatedFrom(
+// `tick` ""quote"" 'q'
+// 50% %s
+""a	b"" ) repeat
+    u8  options1 , zchar[ 0 ] i64_ , } MetaData o// packet A { u8 x, }
+{ body Header , i64 matchKey , pack body ,
+}	MetaData crc
+    // trailing space 
+    { }")).
+Eval vm_compute in ("<<<M369>>>" ++ check (runes_of_ascii "options { Z9_
+=0 ; }
+")).
+Eval vm_compute in ("<<<M401>>>" ++ check (runes_of_ascii "
+options
+    {
+    Foo= 00;zchar= 65535
+    }
+    root packet  tag { } // " ++ [27880; 37322]%N ++ runes_of_ascii "
+MetaData
+    MetaDataX { zchar[10
+/// triple
+//	t
+] metadata  ,
+uint16
+    // packet A { u8 x, }
+    Z9_
+    //	t
+    `line1
+line2` , x_y_z lengthOf // " ++ [128512]%N ++ runes_of_ascii " emoji
+`
+`,uint16 BodyLength, char[] BodyLength	`// not a comment` ,}
+packet uint8x{
+    stringy , }
+    // `tick` ""quote"" 'q'
+    root
+    packet u128 {repeat
+    f32	Packet,
+}
+")).
+Eval vm_compute in ("<<<M433>>>" ++ check (runes_of_ascii "
+options { i64_
+=
+i32 ;
+    msg_type
+    =i64 msg_type
+    = 007 ; } root
+    packet
+string_  {@tag( 00 )
+//x
+// `tick` ""quote"" 'q'
+repeatCount i64_ , repeat
+uint32 calculatedFrom
+, // @lengthOf(
+@tag( 4294967296// a // b
+)@calculatedFrom( """" ) repeat
+char[] calculatedFrom	, } options { roots =""// no comment"";	metadata
+= int64 f32a =' ' ;
+    i64_	= ""\" ++ [233]%N ++ runes_of_ascii """} packet // @lengthOf(
+metadata//	t
+{ match
+Logon as Logon { 00 :BodyLength 10 : body 255
+: //x
+trueish , [	42, ""packet"",
+""packet"", """ ++ [233]%N ++ runes_of_ascii "t" ++ [233]%N ++ runes_of_ascii """] :
+lengthOf
+,
+} // `tick` ""quote"" 'q'
+, } 	 ")).
+Eval vm_compute in ("<<<T433>>>" ++ terms [mkTok 1 "options" 2 0 false; mkTok 2 "{" 2 8 false; mkTok 42 "i64_" 2 10 false; mkTok 4 "=" 3 0 false; mkTok 26 "i32" 4 0 false; mkTok 41 ";" 4 4 false; mkTok 42 "msg_type" 5 4 false; mkTok 4 "=" 6 4 false; mkTok 27 "i64" 6 5 false; mkTok 42 "msg_type" 6 9 false; mkTok 4 "=" 7 4 false; mkTok 30 "007" 7 6 false; mkTok 41 ";" 7 10 false; mkTok 3 "}" 7 12 false; mkTok 34 "root" 7 14 false; mkTok 35 "packet" 8 4 false; mkTok 42 "string_" 9 0 false; mkTok 2 "{" 9 9 false; mkTok 9 "@tag(" 9 10 false; mkTok 30 "00" 9 16 false; mkTok 6 ")" 9 19 false; mkTok 44 "//x" 10 0 true; mkTok 44 "// `tick` ""quote"" 'q'" 11 0 true; mkTok 42 "repeatCount" 12 0 false; mkTok 42 "i64_" 12 12 false; mkTok 40 "," 12 17 false; mkTok 36 "repeat" 12 19 false; mkTok 22 "uint32" 13 0 false; mkTok 42 "calculatedFrom" 13 7 false; mkTok 40 "," 14 0 false; mkTok 44 "// @lengthOf(" 14 2 true; mkTok 9 "@tag(" 15 0 false; mkTok 30 "4294967296" 15 6 false; mkTok 44 "// a // b" 15 16 true; mkTok 6 ")" 16 0 false; mkTok 5 "@calculatedFrom(" 16 1 false; mkTok 31 """""" 16 18 false; mkTok 6 ")" 16 21 false; mkTok 36 "repeat" 16 23 false; mkTok 16 "char[]" 17 0 false; mkTok 42 "calculatedFrom" 17 7 false; mkTok 40 "," 17 22 false; mkTok 3 "}" 17 24 false; mkTok 1 "options" 17 26 false; mkTok 2 "{" 17 34 false; mkTok 42 "roots" 17 36 false; mkTok 4 "=" 17 42 false; mkTok 31 """// no comment""" 17 43 false; mkTok 41 ";" 17 58 false; mkTok 42 "metadata" 17 60 false; mkTok 4 "=" 18 0 false; mkTok 27 "int64" 18 2 false; mkTok 42 "f32a" 18 8 false; mkTok 4 "=" 18 13 false; mkTok 33 "' '" 18 14 false; mkTok 41 ";" 18 18 false; mkTok 42 "i64_" 19 4 false; mkTok 4 "=" 19 9 false; mkTok 31 (string_of_bytes [34; 92; 195; 169; 34]%N) 19 11 false; mkTok 3 "}" 19 15 false; mkTok 35 "packet" 19 17 false; mkTok 44 "// @lengthOf(" 19 24 true; mkTok 42 "metadata" 20 0 false; mkTok 44 (string_of_bytes [47; 47; 9; 116]%N) 20 8 true; mkTok 2 "{" 21 0 false; mkTok 38 "match" 21 2 false; mkTok 42 "Logon" 22 0 false; mkTok 17 "as" 22 6 false; mkTok 42 "Logon" 22 9 false; mkTok 2 "{" 22 15 false; mkTok 30 "00" 22 17 false; mkTok 39 ":" 22 20 false; mkTok 42 "BodyLength" 22 21 false; mkTok 30 "10" 22 32 false; mkTok 39 ":" 22 35 false; mkTok 42 "body" 22 37 false; mkTok 30 "255" 22 42 false; mkTok 39 ":" 23 0 false; mkTok 44 "//x" 23 2 true; mkTok 42 "trueish" 24 0 false; mkTok 40 "," 24 8 false; mkTok 18 "[" 24 10 false; mkTok 30 "42" 24 12 false; mkTok 40 "," 24 14 false; mkTok 31 """packet""" 24 16 false; mkTok 40 "," 24 24 false; mkTok 31 """packet""" 25 0 false; mkTok 40 "," 25 8 false; mkTok 31 (string_of_bytes [34; 195; 169; 116; 195; 169; 34]%N) 25 10 false; mkTok 13 "]" 25 15 false; mkTok 39 ":" 25 17 false; mkTok 42 "lengthOf" 26 0 false; mkTok 40 "," 27 0 false; mkTok 3 "}" 28 0 false; mkTok 44 "// `tick` ""quote"" 'q'" 28 2 true; mkTok 40 "," 29 0 false; mkTok 3 "}" 29 2 false; mkTok 0 "<EOF>" 29 6 false] (mkPacket (mkPtok 1 "options" 2 0 0) (Some (mkPtok 3 "}" 29 2 96)) [(DOption (mkOptionDef (mkSpan (mkPtok 1 "options" 2 0 0) (mkPtok 3 "}" 7 12 13)) (mkPtok 1 "options" 2 0 0) (mkPtok 2 "{" 2 8 1) [(mkOptionDecl (mkSpan (mkPtok 42 "i64_" 2 10 2) (mkPtok 41 ";" 4 4 5)) (mkPtok 42 "i64_" 2 10 2) (mkPtok 4 "=" 3 0 3) (VType (mkSpan (mkPtok 26 "i32" 4 0 4) (mkPtok 26 "i32" 4 0 4)) (TyBasic (mkSpan (mkPtok 26 "i32" 4 0 4) (mkPtok 26 "i32" 4 0 4)) (mkBasicType (mkSpan (mkPtok 26 "i32" 4 0 4) (mkPtok 26 "i32" 4 0 4)) (mkPtok 26 "i32" 4 0 4)))) (Some (mkPtok 41 ";" 4 4 5))); (mkOptionDecl (mkSpan (mkPtok 42 "msg_type" 5 4 6) (mkPtok 27 "i64" 6 5 8)) (mkPtok 42 "msg_type" 5 4 6) (mkPtok 4 "=" 6 4 7) (VType (mkSpan (mkPtok 27 "i64" 6 5 8) (mkPtok 27 "i64" 6 5 8)) (TyBasic (mkSpan (mkPtok 27 "i64" 6 5 8) (mkPtok 27 "i64" 6 5 8)) (mkBasicType (mkSpan (mkPtok 27 "i64" 6 5 8) (mkPtok 27 "i64" 6 5 8)) (mkPtok 27 "i64" 6 5 8)))) None); (mkOptionDecl (mkSpan (mkPtok 42 "msg_type" 6 9 9) (mkPtok 41 ";" 7 10 12)) (mkPtok 42 "msg_type" 6 9 9) (mkPtok 4 "=" 7 4 10) (VDigits (mkSpan (mkPtok 30 "007" 7 6 11) (mkPtok 30 "007" 7 6 11)) (mkPtok 30 "007" 7 6 11)) (Some (mkPtok 41 ";" 7 10 12)))] (mkPtok 3 "}" 7 12 13))); (DPacket (mkPacketDef (mkSpan (mkPtok 34 "root" 7 14 14) (mkPtok 3 "}" 17 24 42)) (Some (mkPtok 34 "root" 7 14 14)) (mkPtok 35 "packet" 8 4 15) (mkPtok 42 "string_" 9 0 16) (mkPtok 2 "{" 9 9 17) [(mkFieldWithAttr (mkSpan (mkPtok 9 "@tag(" 9 10 18) (mkPtok 40 "," 12 17 25)) [(FATag (mkSpan (mkPtok 9 "@tag(" 9 10 18) (mkPtok 6 ")" 9 19 20)) (mkTagAttr (mkSpan (mkPtok 9 "@tag(" 9 10 18) (mkPtok 6 ")" 9 19 20)) (mkPtok 9 "@tag(" 9 10 18) (mkPtok 30 "00" 9 16 19) (mkPtok 6 ")" 9 19 20)))] (ObjectField (mkSpan (mkPtok 42 "repeatCount" 12 0 23) (mkPtok 40 "," 12 17 25)) None (mkPtok 42 "repeatCount" 12 0 23) (Some (mkPtok 42 "i64_" 12 12 24)) None (mkPtok 40 "," 12 17 25))); (mkFieldWithAttr (mkSpan (mkPtok 36 "repeat" 12 19 26) (mkPtok 40 "," 14 0 29)) [] (MetaField (mkSpan (mkPtok 36 "repeat" 12 19 26) (mkPtok 40 "," 14 0 29)) (Some (mkPtok 36 "repeat" 12 19 26)) (mkMetaDecl (mkSpan (mkPtok 22 "uint32" 13 0 27) (mkPtok 40 "," 14 0 29)) (TyBasic (mkSpan (mkPtok 22 "uint32" 13 0 27) (mkPtok 22 "uint32" 13 0 27)) (mkBasicType (mkSpan (mkPtok 22 "uint32" 13 0 27) (mkPtok 22 "uint32" 13 0 27)) (mkPtok 22 "uint32" 13 0 27))) (mkPtok 42 "calculatedFrom" 13 7 28) None (mkPtok 40 "," 14 0 29)))); (mkFieldWithAttr (mkSpan (mkPtok 9 "@tag(" 15 0 31) (mkPtok 40 "," 17 22 41)) [(FATag (mkSpan (mkPtok 9 "@tag(" 15 0 31) (mkPtok 6 ")" 16 0 34)) (mkTagAttr (mkSpan (mkPtok 9 "@tag(" 15 0 31) (mkPtok 6 ")" 16 0 34)) (mkPtok 9 "@tag(" 15 0 31) (mkPtok 30 "4294967296" 15 6 32) (mkPtok 6 ")" 16 0 34))); (FACalculatedFrom (mkSpan (mkPtok 5 "@calculatedFrom(" 16 1 35) (mkPtok 6 ")" 16 21 37)) (mkCalculatedFrom (mkSpan (mkPtok 5 "@calculatedFrom(" 16 1 35) (mkPtok 6 ")" 16 21 37)) (mkPtok 5 "@calculatedFrom(" 16 1 35) (mkPtok 31 """""" 16 18 36) (mkPtok 6 ")" 16 21 37)))] (MetaField (mkSpan (mkPtok 36 "repeat" 16 23 38) (mkPtok 40 "," 17 22 41)) (Some (mkPtok 36 "repeat" 16 23 38)) (mkMetaDecl (mkSpan (mkPtok 16 "char[]" 17 0 39) (mkPtok 40 "," 17 22 41)) (TyDynamic (mkSpan (mkPtok 16 "char[]" 17 0 39) (mkPtok 16 "char[]" 17 0 39)) (mkDynamicString (mkSpan (mkPtok 16 "char[]" 17 0 39) (mkPtok 16 "char[]" 17 0 39)) (mkPtok 16 "char[]" 17 0 39))) (mkPtok 42 "calculatedFrom" 17 7 40) None (mkPtok 40 "," 17 22 41))))] (mkPtok 3 "}" 17 24 42))); (DOption (mkOptionDef (mkSpan (mkPtok 1 "options" 17 26 43) (mkPtok 3 "}" 19 15 59)) (mkPtok 1 "options" 17 26 43) (mkPtok 2 "{" 17 34 44) [(mkOptionDecl (mkSpan (mkPtok 42 "roots" 17 36 45) (mkPtok 41 ";" 17 58 48)) (mkPtok 42 "roots" 17 36 45) (mkPtok 4 "=" 17 42 46) (VString (mkSpan (mkPtok 31 """// no comment""" 17 43 47) (mkPtok 31 """// no comment""" 17 43 47)) (mkPtok 31 """// no comment""" 17 43 47)) (Some (mkPtok 41 ";" 17 58 48))); (mkOptionDecl (mkSpan (mkPtok 42 "metadata" 17 60 49) (mkPtok 27 "int64" 18 2 51)) (mkPtok 42 "metadata" 17 60 49) (mkPtok 4 "=" 18 0 50) (VType (mkSpan (mkPtok 27 "int64" 18 2 51) (mkPtok 27 "int64" 18 2 51)) (TyBasic (mkSpan (mkPtok 27 "int64" 18 2 51) (mkPtok 27 "int64" 18 2 51)) (mkBasicType (mkSpan (mkPtok 27 "int64" 18 2 51) (mkPtok 27 "int64" 18 2 51)) (mkPtok 27 "int64" 18 2 51)))) None); (mkOptionDecl (mkSpan (mkPtok 42 "f32a" 18 8 52) (mkPtok 41 ";" 18 18 55)) (mkPtok 42 "f32a" 18 8 52) (mkPtok 4 "=" 18 13 53) (VPaddingChar (mkSpan (mkPtok 33 "' '" 18 14 54) (mkPtok 33 "' '" 18 14 54)) (mkPtok 33 "' '" 18 14 54)) (Some (mkPtok 41 ";" 18 18 55))); (mkOptionDecl (mkSpan (mkPtok 42 "i64_" 19 4 56) (mkPtok 31 (string_of_bytes [34; 92; 195; 169; 34]%N) 19 11 58)) (mkPtok 42 "i64_" 19 4 56) (mkPtok 4 "=" 19 9 57) (VString (mkSpan (mkPtok 31 (string_of_bytes [34; 92; 195; 169; 34]%N) 19 11 58) (mkPtok 31 (string_of_bytes [34; 92; 195; 169; 34]%N) 19 11 58)) (mkPtok 31 (string_of_bytes [34; 92; 195; 169; 34]%N) 19 11 58)) None)] (mkPtok 3 "}" 19 15 59))); (DPacket (mkPacketDef (mkSpan (mkPtok 35 "packet" 19 17 60) (mkPtok 3 "}" 29 2 96)) None (mkPtok 35 "packet" 19 17 60) (mkPtok 42 "metadata" 20 0 62) (mkPtok 2 "{" 21 0 64) [(mkFieldWithAttr (mkSpan (mkPtok 38 "match" 21 2 65) (mkPtok 40 "," 29 0 95)) [] (MatchField (mkSpan (mkPtok 38 "match" 21 2 65) (mkPtok 40 "," 29 0 95)) (mkMatchFieldDecl (mkSpan (mkPtok 38 "match" 21 2 65) (mkPtok 3 "}" 28 0 93)) (mkPtok 38 "match" 21 2 65) (mkPtok 42 "Logon" 22 0 66) (mkPtok 17 "as" 22 6 67) (mkPtok 42 "Logon" 22 9 68) (mkPtok 2 "{" 22 15 69) [(mkMatchPair (mkSpan (mkPtok 30 "00" 22 17 70) (mkPtok 42 "BodyLength" 22 21 72)) (MKDigits (mkPtok 30 "00" 22 17 70)) (mkPtok 39 ":" 22 20 71) (mkPtok 42 "BodyLength" 22 21 72) None); (mkMatchPair (mkSpan (mkPtok 30 "10" 22 32 73) (mkPtok 42 "body" 22 37 75)) (MKDigits (mkPtok 30 "10" 22 32 73)) (mkPtok 39 ":" 22 35 74) (mkPtok 42 "body" 22 37 75) None); (mkMatchPair (mkSpan (mkPtok 30 "255" 22 42 76) (mkPtok 40 "," 24 8 80)) (MKDigits (mkPtok 30 "255" 22 42 76)) (mkPtok 39 ":" 23 0 77) (mkPtok 42 "trueish" 24 0 79) (Some (mkPtok 40 "," 24 8 80))); (mkMatchPair (mkSpan (mkPtok 18 "[" 24 10 81) (mkPtok 40 "," 27 0 92)) (MKList (mkKeyList (mkSpan (mkPtok 18 "[" 24 10 81) (mkPtok 13 "]" 25 15 89)) (mkPtok 18 "[" 24 10 81) (mkPtok 30 "42" 24 12 82) [((mkPtok 40 "," 24 14 83), (mkPtok 31 """packet""" 24 16 84)); ((mkPtok 40 "," 24 24 85), (mkPtok 31 """packet""" 25 0 86)); ((mkPtok 40 "," 25 8 87), (mkPtok 31 (string_of_bytes [34; 195; 169; 116; 195; 169; 34]%N) 25 10 88))] (mkPtok 13 "]" 25 15 89))) (mkPtok 39 ":" 25 17 90) (mkPtok 42 "lengthOf" 26 0 91) (Some (mkPtok 40 "," 27 0 92)))] (mkPtok 3 "}" 28 0 93)) (mkPtok 40 "," 29 0 95)))] (mkPtok 3 "}" 29 2 96)))])).
+Eval vm_compute in ("<<<M465>>>" ++ check (runes_of_ascii "
+MetaData  roots{ } packet chars{
+@tag( 255 ) char[ 1// 50% %s
+]Packet ,
+@lengthOf(calculatedFrom
     /// triple
-    , i64 zchar
-@lengthOf( roots
-)	`doc`
-    ,uint8 falsey @calculatedFrom( ""`tick`"" )	,
-    @lengthOf( int) @tag(
-    255 ) @leftPad(
     )
+Packet{ uint32 len, uint64
+uint8x
+    @lengthOf(stringy ) , } , x@lengthOf(trueish)
+`100% of %d`  , }packet len { zchar[3
+    // 50% %s
+    ] pack `crlf
+line`, float
+    @lengthOf(//
+calculatedFrom
+//	t
+// a // b
+) ,char[ 3	]rootA @lengthOf(body )
+    , @calculatedFrom(""{,}"")
+// c
+// c
+match _x as Header // c
+{  00 : _x , [ ""packet""
+,10, 0123456789 ,	255 ]: a1 ,	42  : falsey
+,007
+    : msg_type },
+}
+// packet A { u8 x, }
+")).
+Eval vm_compute in ("<<<M497>>>" ++ check (runes_of_ascii "// packet A { u8 x, }
+options// @lengthOf(
+{ chars = ""// no comment"" }
+")).
+Eval vm_compute in ("<<<M529>>>" ++ check (runes_of_ascii "MetaData int { int zchar  , }packet
+    string_	{ }
+packet len { float@lengthOf( Z9_
+    ),
+    } root packet int {
+    uint64 i64_
+    , @lengthOf( Logon ) string
+float ,
+Header
+o ,
+@tag( 7 ) match Pad as  u128
+    // " ++ [27880; 37322]%N ++ runes_of_ascii "
+    { 0: BodyLength
+,},
+    int64 float
+    @lengthOf(i64_
+)	,	repeat
+//x
+// 50% %s
+string// " ++ [128512]%N ++ runes_of_ascii " emoji
+packetx
+, @leftPad (  ' ' ) @lengthOf(
+stringy ) @calculatedFrom( ""CRC32"") repeat metadata pack ,
+    // c
+    @lengthOf( Foo
+    ) a1
+    //	t
+    , } packet pack {	@tag(// " ++ [128512]%N ++ runes_of_ascii " emoji
+7 )
+zchar[ 255 ] body @calculatedFrom( ""// no comment"" ), repeat zchar[ 255 ]
+    metadata, char[ 42
+] i8i8
+@calculatedFrom(
+    ""packet"" )`two words` , Foo@calculatedFrom( """ ++ [28040; 24687]%N ++ runes_of_ascii """) `tab	here`
+, }
+")).
+Eval vm_compute in ("<<<M561>>>" ++ check (runes_of_ascii "packet
+    len	{ uint8
+matchKey	,
+    repeat body
+,
+    float32 int @lengthOf(T),} packet _x { @lengthOf(
+crc ) float64 msg_type
+// c
+// packet A { u8 x, }
+@lengthOf(rootA) `a\`// trailing space 
+,}	root packet
+    packetx// " ++ [128512]%N ++ runes_of_ascii " emoji
+{ A Header
+, repeat u8x {
+    char[// " ++ [27880; 37322]%N ++ runes_of_ascii "
+0
+]
+    leftPad @calculatedFrom( ""{,}""
+) ,
+    float32 calculatedFrom
+    `say ""hi""` ,
+    Logon string_ , } ,
+// 50% %s
+// @lengthOf(
+zchar[  65535 ]	pack ,
+    }")).
+Eval vm_compute in ("<<<M593>>>" ++ check (runes_of_ascii "  packet crc{ repeat  i32
+    metadata	,}root
+packet // @lengthOf(
+len { uint32 lengthOf `" ++ [28040; 24687; 31867; 22411]%N ++ runes_of_ascii "` // @lengthOf(
+,
+    // `tick` ""quote"" 'q'
+    Header  crc`u8 x,`	, @calculatedFrom( """ ++ [28040; 24687]%N ++ runes_of_ascii """ )
+// packet A { u8 x, }
+// @lengthOf(
+@calculatedFrom(""abc"" ) uint16
+body@calculatedFrom( """ ++ [128512]%N ++ runes_of_ascii """ ),repeat trueish `{ , }` // 50% %s
+,  @lengthOf( i64_  ) @calculatedFrom(
+// a // b
+// " ++ [27880; 37322]%N ++ runes_of_ascii "
+""{,}""
+// c
+// packet A { u8 x, }
+) // 50% %s
+char[
+42]u8x `say ""hi""` ,} packet As
+{ calculatedFrom crc//	t
+, } packet
+calculatedFrom{
+    @tag( 7
+) @calculatedFrom( ""CRC32"" )  @calculatedFrom(""" ++ [128512]%N ++ runes_of_ascii """) repeat asx u `u8 x,` ,
+//x
+// @lengthOf(
+int16 float
+`it's`, Packet {	repeat	uint8 MetaDataX , Z9_ // @lengthOf(
+`" ++ [233]%N ++ runes_of_ascii "` , }
+    ,
+@tag( 4294967296 ) repeat
+    metadata , match rootA
+    as Foo{ ""CRC32""	: crc	,
+}, @lengthOf(Logon //
+) float64 Pad // c
+@calculatedFrom( ""it's""
+)
+, tag
+, }
+")).
+Eval vm_compute in ("<<<M625>>>" ++ check (runes_of_ascii "packet
+_x  { char Packet ,
+// `tick` ""quote"" 'q'
+// a // b
+}
+MetaData string_
+{ char[] string_ , string T , char u
+, metadata stringy
+    , zchar[ 42 ]u8x
+    , } MetaData
+calculatedFrom {
+}
+MetaData pack { i16 u128 `{ , }`	, float64 metadata `a\`,
+}	options {
+    } 	 ")).
+Eval vm_compute in ("<<<M657>>>" ++ check (runes_of_ascii "options {  }")).
+Eval vm_compute in ("<<<T657>>>" ++ terms [mkTok 1 "options" 1 0 false; mkTok 2 "{" 1 8 false; mkTok 3 "}" 1 11 false; mkTok 0 "<EOF>" 1 12 false] (mkPacket (mkPtok 1 "options" 1 0 0) (Some (mkPtok 3 "}" 1 11 2)) [(DOption (mkOptionDef (mkSpan (mkPtok 1 "options" 1 0 0) (mkPtok 3 "}" 1 11 2)) (mkPtok 1 "options" 1 0 0) (mkPtok 2 "{" 1 8 1) [] (mkPtok 3 "}" 1 11 2)))])).
+Eval vm_compute in ("<<<M689>>>" ++ check (runes_of_ascii "/// triple
+root packet leftPad //
+{
+    repeat metadata Logon ,
+    i32 crc
+@lengthOf( f32a
+),@lengthOf( packetx ) @rightPad	(' ' )
+//
+// @lengthOf(
+@tag( 3
+)
+match falsey as leftPad {
+    [ """ ++ [233]%N ++ runes_of_ascii "t" ++ [233]%N ++ runes_of_ascii """ ] :
+crc ,
+1
+    : Packet //
+,	[
+""CRC32"" ,
+    00 ,
+    7 ]: A
+, ""x y"" :
+falsey ,[  007, ""x y"" ]: Logon
+0123456789  :leftPad }
+,repeat leftPad ,
+@lengthOf(
+int )	i8 o @lengthOf(
+    i64_ )`two words`
+, u128 {
+tag{
+repeat lengthOf zchar `{ , }` , } , } ,
+    }")).
+Eval vm_compute in ("<<<M721>>>" ++ check (runes_of_ascii "
+packet
+body {
+@calculatedFrom( ""x y"" ) charz `100% of %d`
+, @tag( 007 // " ++ [128512]%N ++ runes_of_ascii " emoji
+)
+repeat packetx
+//x
+// " ++ [128512]%N ++ runes_of_ascii " emoji
+,
+@calculatedFrom( ""\" ++ [233]%N ++ runes_of_ascii """) int8 charz@calculatedFrom( ""`tick`"" ),
+@lengthOf( trueish ) @rightPad
+( ' '
+    )	repeat u lengthOf`// not a comment` // 50% %s
+, @rightPad
+    (
+    '0' )@rightPad( ' '	) @tag(  4294967296
+) x trueish
+, charz @lengthOf( _x )
+, @calculatedFrom(
+    // packet A { u8 x, }
+    ""// no comment"") @rightPad
+() @calculatedFrom(""\" ++ [233]%N ++ runes_of_ascii """ //	t
+) match x as chars {	10
+    :
+    // `tick` ""quote"" 'q'
+    u128
+    ,
+007
+//x
+// `tick` ""quote"" 'q'
+: chars
+, ""it's"": u128 , 255
+: trueish
+,
+} ,
+    match falsey
+// @lengthOf(
+// packet A { u8 x, }
+as roots { ""// no comment""	: lengthOf ,
+""" ++ [233]%N ++ runes_of_ascii "t" ++ [233]%N ++ runes_of_ascii """
+    : len , ""1""
+    // 50% %s
+    : i8i8,
+    [
+0
+, """ ++ [28040; 24687]%N ++ runes_of_ascii """,  255 ] :
+// @lengthOf(
+// packet A { u8 x, }
+uint8x
+// a // b
+// packet A { u8 x, }
+, 10 :
+T
+    ""x y""
+:
+    u128, } ,  }")).
+Eval vm_compute in ("<<<M753>>>" ++ check (runes_of_ascii "root	packet
+stringy// c
+{} MetaData msg_type
+{ } // c")).
+Eval vm_compute in ("<<<M785>>>" ++ check (runes_of_ascii "//x
+MetaData // `tick` ""quote"" 'q'
+Pad  {string_ x,
+} packet x_y_z
+{ repeat rootA zchar  `crlf
+line` , @tag(
+7
+) tag tag,}")).
+Eval vm_compute in ("<<<M817>>>" ++ check (runes_of_ascii "  root//x
+packet
+Packet {match x_y_z as
+    Header {[""abc"" ,
+    65535, 3] :tag , 10
+:
+    msg_type
+    ""`tick`""
+: stringy 4294967296 : Pad , } ,@calculatedFrom(
+""x y""
+    )
+    @tag(
+255 ) @lengthOf(body	) zchar[ 65535 ] Pad `say ""hi""` ,@calculatedFrom(""abc"" ) char[]leftPad @calculatedFrom(""`tick`"" // `tick` ""quote"" 'q'
+)`" ++ [233]%N ++ runes_of_ascii "` , }// trailing space 
+packet  x_y_z { i64_ , u32 As
+    @lengthOf( string_ // " ++ [128512]%N ++ runes_of_ascii " emoji
+) ,@tag( 0) x_y_z
+As
+, @lengthOf( falsey )@calculatedFrom( ""\" ++ [233]%N ++ runes_of_ascii """)u8
+    string_ , char[
+    7]_x `crlf
+line` ,i8 trueish
+@lengthOf( x)
+,
+// packet A { u8 x, }
+// packet A { u8 x, }
+} MetaData
+int { } packet As
+{ @leftPad ('\x00'
+)f64
+trueish
+    // `tick` ""quote"" 'q'
+    @calculatedFrom( """ ++ [28040; 24687]%N ++ runes_of_ascii """ ) , repeat string roots /// triple
+,repeat leftPad
+    // @lengthOf(
+    As
+`" ++ [28040; 24687; 31867; 22411]%N ++ runes_of_ascii "` ,
+repeat int32 As
+    `// not a comment`
+    ,
+    @rightPad (
+' ' ) @rightPad //
+( ' ' )
+/// triple
+// @lengthOf(
+char[	10] Z9_ ,}
+")).
+Eval vm_compute in ("<<<M849>>>" ++ check (runes_of_ascii "packet As{ } options { T =true;crc = f64
+//
+//	t
+x =
+    """"	;
+    }options { //	t
+repeatCount// packet A { u8 x, }
+= // @lengthOf(
+char ;
+leftPad=
+// a // b
+/// triple
+""`tick`"" ; }
+")).
+Eval vm_compute in ("<<<M881>>>" ++ check (runes_of_ascii "root
+packet MetaDataX {
+    @lengthOf(
+    u128 )@rightPad
+(' ') @calculatedFrom(""" ++ [233]%N ++ runes_of_ascii "t" ++ [233]%N ++ runes_of_ascii """ ) T @lengthOf(
+Foo
+) ,
+calculatedFrom pack,
+@tag( 65535
+// `tick` ""quote"" 'q'
+//	t
+)Header`100% of %d` , @rightPad ( ' '
+    )
+    tag
+T`tab	here`  ,
+    @tag( 65535) crc	@lengthOf(BodyLength)  `// not a comment`, @calculatedFrom( ""CRC32""
+    // packet A { u8 x, }
+    ) repeat i16	i64_
+,
+@calculatedFrom( ""// no comment"" // " ++ [27880; 37322]%N ++ runes_of_ascii "
+)@calculatedFrom(
+    // trailing space 
+    ""CRC32"" ) zchar[007
+] u
+    `say ""hi""`
+    ,
+@tag(3
+) // a // b
+i8 pack @calculatedFrom(""\n""
+    //x
+    )// `tick` ""quote"" 'q'
+`doc` // @lengthOf(
+,
+    } root packet
+    Logon { @lengthOf(	len
+)  x_y_z @lengthOf( MetaDataX
+),
+    // 50% %s
+    }
+// @lengthOf(
+// " ++ [27880; 37322]%N ++ runes_of_ascii "
+packet
+u128 { /// triple
+@tag( 0
+    ) A
+rootA `" ++ [28040; 24687; 31867; 22411]%N ++ runes_of_ascii "`
+, @calculatedFrom( ""it's"" // " ++ [128512]%N ++ runes_of_ascii " emoji
+)  match
+calculatedFrom as crc
+    { 4294967296: charz [ // trailing space 
+4294967296
+// c
+/// triple
+]	:As
+    ,
+4294967296:metadata // " ++ [128512]%N ++ runes_of_ascii " emoji
+[ ""{,}"" , 255 , 65535 ,""x y"" ,  """ ++ [28040; 24687]%N ++ runes_of_ascii """ ] :_x
+, ""1""  : i8i8 //
+,007 // " ++ [128512]%N ++ runes_of_ascii " emoji
+: len , } , @lengthOf( lengthOf )
+match  chars
+// trailing space 
+// @lengthOf(
+as Pad	{
+10
+// c
+//	t
+: string_
+    007:
+chars
+}	, body { float64
+uint8x
+`crlf
+line` , i64
+    a1 `crlf
+line`
+    , // c
+}
+, @calculatedFrom(
+""a\\"" ) repeat // @lengthOf(
+char[ 1 ] len `doc`
+, repeat zchar[ 42
+    ] Foo `// not a comment` , } packet leftPad
+{
+    char[
+42  ] leftPad
+// packet A { u8 x, }
+//x
+@calculatedFrom("""")
+`{ , }`
+, falsey
+    repeatCount,int8 float
+    // a // b
+    @lengthOf( matchKey ) `doc` ,@tag(
+10
+    )
+match
+roots as
+As{
+[
+00 , ""a\""b"", 7 ,
+""\n"", 255 , ""abc"" , """" ,
+    """ ++ [128512]%N ++ runes_of_ascii """ ] :
+body , 007 : Header
+[
+""" ++ [233]%N ++ runes_of_ascii "t" ++ [233]%N ++ runes_of_ascii """
+,42 // " ++ [27880; 37322]%N ++ runes_of_ascii "
+, 255]:	Pad,[ 65535 ,
+    ""{,}"" , 1 ]
+// a // b
+// a // b
+:falsey ,7
+: u8x
+,
+} ,
+@calculatedFrom(
+""abc"" )
+@tag(00
+    ) char[ 7 ]len // " ++ [27880; 37322]%N ++ runes_of_ascii "
+,// trailing space 
 repeat
-    i8 uint8x`` , } packet pack
-    { @calculatedFrom( ""it's""
-) Foo
-    { char[]calculatedFrom ``
-, repeat char[ 3
-]Header,}  , @calculatedFrom( ""`tick`"" ) @calculatedFrom(
-    ""packet"" ) // a // b
+    u32 leftPad ,
+} 	 ")).
+Eval vm_compute in ("<<<T881>>>" ++ terms [mkTok 34 "root" 1 0 false; mkTok 35 "packet" 2 0 false; mkTok 42 "MetaDataX" 2 7 false; mkTok 2 "{" 2 17 false; mkTok 7 "@lengthOf(" 3 4 false; mkTok 42 "u128" 4 4 false; mkTok 6 ")" 4 9 false; mkTok 32 "@rightPad" 4 10 false; mkTok 8 "(" 5 0 false; mkTok 33 "' '" 5 1 false; mkTok 6 ")" 5 4 false; mkTok 5 "@calculatedFrom(" 5 6 false; mkTok 31 (string_of_bytes [34; 195; 169; 116; 195; 169; 34]%N) 5 22 false; mkTok 6 ")" 5 28 false; mkTok 42 "T" 5 30 false; mkTok 7 "@lengthOf(" 5 32 false; mkTok 42 "Foo" 6 0 false; mkTok 6 ")" 7 0 false; mkTok 40 "," 7 2 false; mkTok 42 "calculatedFrom" 8 0 false; mkTok 42 "pack" 8 15 false; mkTok 40 "," 8 19 false; mkTok 9 "@tag(" 9 0 false; mkTok 30 "65535" 9 6 false; mkTok 44 "// `tick` ""quote"" 'q'" 10 0 true; mkTok 44 (string_of_bytes [47; 47; 9; 116]%N) 11 0 true; mkTok 6 ")" 12 0 false; mkTok 42 "Header" 12 1 false; mkTok 43 "`100% of %d`" 12 7 false; mkTok 40 "," 12 20 false; mkTok 32 "@rightPad" 12 22 false; mkTok 8 "(" 12 32 false; mkTok 33 "' '" 12 34 false; mkTok 6 ")" 13 4 false; mkTok 42 "tag" 14 4 false; mkTok 42 "T" 15 0 false; mkTok 43 (string_of_bytes [96; 116; 97; 98; 9; 104; 101; 114; 101; 96]%N) 15 1 false; mkTok 40 "," 15 13 false; mkTok 9 "@tag(" 16 4 false; mkTok 30 "65535" 16 10 false; mkTok 6 ")" 16 15 false; mkTok 42 "crc" 16 17 false; mkTok 7 "@lengthOf(" 16 21 false; mkTok 42 "BodyLength" 16 31 false; mkTok 6 ")" 16 41 false; mkTok 43 "`// not a comment`" 16 44 false; mkTok 40 "," 16 62 false; mkTok 5 "@calculatedFrom(" 16 64 false; mkTok 31 """CRC32""" 16 81 false; mkTok 44 "// packet A { u8 x, }" 17 4 true; mkTok 6 ")" 18 4 false; mkTok 36 "repeat" 18 6 false; mkTok 25 "i16" 18 13 false; mkTok 42 "i64_" 18 17 false; mkTok 40 "," 19 0 false; mkTok 5 "@calculatedFrom(" 20 0 false; mkTok 31 """// no comment""" 20 17 false; mkTok 44 (string_of_bytes [47; 47; 32; 230; 179; 168; 233; 135; 138]%N) 20 33 true; mkTok 6 ")" 21 0 false; mkTok 5 "@calculatedFrom(" 21 1 false; mkTok 44 "// trailing space " 22 4 true; mkTok 31 """CRC32""" 23 4 false; mkTok 6 ")" 23 12 false; mkTok 14 "zchar[" 23 14 false; mkTok 30 "007" 23 20 false; mkTok 13 "]" 24 0 false; mkTok 42 "u" 24 2 false; mkTok 43 "`say ""hi""`" 25 4 false; mkTok 40 "," 26 4 false; mkTok 9 "@tag(" 27 0 false; mkTok 30 "3" 27 5 false; mkTok 6 ")" 28 0 false; mkTok 44 "// a // b" 28 2 true; mkTok 24 "i8" 29 0 false; mkTok 42 "pack" 29 3 false; mkTok 5 "@calculatedFrom(" 29 8 false; mkTok 31 """\n""" 29 24 false; mkTok 44 "//x" 30 4 true; mkTok 6 ")" 31 4 false; mkTok 44 "// `tick` ""quote"" 'q'" 31 5 true; mkTok 43 "`doc`" 32 0 false; mkTok 44 "// @lengthOf(" 32 6 true; mkTok 40 "," 33 0 false; mkTok 3 "}" 34 4 false; mkTok 34 "root" 34 6 false; mkTok 35 "packet" 34 11 false; mkTok 42 "Logon" 35 4 false; mkTok 2 "{" 35 10 false; mkTok 7 "@lengthOf(" 35 12 false; mkTok 42 "len" 35 23 false; mkTok 6 ")" 36 0 false; mkTok 42 "x_y_z" 36 3 false; mkTok 7 "@lengthOf(" 36 9 false; mkTok 42 "MetaDataX" 36 20 false; mkTok 6 ")" 37 0 false; mkTok 40 "," 37 1 false; mkTok 44 "// 50% %s" 38 4 true; mkTok 3 "}" 39 4 false; mkTok 44 "// @lengthOf(" 40 0 true; mkTok 44 (string_of_bytes [47; 47; 32; 230; 179; 168; 233; 135; 138]%N) 41 0 true; mkTok 35 "packet" 42 0 false; mkTok 42 "u128" 43 0 false; mkTok 2 "{" 43 5 false; mkTok 44 "/// triple" 43 7 true; mkTok 9 "@tag(" 44 0 false; mkTok 30 "0" 44 6 false; mkTok 6 ")" 45 4 false; mkTok 42 "A" 45 6 false; mkTok 42 "rootA" 46 0 false; mkTok 43 (string_of_bytes [96; 230; 182; 136; 230; 129; 175; 231; 177; 187; 229; 158; 139; 96]%N) 46 6 false; mkTok 40 "," 47 0 false; mkTok 5 "@calculatedFrom(" 47 2 false; mkTok 31 """it's""" 47 19 false; mkTok 44 (string_of_bytes [47; 47; 32; 240; 159; 152; 128; 32; 101; 109; 111; 106; 105]%N) 47 26 true; mkTok 6 ")" 48 0 false; mkTok 38 "match" 48 3 false; mkTok 42 "calculatedFrom" 49 0 false; mkTok 17 "as" 49 15 false; mkTok 42 "crc" 49 18 false; mkTok 2 "{" 50 4 false; mkTok 30 "4294967296" 50 6 false; mkTok 39 ":" 50 16 false; mkTok 42 "charz" 50 18 false; mkTok 18 "[" 50 24 false; mkTok 44 "// trailing space " 50 26 true; mkTok 30 "4294967296" 51 0 false; mkTok 44 "// c" 52 0 true; mkTok 44 "/// triple" 53 0 true; mkTok 13 "]" 54 0 false; mkTok 39 ":" 54 2 false; mkTok 42 "As" 54 3 false; mkTok 40 "," 55 4 false; mkTok 30 "4294967296" 56 0 false; mkTok 39 ":" 56 10 false; mkTok 42 "metadata" 56 11 false; mkTok 44 (string_of_bytes [47; 47; 32; 240; 159; 152; 128; 32; 101; 109; 111; 106; 105]%N) 56 20 true; mkTok 18 "[" 57 0 false; mkTok 31 """{,}""" 57 2 false; mkTok 40 "," 57 8 false; mkTok 30 "255" 57 10 false; mkTok 40 "," 57 14 false; mkTok 30 "65535" 57 16 false; mkTok 40 "," 57 22 false; mkTok 31 """x y""" 57 23 false; mkTok 40 "," 57 29 false; mkTok 31 (string_of_bytes [34; 230; 182; 136; 230; 129; 175; 34]%N) 57 32 false; mkTok 13 "]" 57 37 false; mkTok 39 ":" 57 39 false; mkTok 42 "_x" 57 40 false; mkTok 40 "," 58 0 false; mkTok 31 """1""" 58 2 false; mkTok 39 ":" 58 7 false; mkTok 42 "i8i8" 58 9 false; mkTok 44 "//" 58 14 true; mkTok 40 "," 59 0 false; mkTok 30 "007" 59 1 false; mkTok 44 (string_of_bytes [47; 47; 32; 240; 159; 152; 128; 32; 101; 109; 111; 106; 105]%N) 59 5 true; mkTok 39 ":" 60 0 false; mkTok 42 "len" 60 2 false; mkTok 40 "," 60 6 false; mkTok 3 "}" 60 8 false; mkTok 40 "," 60 10 false; mkTok 7 "@lengthOf(" 60 12 false; mkTok 42 "lengthOf" 60 23 false; mkTok 6 ")" 60 32 false; mkTok 38 "match" 61 0 false; mkTok 42 "chars" 61 7 false; mkTok 44 "// trailing space " 62 0 true; mkTok 44 "// @lengthOf(" 63 0 true; mkTok 17 "as" 64 0 false; mkTok 42 "Pad" 64 3 false; mkTok 2 "{" 64 7 false; mkTok 30 "10" 65 0 false; mkTok 44 "// c" 66 0 true; mkTok 44 (string_of_bytes [47; 47; 9; 116]%N) 67 0 true; mkTok 39 ":" 68 0 false; mkTok 42 "string_" 68 2 false; mkTok 30 "007" 69 4 false; mkTok 39 ":" 69 7 false; mkTok 42 "chars" 70 0 false; mkTok 3 "}" 71 0 false; mkTok 40 "," 71 2 false; mkTok 42 "body" 71 4 false; mkTok 2 "{" 71 9 false; mkTok 29 "float64" 71 11 false; mkTok 42 "uint8x" 72 0 false; mkTok 43 (string_of_bytes [96; 99; 114; 108; 102; 13; 10; 108; 105; 110; 101; 96]%N) 73 0 false; mkTok 40 "," 74 6 false; mkTok 27 "i64" 74 8 false; mkTok 42 "a1" 75 4 false; mkTok 43 (string_of_bytes [96; 99; 114; 108; 102; 13; 10; 108; 105; 110; 101; 96]%N) 75 7 false; mkTok 40 "," 77 4 false; mkTok 44 "// c" 77 6 true; mkTok 3 "}" 78 0 false; mkTok 40 "," 79 0 false; mkTok 5 "@calculatedFrom(" 79 2 false; mkTok 31 """a\\""" 80 0 false; mkTok 6 ")" 80 6 false; mkTok 36 "repeat" 80 8 false; mkTok 44 "// @lengthOf(" 80 15 true; mkTok 12 "char[" 81 0 false; mkTok 30 "1" 81 6 false; mkTok 13 "]" 81 8 false; mkTok 42 "len" 81 10 false; mkTok 43 "`doc`" 81 14 false; mkTok 40 "," 82 0 false; mkTok 36 "repeat" 82 2 false; mkTok 14 "zchar[" 82 9 false; mkTok 30 "42" 82 16 false; mkTok 13 "]" 83 4 false; mkTok 42 "Foo" 83 6 false; mkTok 43 "`// not a comment`" 83 10 false; mkTok 40 "," 83 29 false; mkTok 3 "}" 83 31 false; mkTok 35 "packet" 83 33 false; mkTok 42 "leftPad" 83 40 false; mkTok 2 "{" 84 0 false; mkTok 12 "char[" 85 4 false; mkTok 30 "42" 86 0 false; mkTok 13 "]" 86 4 false; mkTok 42 "leftPad" 86 6 false; mkTok 44 "// packet A { u8 x, }" 87 0 true; mkTok 44 "//x" 88 0 true; mkTok 5 "@calculatedFrom(" 89 0 false; mkTok 31 """""" 89 16 false; mkTok 6 ")" 89 18 false; mkTok 43 "`{ , }`" 90 0 false; mkTok 40 "," 91 0 false; mkTok 42 "falsey" 91 2 false; mkTok 42 "repeatCount" 92 4 false; mkTok 40 "," 92 15 false; mkTok 24 "int8" 92 16 false; mkTok 42 "float" 92 21 false; mkTok 44 "// a // b" 93 4 true; mkTok 7 "@lengthOf(" 94 4 false; mkTok 42 "matchKey" 94 15 false; mkTok 6 ")" 94 24 false; mkTok 43 "`doc`" 94 26 false; mkTok 40 "," 94 32 false; mkTok 9 "@tag(" 94 33 false; mkTok 30 "10" 95 0 false; mkTok 6 ")" 96 4 false; mkTok 38 "match" 97 0 false; mkTok 42 "roots" 98 0 false; mkTok 17 "as" 98 6 false; mkTok 42 "As" 99 0 false; mkTok 2 "{" 99 2 false; mkTok 18 "[" 100 0 false; mkTok 30 "00" 101 0 false; mkTok 40 "," 101 3 false; mkTok 31 """a\""b""" 101 5 false; mkTok 40 "," 101 11 false; mkTok 30 "7" 101 13 false; mkTok 40 "," 101 15 false; mkTok 31 """\n""" 102 0 false; mkTok 40 "," 102 4 false; mkTok 30 "255" 102 6 false; mkTok 40 "," 102 10 false; mkTok 31 """abc""" 102 12 false; mkTok 40 "," 102 18 false; mkTok 31 """""" 102 20 false; mkTok 40 "," 102 23 false; mkTok 31 (string_of_bytes [34; 240; 159; 152; 128; 34]%N) 103 4 false; mkTok 13 "]" 103 8 false; mkTok 39 ":" 103 10 false; mkTok 42 "body" 104 0 false; mkTok 40 "," 104 5 false; mkTok 30 "007" 104 7 false; mkTok 39 ":" 104 11 false; mkTok 42 "Header" 104 13 false; mkTok 18 "[" 105 0 false; mkTok 31 (string_of_bytes [34; 195; 169; 116; 195; 169; 34]%N) 106 0 false; mkTok 40 "," 107 0 false; mkTok 30 "42" 107 1 false; mkTok 44 (string_of_bytes [47; 47; 32; 230; 179; 168; 233; 135; 138]%N) 107 4 true; mkTok 40 "," 108 0 false; mkTok 30 "255" 108 2 false; mkTok 13 "]" 108 5 false; mkTok 39 ":" 108 6 false; mkTok 42 "Pad" 108 8 false; mkTok 40 "," 108 11 false; mkTok 18 "[" 108 12 false; mkTok 30 "65535" 108 14 false; mkTok 40 "," 108 20 false; mkTok 31 """{,}""" 109 4 false; mkTok 40 "," 109 10 false; mkTok 30 "1" 109 12 false; mkTok 13 "]" 109 14 false; mkTok 44 "// a // b" 110 0 true; mkTok 44 "// a // b" 111 0 true; mkTok 39 ":" 112 0 false; mkTok 42 "falsey" 112 1 false; mkTok 40 "," 112 8 false; mkTok 30 "7" 112 9 false; mkTok 39 ":" 113 0 false; mkTok 42 "u8x" 113 2 false; mkTok 40 "," 114 0 false; mkTok 3 "}" 115 0 false; mkTok 40 "," 115 2 false; mkTok 5 "@calculatedFrom(" 116 0 false; mkTok 31 """abc""" 117 0 false; mkTok 6 ")" 117 6 false; mkTok 9 "@tag(" 118 0 false; mkTok 30 "00" 118 5 false; mkTok 6 ")" 119 4 false; mkTok 12 "char[" 119 6 false; mkTok 30 "7" 119 12 false; mkTok 13 "]" 119 14 false; mkTok 42 "len" 119 15 false; mkTok 44 (string_of_bytes [47; 47; 32; 230; 179; 168; 233; 135; 138]%N) 119 19 true; mkTok 40 "," 120 0 false; mkTok 44 "// trailing space " 120 1 true; mkTok 36 "repeat" 121 0 false; mkTok 22 "u32" 122 4 false; mkTok 42 "leftPad" 122 8 false; mkTok 40 "," 122 16 false; mkTok 3 "}" 123 0 false; mkTok 0 "<EOF>" 123 4 false] (mkPacket (mkPtok 34 "root" 1 0 0) (Some (mkPtok 3 "}" 123 0 316)) [(DPacket (mkPacketDef (mkSpan (mkPtok 34 "root" 1 0 0) (mkPtok 3 "}" 34 4 83)) (Some (mkPtok 34 "root" 1 0 0)) (mkPtok 35 "packet" 2 0 1) (mkPtok 42 "MetaDataX" 2 7 2) (mkPtok 2 "{" 2 17 3) [(mkFieldWithAttr (mkSpan (mkPtok 7 "@lengthOf(" 3 4 4) (mkPtok 40 "," 7 2 18)) [(FALengthOf (mkSpan (mkPtok 7 "@lengthOf(" 3 4 4) (mkPtok 6 ")" 4 9 6)) (mkLengthOf (mkSpan (mkPtok 7 "@lengthOf(" 3 4 4) (mkPtok 6 ")" 4 9 6)) (mkPtok 7 "@lengthOf(" 3 4 4) (mkPtok 42 "u128" 4 4 5) (mkPtok 6 ")" 4 9 6))); (FAPadding (mkSpan (mkPtok 32 "@rightPad" 4 10 7) (mkPtok 6 ")" 5 4 10)) (mkPaddingAttr (mkSpan (mkPtok 32 "@rightPad" 4 10 7) (mkPtok 6 ")" 5 4 10)) (mkPtok 32 "@rightPad" 4 10 7) (mkPtok 8 "(" 5 0 8) (Some (mkPtok 33 "' '" 5 1 9)) (mkPtok 6 ")" 5 4 10))); (FACalculatedFrom (mkSpan (mkPtok 5 "@calculatedFrom(" 5 6 11) (mkPtok 6 ")" 5 28 13)) (mkCalculatedFrom (mkSpan (mkPtok 5 "@calculatedFrom(" 5 6 11) (mkPtok 6 ")" 5 28 13)) (mkPtok 5 "@calculatedFrom(" 5 6 11) (mkPtok 31 (string_of_bytes [34; 195; 169; 116; 195; 169; 34]%N) 5 22 12) (mkPtok 6 ")" 5 28 13)))] (LengthField (mkSpan (mkPtok 42 "T" 5 30 14) (mkPtok 40 "," 7 2 18)) (mkLengthFieldDecl (mkSpan (mkPtok 42 "T" 5 30 14) (mkPtok 40 "," 7 2 18)) None (mkPtok 42 "T" 5 30 14) (mkLengthOf (mkSpan (mkPtok 7 "@lengthOf(" 5 32 15) (mkPtok 6 ")" 7 0 17)) (mkPtok 7 "@lengthOf(" 5 32 15) (mkPtok 42 "Foo" 6 0 16) (mkPtok 6 ")" 7 0 17)) None (mkPtok 40 "," 7 2 18)))); (mkFieldWithAttr (mkSpan (mkPtok 42 "calculatedFrom" 8 0 19) (mkPtok 40 "," 8 19 21)) [] (ObjectField (mkSpan (mkPtok 42 "calculatedFrom" 8 0 19) (mkPtok 40 "," 8 19 21)) None (mkPtok 42 "calculatedFrom" 8 0 19) (Some (mkPtok 42 "pack" 8 15 20)) None (mkPtok 40 "," 8 19 21))); (mkFieldWithAttr (mkSpan (mkPtok 9 "@tag(" 9 0 22) (mkPtok 40 "," 12 20 29)) [(FATag (mkSpan (mkPtok 9 "@tag(" 9 0 22) (mkPtok 6 ")" 12 0 26)) (mkTagAttr (mkSpan (mkPtok 9 "@tag(" 9 0 22) (mkPtok 6 ")" 12 0 26)) (mkPtok 9 "@tag(" 9 0 22) (mkPtok 30 "65535" 9 6 23) (mkPtok 6 ")" 12 0 26)))] (ObjectField (mkSpan (mkPtok 42 "Header" 12 1 27) (mkPtok 40 "," 12 20 29)) None (mkPtok 42 "Header" 12 1 27) None (Some (mkPtok 43 "`100% of %d`" 12 7 28)) (mkPtok 40 "," 12 20 29))); (mkFieldWithAttr (mkSpan (mkPtok 32 "@rightPad" 12 22 30) (mkPtok 40 "," 15 13 37)) [(FAPadding (mkSpan (mkPtok 32 "@rightPad" 12 22 30) (mkPtok 6 ")" 13 4 33)) (mkPaddingAttr (mkSpan (mkPtok 32 "@rightPad" 12 22 30) (mkPtok 6 ")" 13 4 33)) (mkPtok 32 "@rightPad" 12 22 30) (mkPtok 8 "(" 12 32 31) (Some (mkPtok 33 "' '" 12 34 32)) (mkPtok 6 ")" 13 4 33)))] (ObjectField (mkSpan (mkPtok 42 "tag" 14 4 34) (mkPtok 40 "," 15 13 37)) None (mkPtok 42 "tag" 14 4 34) (Some (mkPtok 42 "T" 15 0 35)) (Some (mkPtok 43 (string_of_bytes [96; 116; 97; 98; 9; 104; 101; 114; 101; 96]%N) 15 1 36)) (mkPtok 40 "," 15 13 37))); (mkFieldWithAttr (mkSpan (mkPtok 9 "@tag(" 16 4 38) (mkPtok 40 "," 16 62 46)) [(FATag (mkSpan (mkPtok 9 "@tag(" 16 4 38) (mkPtok 6 ")" 16 15 40)) (mkTagAttr (mkSpan (mkPtok 9 "@tag(" 16 4 38) (mkPtok 6 ")" 16 15 40)) (mkPtok 9 "@tag(" 16 4 38) (mkPtok 30 "65535" 16 10 39) (mkPtok 6 ")" 16 15 40)))] (LengthField (mkSpan (mkPtok 42 "crc" 16 17 41) (mkPtok 40 "," 16 62 46)) (mkLengthFieldDecl (mkSpan (mkPtok 42 "crc" 16 17 41) (mkPtok 40 "," 16 62 46)) None (mkPtok 42 "crc" 16 17 41) (mkLengthOf (mkSpan (mkPtok 7 "@lengthOf(" 16 21 42) (mkPtok 6 ")" 16 41 44)) (mkPtok 7 "@lengthOf(" 16 21 42) (mkPtok 42 "BodyLength" 16 31 43) (mkPtok 6 ")" 16 41 44)) (Some (mkPtok 43 "`// not a comment`" 16 44 45)) (mkPtok 40 "," 16 62 46)))); (mkFieldWithAttr (mkSpan (mkPtok 5 "@calculatedFrom(" 16 64 47) (mkPtok 40 "," 19 0 54)) [(FACalculatedFrom (mkSpan (mkPtok 5 "@calculatedFrom(" 16 64 47) (mkPtok 6 ")" 18 4 50)) (mkCalculatedFrom (mkSpan (mkPtok 5 "@calculatedFrom(" 16 64 47) (mkPtok 6 ")" 18 4 50)) (mkPtok 5 "@calculatedFrom(" 16 64 47) (mkPtok 31 """CRC32""" 16 81 48) (mkPtok 6 ")" 18 4 50)))] (MetaField (mkSpan (mkPtok 36 "repeat" 18 6 51) (mkPtok 40 "," 19 0 54)) (Some (mkPtok 36 "repeat" 18 6 51)) (mkMetaDecl (mkSpan (mkPtok 25 "i16" 18 13 52) (mkPtok 40 "," 19 0 54)) (TyBasic (mkSpan (mkPtok 25 "i16" 18 13 52) (mkPtok 25 "i16" 18 13 52)) (mkBasicType (mkSpan (mkPtok 25 "i16" 18 13 52) (mkPtok 25 "i16" 18 13 52)) (mkPtok 25 "i16" 18 13 52))) (mkPtok 42 "i64_" 18 17 53) None (mkPtok 40 "," 19 0 54)))); (mkFieldWithAttr (mkSpan (mkPtok 5 "@calculatedFrom(" 20 0 55) (mkPtok 40 "," 26 4 68)) [(FACalculatedFrom (mkSpan (mkPtok 5 "@calculatedFrom(" 20 0 55) (mkPtok 6 ")" 21 0 58)) (mkCalculatedFrom (mkSpan (mkPtok 5 "@calculatedFrom(" 20 0 55) (mkPtok 6 ")" 21 0 58)) (mkPtok 5 "@calculatedFrom(" 20 0 55) (mkPtok 31 """// no comment""" 20 17 56) (mkPtok 6 ")" 21 0 58))); (FACalculatedFrom (mkSpan (mkPtok 5 "@calculatedFrom(" 21 1 59) (mkPtok 6 ")" 23 12 62)) (mkCalculatedFrom (mkSpan (mkPtok 5 "@calculatedFrom(" 21 1 59) (mkPtok 6 ")" 23 12 62)) (mkPtok 5 "@calculatedFrom(" 21 1 59) (mkPtok 31 """CRC32""" 23 4 61) (mkPtok 6 ")" 23 12 62)))] (MetaField (mkSpan (mkPtok 14 "zchar[" 23 14 63) (mkPtok 40 "," 26 4 68)) None (mkMetaDecl (mkSpan (mkPtok 14 "zchar[" 23 14 63) (mkPtok 40 "," 26 4 68)) (TyFixed (mkSpan (mkPtok 14 "zchar[" 23 14 63) (mkPtok 13 "]" 24 0 65)) (mkFixedString (mkSpan (mkPtok 14 "zchar[" 23 14 63) (mkPtok 13 "]" 24 0 65)) (mkPtok 14 "zchar[" 23 14 63) (mkPtok 30 "007" 23 20 64) (mkPtok 13 "]" 24 0 65))) (mkPtok 42 "u" 24 2 66) (Some (mkPtok 43 "`say ""hi""`" 25 4 67)) (mkPtok 40 "," 26 4 68)))); (mkFieldWithAttr (mkSpan (mkPtok 9 "@tag(" 27 0 69) (mkPtok 40 "," 33 0 82)) [(FATag (mkSpan (mkPtok 9 "@tag(" 27 0 69) (mkPtok 6 ")" 28 0 71)) (mkTagAttr (mkSpan (mkPtok 9 "@tag(" 27 0 69) (mkPtok 6 ")" 28 0 71)) (mkPtok 9 "@tag(" 27 0 69) (mkPtok 30 "3" 27 5 70) (mkPtok 6 ")" 28 0 71)))] (CheckSumField (mkSpan (mkPtok 24 "i8" 29 0 73) (mkPtok 40 "," 33 0 82)) (mkChecksumFieldDecl (mkSpan (mkPtok 24 "i8" 29 0 73) (mkPtok 40 "," 33 0 82)) (Some (TyBasic (mkSpan (mkPtok 24 "i8" 29 0 73) (mkPtok 24 "i8" 29 0 73)) (mkBasicType (mkSpan (mkPtok 24 "i8" 29 0 73) (mkPtok 24 "i8" 29 0 73)) (mkPtok 24 "i8" 29 0 73)))) (mkPtok 42 "pack" 29 3 74) (mkCalculatedFrom (mkSpan (mkPtok 5 "@calculatedFrom(" 29 8 75) (mkPtok 6 ")" 31 4 78)) (mkPtok 5 "@calculatedFrom(" 29 8 75) (mkPtok 31 """\n""" 29 24 76) (mkPtok 6 ")" 31 4 78)) (Some (mkPtok 43 "`doc`" 32 0 80)) (mkPtok 40 "," 33 0 82))))] (mkPtok 3 "}" 34 4 83))); (DPacket (mkPacketDef (mkSpan (mkPtok 34 "root" 34 6 84) (mkPtok 3 "}" 39 4 97)) (Some (mkPtok 34 "root" 34 6 84)) (mkPtok 35 "packet" 34 11 85) (mkPtok 42 "Logon" 35 4 86) (mkPtok 2 "{" 35 10 87) [(mkFieldWithAttr (mkSpan (mkPtok 7 "@lengthOf(" 35 12 88) (mkPtok 40 "," 37 1 95)) [(FALengthOf (mkSpan (mkPtok 7 "@lengthOf(" 35 12 88) (mkPtok 6 ")" 36 0 90)) (mkLengthOf (mkSpan (mkPtok 7 "@lengthOf(" 35 12 88) (mkPtok 6 ")" 36 0 90)) (mkPtok 7 "@lengthOf(" 35 12 88) (mkPtok 42 "len" 35 23 89) (mkPtok 6 ")" 36 0 90)))] (LengthField (mkSpan (mkPtok 42 "x_y_z" 36 3 91) (mkPtok 40 "," 37 1 95)) (mkLengthFieldDecl (mkSpan (mkPtok 42 "x_y_z" 36 3 91) (mkPtok 40 "," 37 1 95)) None (mkPtok 42 "x_y_z" 36 3 91) (mkLengthOf (mkSpan (mkPtok 7 "@lengthOf(" 36 9 92) (mkPtok 6 ")" 37 0 94)) (mkPtok 7 "@lengthOf(" 36 9 92) (mkPtok 42 "MetaDataX" 36 20 93) (mkPtok 6 ")" 37 0 94)) None (mkPtok 40 "," 37 1 95))))] (mkPtok 3 "}" 39 4 97))); (DPacket (mkPacketDef (mkSpan (mkPtok 35 "packet" 42 0 100) (mkPtok 3 "}" 83 31 213)) None (mkPtok 35 "packet" 42 0 100) (mkPtok 42 "u128" 43 0 101) (mkPtok 2 "{" 43 5 102) [(mkFieldWithAttr (mkSpan (mkPtok 9 "@tag(" 44 0 104) (mkPtok 40 "," 47 0 110)) [(FATag (mkSpan (mkPtok 9 "@tag(" 44 0 104) (mkPtok 6 ")" 45 4 106)) (mkTagAttr (mkSpan (mkPtok 9 "@tag(" 44 0 104) (mkPtok 6 ")" 45 4 106)) (mkPtok 9 "@tag(" 44 0 104) (mkPtok 30 "0" 44 6 105) (mkPtok 6 ")" 45 4 106)))] (ObjectField (mkSpan (mkPtok 42 "A" 45 6 107) (mkPtok 40 "," 47 0 110)) None (mkPtok 42 "A" 45 6 107) (Some (mkPtok 42 "rootA" 46 0 108)) (Some (mkPtok 43 (string_of_bytes [96; 230; 182; 136; 230; 129; 175; 231; 177; 187; 229; 158; 139; 96]%N) 46 6 109)) (mkPtok 40 "," 47 0 110))); (mkFieldWithAttr (mkSpan (mkPtok 5 "@calculatedFrom(" 47 2 111) (mkPtok 40 "," 60 10 161)) [(FACalculatedFrom (mkSpan (mkPtok 5 "@calculatedFrom(" 47 2 111) (mkPtok 6 ")" 48 0 114)) (mkCalculatedFrom (mkSpan (mkPtok 5 "@calculatedFrom(" 47 2 111) (mkPtok 6 ")" 48 0 114)) (mkPtok 5 "@calculatedFrom(" 47 2 111) (mkPtok 31 """it's""" 47 19 112) (mkPtok 6 ")" 48 0 114)))] (MatchField (mkSpan (mkPtok 38 "match" 48 3 115) (mkPtok 40 "," 60 10 161)) (mkMatchFieldDecl (mkSpan (mkPtok 38 "match" 48 3 115) (mkPtok 3 "}" 60 8 160)) (mkPtok 38 "match" 48 3 115) (mkPtok 42 "calculatedFrom" 49 0 116) (mkPtok 17 "as" 49 15 117) (mkPtok 42 "crc" 49 18 118) (mkPtok 2 "{" 50 4 119) [(mkMatchPair (mkSpan (mkPtok 30 "4294967296" 50 6 120) (mkPtok 42 "charz" 50 18 122)) (MKDigits (mkPtok 30 "4294967296" 50 6 120)) (mkPtok 39 ":" 50 16 121) (mkPtok 42 "charz" 50 18 122) None); (mkMatchPair (mkSpan (mkPtok 18 "[" 50 24 123) (mkPtok 40 "," 55 4 131)) (MKList (mkKeyList (mkSpan (mkPtok 18 "[" 50 24 123) (mkPtok 13 "]" 54 0 128)) (mkPtok 18 "[" 50 24 123) (mkPtok 30 "4294967296" 51 0 125) [] (mkPtok 13 "]" 54 0 128))) (mkPtok 39 ":" 54 2 129) (mkPtok 42 "As" 54 3 130) (Some (mkPtok 40 "," 55 4 131))); (mkMatchPair (mkSpan (mkPtok 30 "4294967296" 56 0 132) (mkPtok 42 "metadata" 56 11 134)) (MKDigits (mkPtok 30 "4294967296" 56 0 132)) (mkPtok 39 ":" 56 10 133) (mkPtok 42 "metadata" 56 11 134) None); (mkMatchPair (mkSpan (mkPtok 18 "[" 57 0 136) (mkPtok 40 "," 58 0 149)) (MKList (mkKeyList (mkSpan (mkPtok 18 "[" 57 0 136) (mkPtok 13 "]" 57 37 146)) (mkPtok 18 "[" 57 0 136) (mkPtok 31 """{,}""" 57 2 137) [((mkPtok 40 "," 57 8 138), (mkPtok 30 "255" 57 10 139)); ((mkPtok 40 "," 57 14 140), (mkPtok 30 "65535" 57 16 141)); ((mkPtok 40 "," 57 22 142), (mkPtok 31 """x y""" 57 23 143)); ((mkPtok 40 "," 57 29 144), (mkPtok 31 (string_of_bytes [34; 230; 182; 136; 230; 129; 175; 34]%N) 57 32 145))] (mkPtok 13 "]" 57 37 146))) (mkPtok 39 ":" 57 39 147) (mkPtok 42 "_x" 57 40 148) (Some (mkPtok 40 "," 58 0 149))); (mkMatchPair (mkSpan (mkPtok 31 """1""" 58 2 150) (mkPtok 40 "," 59 0 154)) (MKString (mkPtok 31 """1""" 58 2 150)) (mkPtok 39 ":" 58 7 151) (mkPtok 42 "i8i8" 58 9 152) (Some (mkPtok 40 "," 59 0 154))); (mkMatchPair (mkSpan (mkPtok 30 "007" 59 1 155) (mkPtok 40 "," 60 6 159)) (MKDigits (mkPtok 30 "007" 59 1 155)) (mkPtok 39 ":" 60 0 157) (mkPtok 42 "len" 60 2 158) (Some (mkPtok 40 "," 60 6 159)))] (mkPtok 3 "}" 60 8 160)) (mkPtok 40 "," 60 10 161))); (mkFieldWithAttr (mkSpan (mkPtok 7 "@lengthOf(" 60 12 162) (mkPtok 40 "," 71 2 181)) [(FALengthOf (mkSpan (mkPtok 7 "@lengthOf(" 60 12 162) (mkPtok 6 ")" 60 32 164)) (mkLengthOf (mkSpan (mkPtok 7 "@lengthOf(" 60 12 162) (mkPtok 6 ")" 60 32 164)) (mkPtok 7 "@lengthOf(" 60 12 162) (mkPtok 42 "lengthOf" 60 23 163) (mkPtok 6 ")" 60 32 164)))] (MatchField (mkSpan (mkPtok 38 "match" 61 0 165) (mkPtok 40 "," 71 2 181)) (mkMatchFieldDecl (mkSpan (mkPtok 38 "match" 61 0 165) (mkPtok 3 "}" 71 0 180)) (mkPtok 38 "match" 61 0 165) (mkPtok 42 "chars" 61 7 166) (mkPtok 17 "as" 64 0 169) (mkPtok 42 "Pad" 64 3 170) (mkPtok 2 "{" 64 7 171) [(mkMatchPair (mkSpan (mkPtok 30 "10" 65 0 172) (mkPtok 42 "string_" 68 2 176)) (MKDigits (mkPtok 30 "10" 65 0 172)) (mkPtok 39 ":" 68 0 175) (mkPtok 42 "string_" 68 2 176) None); (mkMatchPair (mkSpan (mkPtok 30 "007" 69 4 177) (mkPtok 42 "chars" 70 0 179)) (MKDigits (mkPtok 30 "007" 69 4 177)) (mkPtok 39 ":" 69 7 178) (mkPtok 42 "chars" 70 0 179) None)] (mkPtok 3 "}" 71 0 180)) (mkPtok 40 "," 71 2 181))); (mkFieldWithAttr (mkSpan (mkPtok 42 "body" 71 4 182) (mkPtok 40 "," 79 0 194)) [] (InerObjectField (mkSpan (mkPtok 42 "body" 71 4 182) (mkPtok 40 "," 79 0 194)) None (InerObjectDecl (mkSpan (mkPtok 42 "body" 71 4 182) (mkPtok 3 "}" 78 0 193)) (mkPtok 42 "body" 71 4 182) (mkPtok 2 "{" 71 9 183) [(MetaField (mkSpan (mkPtok 29 "float64" 71 11 184) (mkPtok 40 "," 74 6 187)) None (mkMetaDecl (mkSpan (mkPtok 29 "float64" 71 11 184) (mkPtok 40 "," 74 6 187)) (TyBasic (mkSpan (mkPtok 29 "float64" 71 11 184) (mkPtok 29 "float64" 71 11 184)) (mkBasicType (mkSpan (mkPtok 29 "float64" 71 11 184) (mkPtok 29 "float64" 71 11 184)) (mkPtok 29 "float64" 71 11 184))) (mkPtok 42 "uint8x" 72 0 185) (Some (mkPtok 43 (string_of_bytes [96; 99; 114; 108; 102; 13; 10; 108; 105; 110; 101; 96]%N) 73 0 186)) (mkPtok 40 "," 74 6 187))); (MetaField (mkSpan (mkPtok 27 "i64" 74 8 188) (mkPtok 40 "," 77 4 191)) None (mkMetaDecl (mkSpan (mkPtok 27 "i64" 74 8 188) (mkPtok 40 "," 77 4 191)) (TyBasic (mkSpan (mkPtok 27 "i64" 74 8 188) (mkPtok 27 "i64" 74 8 188)) (mkBasicType (mkSpan (mkPtok 27 "i64" 74 8 188) (mkPtok 27 "i64" 74 8 188)) (mkPtok 27 "i64" 74 8 188))) (mkPtok 42 "a1" 75 4 189) (Some (mkPtok 43 (string_of_bytes [96; 99; 114; 108; 102; 13; 10; 108; 105; 110; 101; 96]%N) 75 7 190)) (mkPtok 40 "," 77 4 191)))] (mkPtok 3 "}" 78 0 193)) (mkPtok 40 "," 79 0 194))); (mkFieldWithAttr (mkSpan (mkPtok 5 "@calculatedFrom(" 79 2 195) (mkPtok 40 "," 82 0 205)) [(FACalculatedFrom (mkSpan (mkPtok 5 "@calculatedFrom(" 79 2 195) (mkPtok 6 ")" 80 6 197)) (mkCalculatedFrom (mkSpan (mkPtok 5 "@calculatedFrom(" 79 2 195) (mkPtok 6 ")" 80 6 197)) (mkPtok 5 "@calculatedFrom(" 79 2 195) (mkPtok 31 """a\\""" 80 0 196) (mkPtok 6 ")" 80 6 197)))] (MetaField (mkSpan (mkPtok 36 "repeat" 80 8 198) (mkPtok 40 "," 82 0 205)) (Some (mkPtok 36 "repeat" 80 8 198)) (mkMetaDecl (mkSpan (mkPtok 12 "char[" 81 0 200) (mkPtok 40 "," 82 0 205)) (TyFixed (mkSpan (mkPtok 12 "char[" 81 0 200) (mkPtok 13 "]" 81 8 202)) (mkFixedString (mkSpan (mkPtok 12 "char[" 81 0 200) (mkPtok 13 "]" 81 8 202)) (mkPtok 12 "char[" 81 0 200) (mkPtok 30 "1" 81 6 201) (mkPtok 13 "]" 81 8 202))) (mkPtok 42 "len" 81 10 203) (Some (mkPtok 43 "`doc`" 81 14 204)) (mkPtok 40 "," 82 0 205)))); (mkFieldWithAttr (mkSpan (mkPtok 36 "repeat" 82 2 206) (mkPtok 40 "," 83 29 212)) [] (MetaField (mkSpan (mkPtok 36 "repeat" 82 2 206) (mkPtok 40 "," 83 29 212)) (Some (mkPtok 36 "repeat" 82 2 206)) (mkMetaDecl (mkSpan (mkPtok 14 "zchar[" 82 9 207) (mkPtok 40 "," 83 29 212)) (TyFixed (mkSpan (mkPtok 14 "zchar[" 82 9 207) (mkPtok 13 "]" 83 4 209)) (mkFixedString (mkSpan (mkPtok 14 "zchar[" 82 9 207) (mkPtok 13 "]" 83 4 209)) (mkPtok 14 "zchar[" 82 9 207) (mkPtok 30 "42" 82 16 208) (mkPtok 13 "]" 83 4 209))) (mkPtok 42 "Foo" 83 6 210) (Some (mkPtok 43 "`// not a comment`" 83 10 211)) (mkPtok 40 "," 83 29 212))))] (mkPtok 3 "}" 83 31 213))); (DPacket (mkPacketDef (mkSpan (mkPtok 35 "packet" 83 33 214) (mkPtok 3 "}" 123 0 316)) None (mkPtok 35 "packet" 83 33 214) (mkPtok 42 "leftPad" 83 40 215) (mkPtok 2 "{" 84 0 216) [(mkFieldWithAttr (mkSpan (mkPtok 12 "char[" 85 4 217) (mkPtok 40 "," 91 0 227)) [] (CheckSumField (mkSpan (mkPtok 12 "char[" 85 4 217) (mkPtok 40 "," 91 0 227)) (mkChecksumFieldDecl (mkSpan (mkPtok 12 "char[" 85 4 217) (mkPtok 40 "," 91 0 227)) (Some (TyFixed (mkSpan (mkPtok 12 "char[" 85 4 217) (mkPtok 13 "]" 86 4 219)) (mkFixedString (mkSpan (mkPtok 12 "char[" 85 4 217) (mkPtok 13 "]" 86 4 219)) (mkPtok 12 "char[" 85 4 217) (mkPtok 30 "42" 86 0 218) (mkPtok 13 "]" 86 4 219)))) (mkPtok 42 "leftPad" 86 6 220) (mkCalculatedFrom (mkSpan (mkPtok 5 "@calculatedFrom(" 89 0 223) (mkPtok 6 ")" 89 18 225)) (mkPtok 5 "@calculatedFrom(" 89 0 223) (mkPtok 31 """""" 89 16 224) (mkPtok 6 ")" 89 18 225)) (Some (mkPtok 43 "`{ , }`" 90 0 226)) (mkPtok 40 "," 91 0 227)))); (mkFieldWithAttr (mkSpan (mkPtok 42 "falsey" 91 2 228) (mkPtok 40 "," 92 15 230)) [] (ObjectField (mkSpan (mkPtok 42 "falsey" 91 2 228) (mkPtok 40 "," 92 15 230)) None (mkPtok 42 "falsey" 91 2 228) (Some (mkPtok 42 "repeatCount" 92 4 229)) None (mkPtok 40 "," 92 15 230))); (mkFieldWithAttr (mkSpan (mkPtok 24 "int8" 92 16 231) (mkPtok 40 "," 94 32 238)) [] (LengthField (mkSpan (mkPtok 24 "int8" 92 16 231) (mkPtok 40 "," 94 32 238)) (mkLengthFieldDecl (mkSpan (mkPtok 24 "int8" 92 16 231) (mkPtok 40 "," 94 32 238)) (Some (TyBasic (mkSpan (mkPtok 24 "int8" 92 16 231) (mkPtok 24 "int8" 92 16 231)) (mkBasicType (mkSpan (mkPtok 24 "int8" 92 16 231) (mkPtok 24 "int8" 92 16 231)) (mkPtok 24 "int8" 92 16 231)))) (mkPtok 42 "float" 92 21 232) (mkLengthOf (mkSpan (mkPtok 7 "@lengthOf(" 94 4 234) (mkPtok 6 ")" 94 24 236)) (mkPtok 7 "@lengthOf(" 94 4 234) (mkPtok 42 "matchKey" 94 15 235) (mkPtok 6 ")" 94 24 236)) (Some (mkPtok 43 "`doc`" 94 26 237)) (mkPtok 40 "," 94 32 238)))); (mkFieldWithAttr (mkSpan (mkPtok 9 "@tag(" 94 33 239) (mkPtok 40 "," 115 2 298)) [(FATag (mkSpan (mkPtok 9 "@tag(" 94 33 239) (mkPtok 6 ")" 96 4 241)) (mkTagAttr (mkSpan (mkPtok 9 "@tag(" 94 33 239) (mkPtok 6 ")" 96 4 241)) (mkPtok 9 "@tag(" 94 33 239) (mkPtok 30 "10" 95 0 240) (mkPtok 6 ")" 96 4 241)))] (MatchField (mkSpan (mkPtok 38 "match" 97 0 242) (mkPtok 40 "," 115 2 298)) (mkMatchFieldDecl (mkSpan (mkPtok 38 "match" 97 0 242) (mkPtok 3 "}" 115 0 297)) (mkPtok 38 "match" 97 0 242) (mkPtok 42 "roots" 98 0 243) (mkPtok 17 "as" 98 6 244) (mkPtok 42 "As" 99 0 245) (mkPtok 2 "{" 99 2 246) [(mkMatchPair (mkSpan (mkPtok 18 "[" 100 0 247) (mkPtok 40 "," 104 5 266)) (MKList (mkKeyList (mkSpan (mkPtok 18 "[" 100 0 247) (mkPtok 13 "]" 103 8 263)) (mkPtok 18 "[" 100 0 247) (mkPtok 30 "00" 101 0 248) [((mkPtok 40 "," 101 3 249), (mkPtok 31 """a\""b""" 101 5 250)); ((mkPtok 40 "," 101 11 251), (mkPtok 30 "7" 101 13 252)); ((mkPtok 40 "," 101 15 253), (mkPtok 31 """\n""" 102 0 254)); ((mkPtok 40 "," 102 4 255), (mkPtok 30 "255" 102 6 256)); ((mkPtok 40 "," 102 10 257), (mkPtok 31 """abc""" 102 12 258)); ((mkPtok 40 "," 102 18 259), (mkPtok 31 """""" 102 20 260)); ((mkPtok 40 "," 102 23 261), (mkPtok 31 (string_of_bytes [34; 240; 159; 152; 128; 34]%N) 103 4 262))] (mkPtok 13 "]" 103 8 263))) (mkPtok 39 ":" 103 10 264) (mkPtok 42 "body" 104 0 265) (Some (mkPtok 40 "," 104 5 266))); (mkMatchPair (mkSpan (mkPtok 30 "007" 104 7 267) (mkPtok 42 "Header" 104 13 269)) (MKDigits (mkPtok 30 "007" 104 7 267)) (mkPtok 39 ":" 104 11 268) (mkPtok 42 "Header" 104 13 269) None); (mkMatchPair (mkSpan (mkPtok 18 "[" 105 0 270) (mkPtok 40 "," 108 11 280)) (MKList (mkKeyList (mkSpan (mkPtok 18 "[" 105 0 270) (mkPtok 13 "]" 108 5 277)) (mkPtok 18 "[" 105 0 270) (mkPtok 31 (string_of_bytes [34; 195; 169; 116; 195; 169; 34]%N) 106 0 271) [((mkPtok 40 "," 107 0 272), (mkPtok 30 "42" 107 1 273)); ((mkPtok 40 "," 108 0 275), (mkPtok 30 "255" 108 2 276))] (mkPtok 13 "]" 108 5 277))) (mkPtok 39 ":" 108 6 278) (mkPtok 42 "Pad" 108 8 279) (Some (mkPtok 40 "," 108 11 280))); (mkMatchPair (mkSpan (mkPtok 18 "[" 108 12 281) (mkPtok 40 "," 112 8 292)) (MKList (mkKeyList (mkSpan (mkPtok 18 "[" 108 12 281) (mkPtok 13 "]" 109 14 287)) (mkPtok 18 "[" 108 12 281) (mkPtok 30 "65535" 108 14 282) [((mkPtok 40 "," 108 20 283), (mkPtok 31 """{,}""" 109 4 284)); ((mkPtok 40 "," 109 10 285), (mkPtok 30 "1" 109 12 286))] (mkPtok 13 "]" 109 14 287))) (mkPtok 39 ":" 112 0 290) (mkPtok 42 "falsey" 112 1 291) (Some (mkPtok 40 "," 112 8 292))); (mkMatchPair (mkSpan (mkPtok 30 "7" 112 9 293) (mkPtok 40 "," 114 0 296)) (MKDigits (mkPtok 30 "7" 112 9 293)) (mkPtok 39 ":" 113 0 294) (mkPtok 42 "u8x" 113 2 295) (Some (mkPtok 40 "," 114 0 296)))] (mkPtok 3 "}" 115 0 297)) (mkPtok 40 "," 115 2 298))); (mkFieldWithAttr (mkSpan (mkPtok 5 "@calculatedFrom(" 116 0 299) (mkPtok 40 "," 120 0 310)) [(FACalculatedFrom (mkSpan (mkPtok 5 "@calculatedFrom(" 116 0 299) (mkPtok 6 ")" 117 6 301)) (mkCalculatedFrom (mkSpan (mkPtok 5 "@calculatedFrom(" 116 0 299) (mkPtok 6 ")" 117 6 301)) (mkPtok 5 "@calculatedFrom(" 116 0 299) (mkPtok 31 """abc""" 117 0 300) (mkPtok 6 ")" 117 6 301))); (FATag (mkSpan (mkPtok 9 "@tag(" 118 0 302) (mkPtok 6 ")" 119 4 304)) (mkTagAttr (mkSpan (mkPtok 9 "@tag(" 118 0 302) (mkPtok 6 ")" 119 4 304)) (mkPtok 9 "@tag(" 118 0 302) (mkPtok 30 "00" 118 5 303) (mkPtok 6 ")" 119 4 304)))] (MetaField (mkSpan (mkPtok 12 "char[" 119 6 305) (mkPtok 40 "," 120 0 310)) None (mkMetaDecl (mkSpan (mkPtok 12 "char[" 119 6 305) (mkPtok 40 "," 120 0 310)) (TyFixed (mkSpan (mkPtok 12 "char[" 119 6 305) (mkPtok 13 "]" 119 14 307)) (mkFixedString (mkSpan (mkPtok 12 "char[" 119 6 305) (mkPtok 13 "]" 119 14 307)) (mkPtok 12 "char[" 119 6 305) (mkPtok 30 "7" 119 12 306) (mkPtok 13 "]" 119 14 307))) (mkPtok 42 "len" 119 15 308) None (mkPtok 40 "," 120 0 310)))); (mkFieldWithAttr (mkSpan (mkPtok 36 "repeat" 121 0 312) (mkPtok 40 "," 122 16 315)) [] (MetaField (mkSpan (mkPtok 36 "repeat" 121 0 312) (mkPtok 40 "," 122 16 315)) (Some (mkPtok 36 "repeat" 121 0 312)) (mkMetaDecl (mkSpan (mkPtok 22 "u32" 122 4 313) (mkPtok 40 "," 122 16 315)) (TyBasic (mkSpan (mkPtok 22 "u32" 122 4 313) (mkPtok 22 "u32" 122 4 313)) (mkBasicType (mkSpan (mkPtok 22 "u32" 122 4 313) (mkPtok 22 "u32" 122 4 313)) (mkPtok 22 "u32" 122 4 313))) (mkPtok 42 "leftPad" 122 8 314) None (mkPtok 40 "," 122 16 315))))] (mkPtok 3 "}" 123 0 316)))])).
+Eval vm_compute in ("<<<M913>>>" ++ check (runes_of_ascii "packet len
+    // @lengthOf(
+    { tag { match
+_x	as // packet A { u8 x, }
+len { 255 : zchar ,
+} , }  , @calculatedFrom(
+""// no comment"" ) T@lengthOf(Z9_) ,repeat a1 { repeat string
+    leftPad `" ++ [233]%N ++ runes_of_ascii "` ,
+//	t
+//x
+char[]
+matchKey @lengthOf(
+    x_y_z )	`line1
+line2` , // " ++ [128512]%N ++ runes_of_ascii " emoji
+repeat char[0123456789	]
+matchKey ,} ,i64 calculatedFrom	@calculatedFrom(
+""\" ++ [233]%N ++ runes_of_ascii """ ) ,} packet BodyLength{ @calculatedFrom(""CRC32"" )
+@lengthOf( i8i8 )f32a @calculatedFrom( ""abc"")
+    ,	zchar[ // 50% %s
+42] body@lengthOf( uint8x) `" ++ [28040; 24687; 31867; 22411]%N ++ runes_of_ascii "` ,
+    float@lengthOf(trueish ) ,
+repeat zchar[ 255 ] u8x	`it's` , //
+}")).
+Eval vm_compute in ("<<<M945>>>" ++ check (@nil rune)).
+Eval vm_compute in ("<<<M977>>>" ++ check (runes_of_ascii "
+packet i8i8 {
+repeat
+    char
+MetaDataX `u8 x,` , }packet
+MetaDataX{} root// " ++ [128512]%N ++ runes_of_ascii " emoji
+packet zchar{ @tag(
+4294967296
+    ) char[]
+falsey @lengthOf( tag ) , f64	T	,  } options {
+Packet	=	u32 ;
+    u128 = u8 trueish = string ; }
+root	packet body{ } 	 ")).
+Eval vm_compute in ("<<<M1009>>>" ++ check (runes_of_ascii "packet
+    //	t
+    tag{ @tag( // trailing space 
+1
+    ) @calculatedFrom( ""abc"" ) char[]
+Logon  ,char[] Logon@calculatedFrom(
+""a\\""), uint8x {
+// a // b
+//
+char[] float ,repeat char[] zchar
+, match f32a as f32a
+{
+    ""abc"" : options1
+,007 : _x 10
+// c
+// packet A { u8 x, }
+:
+BodyLength ,
+} ,
+},@lengthOf( f32a )
+@lengthOf( Header
+    )
+    @lengthOf(msg_type
+) repeat Logon i64_ , @calculatedFrom(
+""" ++ [28040; 24687]%N ++ runes_of_ascii """) repeat int roots , /// triple
+@lengthOf( zchar ) i16
+    stringy
+@calculatedFrom( ""it's"")
+    `u8 x,`
+,	@calculatedFrom(// @lengthOf(
+""{,}"" ) match string_
+as MetaDataX{
+[
+""// no comment"" //x
+,
+    007 ]	: i8i8, [ 1 // c
+, ""packet""]: trueish , } ,
+//
+/// triple
+}")).
+Eval vm_compute in ("<<<M1041>>>" ++ check (runes_of_ascii "// " ++ [27880; 37322]%N ++ runes_of_ascii "
+packet rootA{string
+    // 50% %s
+    Pad `{ , }` , } root
+packet// trailing space 
+repeatCount { @lengthOf( Header //x
+)int64 As
+    `{ , }` ,}
+options
+    { charz =false } /// triple")).
+Eval vm_compute in ("<<<M1073>>>" ++ check (runes_of_ascii "// " ++ [128512]%N ++ runes_of_ascii " emoji
+packet
+tag { @leftPad(
+) repeat
+u64 metadata ,  }
+")).
+Eval vm_compute in ("<<<M1105>>>" ++ check (runes_of_ascii "
+packet packetx
+{ packetx	asx ,  }
+")).
+Eval vm_compute in ("<<<T1105>>>" ++ terms [mkTok 35 "packet" 2 0 false; mkTok 42 "packetx" 2 7 false; mkTok 2 "{" 3 0 false; mkTok 42 "packetx" 3 2 false; mkTok 42 "asx" 3 10 false; mkTok 40 "," 3 14 false; mkTok 3 "}" 3 17 false; mkTok 0 "<EOF>" 4 0 false] (mkPacket (mkPtok 35 "packet" 2 0 0) (Some (mkPtok 3 "}" 3 17 6)) [(DPacket (mkPacketDef (mkSpan (mkPtok 35 "packet" 2 0 0) (mkPtok 3 "}" 3 17 6)) None (mkPtok 35 "packet" 2 0 0) (mkPtok 42 "packetx" 2 7 1) (mkPtok 2 "{" 3 0 2) [(mkFieldWithAttr (mkSpan (mkPtok 42 "packetx" 3 2 3) (mkPtok 40 "," 3 14 5)) [] (ObjectField (mkSpan (mkPtok 42 "packetx" 3 2 3) (mkPtok 40 "," 3 14 5)) None (mkPtok 42 "packetx" 3 2 3) (Some (mkPtok 42 "asx" 3 10 4)) None (mkPtok 40 "," 3 14 5)))] (mkPtok 3 "}" 3 17 6)))])).
+Eval vm_compute in ("<<<M1137>>>" ++ check (runes_of_ascii "MetaData matchKey
+{ body len , } //x")).
+Eval vm_compute in ("<<<M1169>>>" ++ check (runes_of_ascii "MetaData packetx { i64_
+    f32a ``,} options// packet A { u8 x, }
+{  u8x = """ ++ [233]%N ++ runes_of_ascii "t" ++ [233]%N ++ runes_of_ascii """ } options
+    { Foo =true x_y_z = 10
+}
+")).
+Eval vm_compute in ("<<<M1201>>>" ++ check (runes_of_ascii "packet repeatCount{ @tag( 7	)@lengthOf(crc
+)@lengthOf(
+    u
+)// trailing space 
+repeat i64_ matchKey
+,
+match
+    pack
+    as _x{ // " ++ [128512]%N ++ runes_of_ascii " emoji
+""a\\"":
+x_y_z , """ ++ [233]%N ++ runes_of_ascii "t" ++ [233]%N ++ runes_of_ascii """
+:	packetx , },  @calculatedFrom( ""a\""b"" )
+    char[]
+    // packet A { u8 x, }
+    tag , repeat
+//
+// " ++ [128512]%N ++ runes_of_ascii " emoji
+crc f32a , repeat	chars metadata `say ""hi""` , }
+")).
+Eval vm_compute in ("<<<M1233>>>" ++ check (runes_of_ascii "// " ++ [128512]%N ++ runes_of_ascii " emoji
+MetaData
+    T {	i64_ crc `" ++ [233]%N ++ runes_of_ascii "`
+    , // " ++ [27880; 37322]%N ++ runes_of_ascii "
+rootA metadata , }
+    MetaData falsey {
+}
+options{ _x	=""a\\"" zchar=
+    // " ++ [128512]%N ++ runes_of_ascii " emoji
+    int16 ; Logon=""a\""b""; options1 = char[ 10 ]; pack = // @lengthOf(
+1 ;  }
+")).
+Eval vm_compute in ("<<<M1265>>>" ++ check (runes_of_ascii "packet f32a {
+    }	packet lengthOf { } packet asx {@calculatedFrom( """"
+    )
+    @calculatedFrom( ""\" ++ [233]%N ++ runes_of_ascii """) @calculatedFrom( // 50% %s
+""x y"" ) repeat lengthOf , repeat uint64	_x
+// 50% %s
+// 50% %s
+`a\`
+    , trueish { float32 u  ,repeat string_ rootA `100% of %d` ,/// triple
+} , i64_ ,match chars
+as
+    As {[
+    """ ++ [128512]%N ++ runes_of_ascii """
+,""a	b"" ] :
+u8x
+    , ""abc"" :T
+    00	:
+// " ++ [27880; 37322]%N ++ runes_of_ascii "
+// @lengthOf(
+chars , ""a\""b""// c
+: //x
+len	,
+    0 : Pad ,	} // `tick` ""quote"" 'q'
+, match charz as leftPad {
+""\" ++ [233]%N ++ runes_of_ascii """: T , 007: tag , 007 :	crc
+    ,
+/// triple
+// packet A { u8 x, }
+007: a1  , 1:
+    asx
+, }	,
+repeat
+    uint16 o ,
+} root	packet x_y_z
+{  }root packet asx { stringy //	t
+,
+    // a // b
+    }
+")).
+Eval vm_compute in ("<<<M1297>>>" ++ check (runes_of_ascii "// 50% %s
+packet rootA { @lengthOf( //	t
+x_y_z)
+repeat
+    charz
+matchKey	,	}
+")).
+Eval vm_compute in ("<<<M1329>>>" ++ check (runes_of_ascii "packet x_y_z{ int len `" ++ [233]%N ++ runes_of_ascii "`
+// " ++ [128512]%N ++ runes_of_ascii " emoji
+/// triple
+,
+}MetaData Logon {
+    //x
+    char
+    int // " ++ [27880; 37322]%N ++ runes_of_ascii "
+, f64 body
+, i64 falsey ,
+}")).
+Eval vm_compute in ("<<<T1329>>>" ++ terms [mkTok 35 "packet" 1 0 false; mkTok 42 "x_y_z" 1 7 false; mkTok 2 "{" 1 12 false; mkTok 42 "int" 1 14 false; mkTok 42 "len" 1 18 false; mkTok 43 (string_of_bytes [96; 195; 169; 96]%N) 1 22 false; mkTok 44 (string_of_bytes [47; 47; 32; 240; 159; 152; 128; 32; 101; 109; 111; 106; 105]%N) 2 0 true; mkTok 44 "/// triple" 3 0 true; mkTok 40 "," 4 0 false; mkTok 3 "}" 5 0 false; mkTok 37 "MetaData" 5 1 false; mkTok 42 "Logon" 5 10 false; mkTok 2 "{" 5 16 false; mkTok 44 "//x" 6 4 true; mkTok 19 "char" 7 4 false; mkTok 42 "int" 8 4 false; mkTok 44 (string_of_bytes [47; 47; 32; 230; 179; 168; 233; 135; 138]%N) 8 8 true; mkTok 40 "," 9 0 false; mkTok 29 "f64" 9 2 false; mkTok 42 "body" 9 6 false; mkTok 40 "," 10 0 false; mkTok 27 "i64" 10 2 false; mkTok 42 "falsey" 10 6 false; mkTok 40 "," 10 13 false; mkTok 3 "}" 11 0 false; mkTok 0 "<EOF>" 11 1 false] (mkPacket (mkPtok 35 "packet" 1 0 0) (Some (mkPtok 3 "}" 11 0 24)) [(DPacket (mkPacketDef (mkSpan (mkPtok 35 "packet" 1 0 0) (mkPtok 3 "}" 5 0 9)) None (mkPtok 35 "packet" 1 0 0) (mkPtok 42 "x_y_z" 1 7 1) (mkPtok 2 "{" 1 12 2) [(mkFieldWithAttr (mkSpan (mkPtok 42 "int" 1 14 3) (mkPtok 40 "," 4 0 8)) [] (ObjectField (mkSpan (mkPtok 42 "int" 1 14 3) (mkPtok 40 "," 4 0 8)) None (mkPtok 42 "int" 1 14 3) (Some (mkPtok 42 "len" 1 18 4)) (Some (mkPtok 43 (string_of_bytes [96; 195; 169; 96]%N) 1 22 5)) (mkPtok 40 "," 4 0 8)))] (mkPtok 3 "}" 5 0 9))); (DMeta (mkMetaDef (mkSpan (mkPtok 37 "MetaData" 5 1 10) (mkPtok 3 "}" 11 0 24)) (mkPtok 37 "MetaData" 5 1 10) (mkPtok 42 "Logon" 5 10 11) (mkPtok 2 "{" 5 16 12) [(MIDecl (mkMetaDecl (mkSpan (mkPtok 19 "char" 7 4 14) (mkPtok 40 "," 9 0 17)) (TyBasic (mkSpan (mkPtok 19 "char" 7 4 14) (mkPtok 19 "char" 7 4 14)) (mkBasicType (mkSpan (mkPtok 19 "char" 7 4 14) (mkPtok 19 "char" 7 4 14)) (mkPtok 19 "char" 7 4 14))) (mkPtok 42 "int" 8 4 15) None (mkPtok 40 "," 9 0 17))); (MIDecl (mkMetaDecl (mkSpan (mkPtok 29 "f64" 9 2 18) (mkPtok 40 "," 10 0 20)) (TyBasic (mkSpan (mkPtok 29 "f64" 9 2 18) (mkPtok 29 "f64" 9 2 18)) (mkBasicType (mkSpan (mkPtok 29 "f64" 9 2 18) (mkPtok 29 "f64" 9 2 18)) (mkPtok 29 "f64" 9 2 18))) (mkPtok 42 "body" 9 6 19) None (mkPtok 40 "," 10 0 20))); (MIDecl (mkMetaDecl (mkSpan (mkPtok 27 "i64" 10 2 21) (mkPtok 40 "," 10 13 23)) (TyBasic (mkSpan (mkPtok 27 "i64" 10 2 21) (mkPtok 27 "i64" 10 2 21)) (mkBasicType (mkSpan (mkPtok 27 "i64" 10 2 21) (mkPtok 27 "i64" 10 2 21)) (mkPtok 27 "i64" 10 2 21))) (mkPtok 42 "falsey" 10 6 22) None (mkPtok 40 "," 10 13 23)))] (mkPtok 3 "}" 11 0 24)))])).
+Eval vm_compute in ("<<<M1361>>>" ++ check (runes_of_ascii "options { asx = 00 ; string_ =	7 ;x_y_z
+= // trailing space 
+0123456789 ; }
+")).
+Eval vm_compute in ("<<<M1393>>>" ++ check (runes_of_ascii "// " ++ [128512]%N ++ runes_of_ascii " emoji
+packet int// 50% %s
+{ //x
+options1 ,
+    } root packet
+uint8x {
+@tag( 1 ) zchar`say ""hi""`
+    ,  @tag(  255
+) u64
+matchKey ,
+/// triple
+//	t
+} 	 ")).
+Eval vm_compute in ("<<<M1425>>>" ++ check (runes_of_ascii "packet
+    x	{ @lengthOf( x
+    // " ++ [128512]%N ++ runes_of_ascii " emoji
+    ) // `tick` ""quote"" 'q'
+match _x as
+    o { """ ++ [28040; 24687]%N ++ runes_of_ascii """ :
+    crc, ""a	b""
+    :tag, 007 : // " ++ [128512]%N ++ runes_of_ascii " emoji
+packetx , [ // " ++ [128512]%N ++ runes_of_ascii " emoji
+""x y"" ] : options1
+,}	,
+    @calculatedFrom(  ""a	b""
+    )match string_  as tag  {007
+//
+//x
+:  uint8x ""// no comment""
+:
+i64_
+    , 007: uint8x
+    ,
+}
+, }
+packet calculatedFrom { repeat
+    pack {charz options1 `" ++ [233]%N ++ runes_of_ascii "` ,	} ,
+    // `tick` ""quote"" 'q'
+    msg_type
+{ // @lengthOf(
+char[] crc
+    //x
+    , options1`" ++ [233]%N ++ runes_of_ascii "`,metadata body `100% of %d` ,} ,}
+
+")).
+Eval vm_compute in ("<<<M1457>>>" ++ check (runes_of_ascii "root
+packet tag { T{
+//	t
+//
+zchar[
+4294967296
+]calculatedFrom , repeat// trailing space 
+charz{ repeat  i64_ stringy
+    ,falsey , } ,
+}
+, @tag( 65535)@lengthOf(options1 ) repeat
+string packetx
+`say ""hi""` , match
+Header // c
+as
+    charz {	65535:
+pack
+, } , i32 trueish @calculatedFrom( ""it's""	)
+    `u8 x,` ,
+    // c
+    @calculatedFrom(
+    ""x y"")	string len @lengthOf(
+    metadata ) ,zchar[ 255
+]  i64_
+// " ++ [27880; 37322]%N ++ runes_of_ascii "
+//	t
+@lengthOf(	A ) , @lengthOf(float ) pack @calculatedFrom("""") ,
+    rootA{repeat
+    i64 As // a // b
+, u8	Foo, char[
+// 50% %s
+// trailing space 
+00 ]trueish `` , match	string_ as
+calculatedFrom
+{ 255 : //	t
+T // " ++ [27880; 37322]%N ++ runes_of_ascii "
+,}	,
+}
+,  repeat // `tick` ""quote"" 'q'
+len
+`doc`, char[ /// triple
+3 ] pack`a\`//	t
+, }")).
+Eval vm_compute in ("<<<M1489>>>" ++ check (runes_of_ascii "// " ++ [128512]%N ++ runes_of_ascii " emoji
+root packet	asx { @lengthOf( a1 ) uint32 string_
+    @lengthOf( u
+) `// not a comment` ,  @lengthOf(
+Header )  @calculatedFrom(""CRC32""// " ++ [27880; 37322]%N ++ runes_of_ascii "
+) //
+@lengthOf( u8x) zchar[1 ] repeatCount
+, lengthOf len, @lengthOf(MetaDataX  )  @calculatedFrom(
+    ""// no comment"")
+match
+    u as pack // `tick` ""quote"" 'q'
+{ 0 //x
+:
+    T , // " ++ [27880; 37322]%N ++ runes_of_ascii "
+0 : falsey [
+    """ ++ [128512]%N ++ runes_of_ascii """
+    , 10
+    ]: // " ++ [27880; 37322]%N ++ runes_of_ascii "
+u8x """" :roots
+,
+    255	: lengthOf , """"
+: roots} ,u32
+    // trailing space 
+    x @calculatedFrom( ""a\\""
+    ),
+    @lengthOf( rootA ) @lengthOf( charz) f32 MetaDataX
+    //x
+    , @calculatedFrom( """ ++ [128512]%N ++ runes_of_ascii """ ) // trailing space 
+int64
+string_ , o @lengthOf( crc ) ,
+    } root
+packet i64_  {
+body x `doc` ,
+}	packet	Packet {  } packet  float{ @leftPad ()match falsey as matchKey{// packet A { u8 x, }
+""a\\"" : options1 ,// a // b
+[	""\" ++ [233]%N ++ runes_of_ascii """ ,""packet"", ""it's"" ,""1"", ""abc"" ,10 , ""a	b"" ]
+:
+    u
+,[ 4294967296
+    ]:  calculatedFrom , 10 : Pad
+, ""abc""  : a1,
+42 : Foo , }
+,@calculatedFrom(// `tick` ""quote"" 'q'
+""a	b"") repeat	leftPad
+    `{ , }` ,repeat //x
+Pad{ x x ,
+    zchar[ 007
+] charz , uint32 len `two words`
+    , _x@lengthOf( zchar),} , repeat _x { u128  matchKey
+    , } , char[ // trailing space 
+10]  charz@lengthOf( pack ) ,
+@calculatedFrom( ""`tick`""
+) string_
+, calculatedFrom @calculatedFrom(
+"""" /// triple
+)
+    , }
+")).
+Eval vm_compute in ("<<<M1521>>>" ++ check (runes_of_ascii "  root packet charz {
+    } packet
+a1
+{ @tag( 0 ) string// " ++ [27880; 37322]%N ++ runes_of_ascii "
+u
+    ,
+    } packet tag
+{ a1 Foo `100% of %d` , }")).
+Eval vm_compute in ("<<<M1553>>>" ++ check (@nil rune)).
+Eval vm_compute in ("<<<T1553>>>" ++ terms [mkTok 0 "<EOF>" 1 0 false] (mkPacket (mkPtok 0 "<EOF>" 1 0 0) None [])).
+Eval vm_compute in ("<<<M1585>>>" ++ check (runes_of_ascii "options {	trueish =
+    4294967296
+tag= u32// packet A { u8 x, }
+; trueish = char[]	;
+}  MetaData options1 { }
+root packet
+float {@lengthOf( o /// triple
+) zchar[0 ]
+BodyLength @calculatedFrom(// packet A { u8 x, }
+""" ++ [28040; 24687]%N ++ runes_of_ascii """ ) `crlf
+line` , } MetaData body
+    { zchar[007 ]  i8i8
+, u16 repeatCount// a // b
+, }
+")).
+Eval vm_compute in ("<<<M1617>>>" ++ check (runes_of_ascii "/// triple
+packet
+body { // " ++ [27880; 37322]%N ++ runes_of_ascii "
+As,
+    repeat zchar[ 1 ]
+u128 ,@rightPad
+    //	t
+    ( )
+    char[ 65535 ]
+lengthOf, } //x
+packet len
+    {Pad	, @lengthOf( x )  asx { i64
+    chars
+, match o
+    //	t
+    as calculatedFrom	{ ""x y""
+:
+//x
+// `tick` ""quote"" 'q'
+i8i8
+    , } , } , //x
+} // trailing space ")).
+Eval vm_compute in ("<<<M1649>>>" ++ check (runes_of_ascii "
+packet o {@tag( 4294967296 // 50% %s
+)
+uint64
+uint8x , repeat int8  leftPad
+    `a\`
+, char[3
+    ]
+    /// triple
+    string_ , @tag( 0)
+f64 u @lengthOf( As
+// c
+//x
+) `" ++ [28040; 24687; 31867; 22411]%N ++ runes_of_ascii "`
+    , @lengthOf( pack )match As as x_y_z { 255	: trueish }
+    , uint8
+    Header ,
+uint8x int , tag ,// a // b
+u8x
+, @leftPad
+// c
+// 50% %s
+( '\x00'
+) body i8i8 `// not a comment`
+/// triple
+// 50% %s
+,
+}
+
+")).
+Eval vm_compute in ("<<<M1681>>>" ++ check (runes_of_ascii "MetaData Packet
+//x
+/// triple
+{ //x
+a1 asx `` ,
+} packet packetx{ } MetaData trueish { u32
+u`line1
+line2`
+//x
+//x
+,	i8
+o , //	t
+int32
+    Z9_ `doc` , char[0 ]
+    _x`` , u8
+    repeatCount
+, u8	stringy `tab	here`
+    , }
+options {
+calculatedFrom
+//	t
+// `tick` ""quote"" 'q'
+=false options1	= false
+;
+a1 = false body
+    =""" ++ [233]%N ++ runes_of_ascii "t" ++ [233]%N ++ runes_of_ascii """; }
+MetaData tag { zchar[ 3
+] As
+    // c
+    , zchar[	7	] float, char roots, u16 f32a ,
+    i16
+T , x_y_z x `doc` ,	}
+")).
+Eval vm_compute in ("<<<M1713>>>" ++ check (runes_of_ascii "
+options
+// " ++ [128512]%N ++ runes_of_ascii " emoji
+/// triple
+{ stringy = ""x y""Pad
+    // c
+    = false
+;len = ""a\""b"" ;
+} options {charz
+    = 0 } options { calculatedFrom	=0123456789 ; a1 =	42
+}
+")).
+Eval vm_compute in ("<<<M1745>>>" ++ check (runes_of_ascii "options {_x	= ""x y"" A /// triple
+= """ ++ [233]%N ++ runes_of_ascii "t" ++ [233]%N ++ runes_of_ascii """ ; u8x	=
+    // @lengthOf(
+    true ;
+}")).
+Eval vm_compute in ("<<<M1777>>>" ++ check (runes_of_ascii "packet Z9_
+{
+    match x_y_z as stringy
+{ [65535 ] :
+    // a // b
+    BodyLength, } ,  repeat  zchar[ 255 ]
+i64_,
+/// triple
+// 50% %s
+}
+")).
+Eval vm_compute in ("<<<T1777>>>" ++ terms [mkTok 35 "packet" 1 0 false; mkTok 42 "Z9_" 1 7 false; mkTok 2 "{" 2 0 false; mkTok 38 "match" 3 4 false; mkTok 42 "x_y_z" 3 10 false; mkTok 17 "as" 3 16 false; mkTok 42 "stringy" 3 19 false; mkTok 2 "{" 4 0 false; mkTok 18 "[" 4 2 false; mkTok 30 "65535" 4 3 false; mkTok 13 "]" 4 9 false; mkTok 39 ":" 4 11 false; mkTok 44 "// a // b" 5 4 true; mkTok 42 "BodyLength" 6 4 false; mkTok 40 "," 6 14 false; mkTok 3 "}" 6 16 false; mkTok 40 "," 6 18 false; mkTok 36 "repeat" 6 21 false; mkTok 14 "zchar[" 6 29 false; mkTok 30 "255" 6 36 false; mkTok 13 "]" 6 40 false; mkTok 42 "i64_" 7 0 false; mkTok 40 "," 7 4 false; mkTok 44 "/// triple" 8 0 true; mkTok 44 "// 50% %s" 9 0 true; mkTok 3 "}" 10 0 false; mkTok 0 "<EOF>" 11 0 false] (mkPacket (mkPtok 35 "packet" 1 0 0) (Some (mkPtok 3 "}" 10 0 25)) [(DPacket (mkPacketDef (mkSpan (mkPtok 35 "packet" 1 0 0) (mkPtok 3 "}" 10 0 25)) None (mkPtok 35 "packet" 1 0 0) (mkPtok 42 "Z9_" 1 7 1) (mkPtok 2 "{" 2 0 2) [(mkFieldWithAttr (mkSpan (mkPtok 38 "match" 3 4 3) (mkPtok 40 "," 6 18 16)) [] (MatchField (mkSpan (mkPtok 38 "match" 3 4 3) (mkPtok 40 "," 6 18 16)) (mkMatchFieldDecl (mkSpan (mkPtok 38 "match" 3 4 3) (mkPtok 3 "}" 6 16 15)) (mkPtok 38 "match" 3 4 3) (mkPtok 42 "x_y_z" 3 10 4) (mkPtok 17 "as" 3 16 5) (mkPtok 42 "stringy" 3 19 6) (mkPtok 2 "{" 4 0 7) [(mkMatchPair (mkSpan (mkPtok 18 "[" 4 2 8) (mkPtok 40 "," 6 14 14)) (MKList (mkKeyList (mkSpan (mkPtok 18 "[" 4 2 8) (mkPtok 13 "]" 4 9 10)) (mkPtok 18 "[" 4 2 8) (mkPtok 30 "65535" 4 3 9) [] (mkPtok 13 "]" 4 9 10))) (mkPtok 39 ":" 4 11 11) (mkPtok 42 "BodyLength" 6 4 13) (Some (mkPtok 40 "," 6 14 14)))] (mkPtok 3 "}" 6 16 15)) (mkPtok 40 "," 6 18 16))); (mkFieldWithAttr (mkSpan (mkPtok 36 "repeat" 6 21 17) (mkPtok 40 "," 7 4 22)) [] (MetaField (mkSpan (mkPtok 36 "repeat" 6 21 17) (mkPtok 40 "," 7 4 22)) (Some (mkPtok 36 "repeat" 6 21 17)) (mkMetaDecl (mkSpan (mkPtok 14 "zchar[" 6 29 18) (mkPtok 40 "," 7 4 22)) (TyFixed (mkSpan (mkPtok 14 "zchar[" 6 29 18) (mkPtok 13 "]" 6 40 20)) (mkFixedString (mkSpan (mkPtok 14 "zchar[" 6 29 18) (mkPtok 13 "]" 6 40 20)) (mkPtok 14 "zchar[" 6 29 18) (mkPtok 30 "255" 6 36 19) (mkPtok 13 "]" 6 40 20))) (mkPtok 42 "i64_" 7 0 21) None (mkPtok 40 "," 7 4 22))))] (mkPtok 3 "}" 10 0 25)))])).
+Eval vm_compute in ("<<<M1809>>>" ++ check (runes_of_ascii "packet
+// trailing space 
+// " ++ [27880; 37322]%N ++ runes_of_ascii "
+T
+{ @calculatedFrom("""" )repeat // " ++ [27880; 37322]%N ++ runes_of_ascii "
+Pad	{
+match stringy as float { ""\n"" // 50% %s
+:repeatCount	, }, /// triple
+} ,
+match packetx
+    as float
+    { 007
+:metadata , 0123456789 : falsey ,
+0123456789 :
+zchar, }
+, @rightPad (
+    ' ' )//x
+msg_type
+trueish `{ , }` , match f32a  as
+_x
+{ 4294967296 :	o	,""\n"" : x, 3
+    : x ,  255
+:
+    Packet
+// 50% %s
+// 50% %s
+}, } options
+{ a1 = true
+// " ++ [128512]%N ++ runes_of_ascii " emoji
+// `tick` ""quote"" 'q'
+; u128
+    = string;	}")).
+Eval vm_compute in ("<<<M1841>>>" ++ check (runes_of_ascii "options {
+    pack =true
+Pad = 255 falsey=
+// a // b
+// trailing space 
+""it's""
+    }
+MetaData _x
+    //
+    {}packet// 50% %s
+Z9_{
+    match MetaDataX as body { 42 : a1 ,
+// " ++ [27880; 37322]%N ++ runes_of_ascii "
+//x
+4294967296 :
+lengthOf
+    // `tick` ""quote"" 'q'
+    , } , //	t
+@tag(1  ) @tag(  7) // @lengthOf(
+@tag( 0123456789
+)	uint8x u
+`crlf
+line`,Z9_
+    Pad
+`say ""hi""` ,// packet A { u8 x, }
+repeat zchar[  255 ]
+    string_, }  packet Foo{  @lengthOf(	i64_	) metadata @calculatedFrom( ""\" ++ [233]%N ++ runes_of_ascii """ ) `" ++ [233]%N ++ runes_of_ascii "`
+, @calculatedFrom( """ ++ [28040; 24687]%N ++ runes_of_ascii """ ) char[ 3 ]
+Foo , repeat
+//
+// packet A { u8 x, }
+As repeatCount, // packet A { u8 x, }
 @leftPad
 ()
-char[] repeatCount @calculatedFrom(// c
-""packet"")
-`u8 x,`
-// trailing space 
-// `tick` ""quote"" 'q'
-, u8 crc `a\`
-,
-}
-")).
-Eval vm_compute in ("<<<T1553>>>" ++ terms [mkTok 35 "packet" 1 0 false; mkTok 44 "// `tick` ""quote"" 'q'" 1 7 true; mkTok 42 "MetaDataX" 2 0 false; mkTok 44 "// c" 2 9 true; mkTok 2 "{" 3 0 false; mkTok 3 "}" 3 2 false; mkTok 35 "packet" 3 4 false; mkTok 42 "calculatedFrom" 3 11 false; mkTok 2 "{" 3 25 false; mkTok 28 "float32" 3 27 false; mkTok 42 "metadata" 3 35 false; mkTok 43 "`u8 x,`" 3 44 false; mkTok 40 "," 3 51 false; mkTok 3 "}" 3 53 false; mkTok 44 "// packet A { u8 x, }" 4 4 true; mkTok 35 "packet" 5 4 false; mkTok 44 "// a // b" 5 11 true; mkTok 42 "metadata" 6 0 false; mkTok 44 "//x" 6 9 true; mkTok 2 "{" 7 0 false; mkTok 12 "char[" 7 2 false; mkTok 30 "3" 8 0 false; mkTok 13 "]" 9 4 false; mkTok 42 "As" 10 0 false; mkTok 43 (string_of_bytes [96; 116; 97; 98; 9; 104; 101; 114; 101; 96]%N) 11 4 false; mkTok 40 "," 11 15 false; mkTok 9 "@tag(" 11 17 false; mkTok 30 "10" 11 23 false; mkTok 6 ")" 11 26 false; mkTok 7 "@lengthOf(" 11 28 false; mkTok 42 "As" 11 39 false; mkTok 6 ")" 11 42 false; mkTok 9 "@tag(" 11 44 false; mkTok 30 "00" 11 50 false; mkTok 44 "// @lengthOf(" 12 0 true; mkTok 44 "//" 13 0 true; mkTok 6 ")" 14 0 false; mkTok 36 "repeat" 14 1 false; mkTok 42 "options1" 14 8 false; mkTok 43 "`say ""hi""`" 15 4 false; mkTok 44 (string_of_bytes [47; 47; 32; 240; 159; 152; 128; 32; 101; 109; 111; 106; 105]%N) 15 15 true; mkTok 40 "," 16 0 false; mkTok 5 "@calculatedFrom(" 16 1 false; mkTok 31 (string_of_bytes [34; 92; 195; 169; 34]%N) 16 18 false; mkTok 6 ")" 16 24 false; mkTok 42 "o" 17 4 false; mkTok 42 "A" 17 6 false; mkTok 43 (string_of_bytes [96; 195; 169; 96]%N) 17 8 false; mkTok 40 "," 17 12 false; mkTok 7 "@lengthOf(" 17 14 false; mkTok 44 "// c" 17 25 true; mkTok 42 "body" 18 0 false; mkTok 6 ")" 19 4 false; mkTok 14 "zchar[" 19 6 false; mkTok 30 "255" 19 14 false; mkTok 13 "]" 20 0 false; mkTok 42 "len" 20 2 false; mkTok 43 "`it's`" 21 4 false; mkTok 40 "," 21 11 false; mkTok 44 "// packet A { u8 x, }" 21 12 true; mkTok 7 "@lengthOf(" 22 0 false; mkTok 42 "metadata" 23 0 false; mkTok 6 ")" 23 9 false; mkTok 5 "@calculatedFrom(" 23 11 false; mkTok 31 """x y""" 23 28 false; mkTok 6 ")" 23 33 false; mkTok 44 (string_of_bytes [47; 47; 32; 230; 179; 168; 233; 135; 138]%N) 24 0 true; mkTok 44 "// `tick` ""quote"" 'q'" 25 0 true; mkTok 28 "float32" 26 0 false; mkTok 44 "/// triple" 26 8 true; mkTok 42 "f32a" 27 0 false; mkTok 43 (string_of_bytes [96; 116; 97; 98; 9; 104; 101; 114; 101; 96]%N) 27 5 false; mkTok 40 "," 28 4 false; mkTok 42 "chars" 28 6 false; mkTok 40 "," 28 12 false; mkTok 3 "}" 28 13 false; mkTok 35 "packet" 28 15 false; mkTok 42 "body" 28 22 false; mkTok 2 "{" 28 27 false; mkTok 42 "pack" 28 29 false; mkTok 44 "/// triple" 29 4 true; mkTok 40 "," 30 4 false; mkTok 27 "i64" 30 6 false; mkTok 42 "zchar" 30 10 false; mkTok 7 "@lengthOf(" 31 0 false; mkTok 42 "roots" 31 11 false; mkTok 6 ")" 32 0 false; mkTok 43 "`doc`" 32 2 false; mkTok 40 "," 33 4 false; mkTok 20 "uint8" 33 5 false; mkTok 42 "falsey" 33 11 false; mkTok 5 "@calculatedFrom(" 33 18 false; mkTok 31 """`tick`""" 33 35 false; mkTok 6 ")" 33 44 false; mkTok 40 "," 33 46 false; mkTok 7 "@lengthOf(" 34 4 false; mkTok 42 "int" 34 15 false; mkTok 6 ")" 34 18 false; mkTok 9 "@tag(" 34 20 false; mkTok 30 "255" 35 4 false; mkTok 6 ")" 35 8 false; mkTok 32 "@leftPad" 35 10 false; mkTok 8 "(" 35 18 false; mkTok 6 ")" 36 4 false; mkTok 36 "repeat" 37 0 false; mkTok 24 "i8" 38 4 false; mkTok 42 "uint8x" 38 7 false; mkTok 43 "``" 38 13 false; mkTok 40 "," 38 16 false; mkTok 3 "}" 38 18 false; mkTok 35 "packet" 38 20 false; mkTok 42 "pack" 38 27 false; mkTok 2 "{" 39 4 false; mkTok 5 "@calculatedFrom(" 39 6 false; mkTok 31 """it's""" 39 23 false; mkTok 6 ")" 40 0 false; mkTok 42 "Foo" 40 2 false; mkTok 2 "{" 41 4 false; mkTok 16 "char[]" 41 6 false; mkTok 42 "calculatedFrom" 41 12 false; mkTok 43 "``" 41 27 false; mkTok 40 "," 42 0 false; mkTok 36 "repeat" 42 2 false; mkTok 12 "char[" 42 9 false; mkTok 30 "3" 42 15 false; mkTok 13 "]" 43 0 false; mkTok 42 "Header" 43 1 false; mkTok 40 "," 43 7 false; mkTok 3 "}" 43 8 false; mkTok 40 "," 43 11 false; mkTok 5 "@calculatedFrom(" 43 13 false; mkTok 31 """`tick`""" 43 30 false; mkTok 6 ")" 43 39 false; mkTok 5 "@calculatedFrom(" 43 41 false; mkTok 31 """packet""" 44 4 false; mkTok 6 ")" 44 13 false; mkTok 44 "// a // b" 44 15 true; mkTok 32 "@leftPad" 45 0 false; mkTok 8 "(" 46 0 false; mkTok 6 ")" 46 1 false; mkTok 16 "char[]" 47 0 false; mkTok 42 "repeatCount" 47 7 false; mkTok 5 "@calculatedFrom(" 47 19 false; mkTok 44 "// c" 47 35 true; mkTok 31 """packet""" 48 0 false; mkTok 6 ")" 48 8 false; mkTok 43 "`u8 x,`" 49 0 false; mkTok 44 "// trailing space " 50 0 true; mkTok 44 "// `tick` ""quote"" 'q'" 51 0 true; mkTok 40 "," 52 0 false; mkTok 20 "u8" 52 2 false; mkTok 42 "crc" 52 5 false; mkTok 43 "`a\`" 52 9 false; mkTok 40 "," 53 0 false; mkTok 3 "}" 54 0 false; mkTok 0 "<EOF>" 55 0 false] (mkPacket (mkPtok 35 "packet" 1 0 0) (Some (mkPtok 3 "}" 54 0 154)) [(DPacket (mkPacketDef (mkSpan (mkPtok 35 "packet" 1 0 0) (mkPtok 3 "}" 3 2 5)) None (mkPtok 35 "packet" 1 0 0) (mkPtok 42 "MetaDataX" 2 0 2) (mkPtok 2 "{" 3 0 4) [] (mkPtok 3 "}" 3 2 5))); (DPacket (mkPacketDef (mkSpan (mkPtok 35 "packet" 3 4 6) (mkPtok 3 "}" 3 53 13)) None (mkPtok 35 "packet" 3 4 6) (mkPtok 42 "calculatedFrom" 3 11 7) (mkPtok 2 "{" 3 25 8) [(mkFieldWithAttr (mkSpan (mkPtok 28 "float32" 3 27 9) (mkPtok 40 "," 3 51 12)) [] (MetaField (mkSpan (mkPtok 28 "float32" 3 27 9) (mkPtok 40 "," 3 51 12)) None (mkMetaDecl (mkSpan (mkPtok 28 "float32" 3 27 9) (mkPtok 40 "," 3 51 12)) (TyBasic (mkSpan (mkPtok 28 "float32" 3 27 9) (mkPtok 28 "float32" 3 27 9)) (mkBasicType (mkSpan (mkPtok 28 "float32" 3 27 9) (mkPtok 28 "float32" 3 27 9)) (mkPtok 28 "float32" 3 27 9))) (mkPtok 42 "metadata" 3 35 10) (Some (mkPtok 43 "`u8 x,`" 3 44 11)) (mkPtok 40 "," 3 51 12))))] (mkPtok 3 "}" 3 53 13))); (DPacket (mkPacketDef (mkSpan (mkPtok 35 "packet" 5 4 15) (mkPtok 3 "}" 28 13 75)) None (mkPtok 35 "packet" 5 4 15) (mkPtok 42 "metadata" 6 0 17) (mkPtok 2 "{" 7 0 19) [(mkFieldWithAttr (mkSpan (mkPtok 12 "char[" 7 2 20) (mkPtok 40 "," 11 15 25)) [] (MetaField (mkSpan (mkPtok 12 "char[" 7 2 20) (mkPtok 40 "," 11 15 25)) None (mkMetaDecl (mkSpan (mkPtok 12 "char[" 7 2 20) (mkPtok 40 "," 11 15 25)) (TyFixed (mkSpan (mkPtok 12 "char[" 7 2 20) (mkPtok 13 "]" 9 4 22)) (mkFixedString (mkSpan (mkPtok 12 "char[" 7 2 20) (mkPtok 13 "]" 9 4 22)) (mkPtok 12 "char[" 7 2 20) (mkPtok 30 "3" 8 0 21) (mkPtok 13 "]" 9 4 22))) (mkPtok 42 "As" 10 0 23) (Some (mkPtok 43 (string_of_bytes [96; 116; 97; 98; 9; 104; 101; 114; 101; 96]%N) 11 4 24)) (mkPtok 40 "," 11 15 25)))); (mkFieldWithAttr (mkSpan (mkPtok 9 "@tag(" 11 17 26) (mkPtok 40 "," 16 0 41)) [(FATag (mkSpan (mkPtok 9 "@tag(" 11 17 26) (mkPtok 6 ")" 11 26 28)) (mkTagAttr (mkSpan (mkPtok 9 "@tag(" 11 17 26) (mkPtok 6 ")" 11 26 28)) (mkPtok 9 "@tag(" 11 17 26) (mkPtok 30 "10" 11 23 27) (mkPtok 6 ")" 11 26 28))); (FALengthOf (mkSpan (mkPtok 7 "@lengthOf(" 11 28 29) (mkPtok 6 ")" 11 42 31)) (mkLengthOf (mkSpan (mkPtok 7 "@lengthOf(" 11 28 29) (mkPtok 6 ")" 11 42 31)) (mkPtok 7 "@lengthOf(" 11 28 29) (mkPtok 42 "As" 11 39 30) (mkPtok 6 ")" 11 42 31))); (FATag (mkSpan (mkPtok 9 "@tag(" 11 44 32) (mkPtok 6 ")" 14 0 36)) (mkTagAttr (mkSpan (mkPtok 9 "@tag(" 11 44 32) (mkPtok 6 ")" 14 0 36)) (mkPtok 9 "@tag(" 11 44 32) (mkPtok 30 "00" 11 50 33) (mkPtok 6 ")" 14 0 36)))] (ObjectField (mkSpan (mkPtok 36 "repeat" 14 1 37) (mkPtok 40 "," 16 0 41)) (Some (mkPtok 36 "repeat" 14 1 37)) (mkPtok 42 "options1" 14 8 38) None (Some (mkPtok 43 "`say ""hi""`" 15 4 39)) (mkPtok 40 "," 16 0 41))); (mkFieldWithAttr (mkSpan (mkPtok 5 "@calculatedFrom(" 16 1 42) (mkPtok 40 "," 17 12 48)) [(FACalculatedFrom (mkSpan (mkPtok 5 "@calculatedFrom(" 16 1 42) (mkPtok 6 ")" 16 24 44)) (mkCalculatedFrom (mkSpan (mkPtok 5 "@calculatedFrom(" 16 1 42) (mkPtok 6 ")" 16 24 44)) (mkPtok 5 "@calculatedFrom(" 16 1 42) (mkPtok 31 (string_of_bytes [34; 92; 195; 169; 34]%N) 16 18 43) (mkPtok 6 ")" 16 24 44)))] (ObjectField (mkSpan (mkPtok 42 "o" 17 4 45) (mkPtok 40 "," 17 12 48)) None (mkPtok 42 "o" 17 4 45) (Some (mkPtok 42 "A" 17 6 46)) (Some (mkPtok 43 (string_of_bytes [96; 195; 169; 96]%N) 17 8 47)) (mkPtok 40 "," 17 12 48))); (mkFieldWithAttr (mkSpan (mkPtok 7 "@lengthOf(" 17 14 49) (mkPtok 40 "," 21 11 58)) [(FALengthOf (mkSpan (mkPtok 7 "@lengthOf(" 17 14 49) (mkPtok 6 ")" 19 4 52)) (mkLengthOf (mkSpan (mkPtok 7 "@lengthOf(" 17 14 49) (mkPtok 6 ")" 19 4 52)) (mkPtok 7 "@lengthOf(" 17 14 49) (mkPtok 42 "body" 18 0 51) (mkPtok 6 ")" 19 4 52)))] (MetaField (mkSpan (mkPtok 14 "zchar[" 19 6 53) (mkPtok 40 "," 21 11 58)) None (mkMetaDecl (mkSpan (mkPtok 14 "zchar[" 19 6 53) (mkPtok 40 "," 21 11 58)) (TyFixed (mkSpan (mkPtok 14 "zchar[" 19 6 53) (mkPtok 13 "]" 20 0 55)) (mkFixedString (mkSpan (mkPtok 14 "zchar[" 19 6 53) (mkPtok 13 "]" 20 0 55)) (mkPtok 14 "zchar[" 19 6 53) (mkPtok 30 "255" 19 14 54) (mkPtok 13 "]" 20 0 55))) (mkPtok 42 "len" 20 2 56) (Some (mkPtok 43 "`it's`" 21 4 57)) (mkPtok 40 "," 21 11 58)))); (mkFieldWithAttr (mkSpan (mkPtok 7 "@lengthOf(" 22 0 60) (mkPtok 40 "," 28 4 72)) [(FALengthOf (mkSpan (mkPtok 7 "@lengthOf(" 22 0 60) (mkPtok 6 ")" 23 9 62)) (mkLengthOf (mkSpan (mkPtok 7 "@lengthOf(" 22 0 60) (mkPtok 6 ")" 23 9 62)) (mkPtok 7 "@lengthOf(" 22 0 60) (mkPtok 42 "metadata" 23 0 61) (mkPtok 6 ")" 23 9 62))); (FACalculatedFrom (mkSpan (mkPtok 5 "@calculatedFrom(" 23 11 63) (mkPtok 6 ")" 23 33 65)) (mkCalculatedFrom (mkSpan (mkPtok 5 "@calculatedFrom(" 23 11 63) (mkPtok 6 ")" 23 33 65)) (mkPtok 5 "@calculatedFrom(" 23 11 63) (mkPtok 31 """x y""" 23 28 64) (mkPtok 6 ")" 23 33 65)))] (MetaField (mkSpan (mkPtok 28 "float32" 26 0 68) (mkPtok 40 "," 28 4 72)) None (mkMetaDecl (mkSpan (mkPtok 28 "float32" 26 0 68) (mkPtok 40 "," 28 4 72)) (TyBasic (mkSpan (mkPtok 28 "float32" 26 0 68) (mkPtok 28 "float32" 26 0 68)) (mkBasicType (mkSpan (mkPtok 28 "float32" 26 0 68) (mkPtok 28 "float32" 26 0 68)) (mkPtok 28 "float32" 26 0 68))) (mkPtok 42 "f32a" 27 0 70) (Some (mkPtok 43 (string_of_bytes [96; 116; 97; 98; 9; 104; 101; 114; 101; 96]%N) 27 5 71)) (mkPtok 40 "," 28 4 72)))); (mkFieldWithAttr (mkSpan (mkPtok 42 "chars" 28 6 73) (mkPtok 40 "," 28 12 74)) [] (ObjectField (mkSpan (mkPtok 42 "chars" 28 6 73) (mkPtok 40 "," 28 12 74)) None (mkPtok 42 "chars" 28 6 73) None None (mkPtok 40 "," 28 12 74)))] (mkPtok 3 "}" 28 13 75))); (DPacket (mkPacketDef (mkSpan (mkPtok 35 "packet" 28 15 76) (mkPtok 3 "}" 38 18 109)) None (mkPtok 35 "packet" 28 15 76) (mkPtok 42 "body" 28 22 77) (mkPtok 2 "{" 28 27 78) [(mkFieldWithAttr (mkSpan (mkPtok 42 "pack" 28 29 79) (mkPtok 40 "," 30 4 81)) [] (ObjectField (mkSpan (mkPtok 42 "pack" 28 29 79) (mkPtok 40 "," 30 4 81)) None (mkPtok 42 "pack" 28 29 79) None None (mkPtok 40 "," 30 4 81))); (mkFieldWithAttr (mkSpan (mkPtok 27 "i64" 30 6 82) (mkPtok 40 "," 33 4 88)) [] (LengthField (mkSpan (mkPtok 27 "i64" 30 6 82) (mkPtok 40 "," 33 4 88)) (mkLengthFieldDecl (mkSpan (mkPtok 27 "i64" 30 6 82) (mkPtok 40 "," 33 4 88)) (Some (TyBasic (mkSpan (mkPtok 27 "i64" 30 6 82) (mkPtok 27 "i64" 30 6 82)) (mkBasicType (mkSpan (mkPtok 27 "i64" 30 6 82) (mkPtok 27 "i64" 30 6 82)) (mkPtok 27 "i64" 30 6 82)))) (mkPtok 42 "zchar" 30 10 83) (mkLengthOf (mkSpan (mkPtok 7 "@lengthOf(" 31 0 84) (mkPtok 6 ")" 32 0 86)) (mkPtok 7 "@lengthOf(" 31 0 84) (mkPtok 42 "roots" 31 11 85) (mkPtok 6 ")" 32 0 86)) (Some (mkPtok 43 "`doc`" 32 2 87)) (mkPtok 40 "," 33 4 88)))); (mkFieldWithAttr (mkSpan (mkPtok 20 "uint8" 33 5 89) (mkPtok 40 "," 33 46 94)) [] (CheckSumField (mkSpan (mkPtok 20 "uint8" 33 5 89) (mkPtok 40 "," 33 46 94)) (mkChecksumFieldDecl (mkSpan (mkPtok 20 "uint8" 33 5 89) (mkPtok 40 "," 33 46 94)) (Some (TyBasic (mkSpan (mkPtok 20 "uint8" 33 5 89) (mkPtok 20 "uint8" 33 5 89)) (mkBasicType (mkSpan (mkPtok 20 "uint8" 33 5 89) (mkPtok 20 "uint8" 33 5 89)) (mkPtok 20 "uint8" 33 5 89)))) (mkPtok 42 "falsey" 33 11 90) (mkCalculatedFrom (mkSpan (mkPtok 5 "@calculatedFrom(" 33 18 91) (mkPtok 6 ")" 33 44 93)) (mkPtok 5 "@calculatedFrom(" 33 18 91) (mkPtok 31 """`tick`""" 33 35 92) (mkPtok 6 ")" 33 44 93)) None (mkPtok 40 "," 33 46 94)))); (mkFieldWithAttr (mkSpan (mkPtok 7 "@lengthOf(" 34 4 95) (mkPtok 40 "," 38 16 108)) [(FALengthOf (mkSpan (mkPtok 7 "@lengthOf(" 34 4 95) (mkPtok 6 ")" 34 18 97)) (mkLengthOf (mkSpan (mkPtok 7 "@lengthOf(" 34 4 95) (mkPtok 6 ")" 34 18 97)) (mkPtok 7 "@lengthOf(" 34 4 95) (mkPtok 42 "int" 34 15 96) (mkPtok 6 ")" 34 18 97))); (FATag (mkSpan (mkPtok 9 "@tag(" 34 20 98) (mkPtok 6 ")" 35 8 100)) (mkTagAttr (mkSpan (mkPtok 9 "@tag(" 34 20 98) (mkPtok 6 ")" 35 8 100)) (mkPtok 9 "@tag(" 34 20 98) (mkPtok 30 "255" 35 4 99) (mkPtok 6 ")" 35 8 100))); (FAPadding (mkSpan (mkPtok 32 "@leftPad" 35 10 101) (mkPtok 6 ")" 36 4 103)) (mkPaddingAttr (mkSpan (mkPtok 32 "@leftPad" 35 10 101) (mkPtok 6 ")" 36 4 103)) (mkPtok 32 "@leftPad" 35 10 101) (mkPtok 8 "(" 35 18 102) None (mkPtok 6 ")" 36 4 103)))] (MetaField (mkSpan (mkPtok 36 "repeat" 37 0 104) (mkPtok 40 "," 38 16 108)) (Some (mkPtok 36 "repeat" 37 0 104)) (mkMetaDecl (mkSpan (mkPtok 24 "i8" 38 4 105) (mkPtok 40 "," 38 16 108)) (TyBasic (mkSpan (mkPtok 24 "i8" 38 4 105) (mkPtok 24 "i8" 38 4 105)) (mkBasicType (mkSpan (mkPtok 24 "i8" 38 4 105) (mkPtok 24 "i8" 38 4 105)) (mkPtok 24 "i8" 38 4 105))) (mkPtok 42 "uint8x" 38 7 106) (Some (mkPtok 43 "``" 38 13 107)) (mkPtok 40 "," 38 16 108))))] (mkPtok 3 "}" 38 18 109))); (DPacket (mkPacketDef (mkSpan (mkPtok 35 "packet" 38 20 110) (mkPtok 3 "}" 54 0 154)) None (mkPtok 35 "packet" 38 20 110) (mkPtok 42 "pack" 38 27 111) (mkPtok 2 "{" 39 4 112) [(mkFieldWithAttr (mkSpan (mkPtok 5 "@calculatedFrom(" 39 6 113) (mkPtok 40 "," 43 11 129)) [(FACalculatedFrom (mkSpan (mkPtok 5 "@calculatedFrom(" 39 6 113) (mkPtok 6 ")" 40 0 115)) (mkCalculatedFrom (mkSpan (mkPtok 5 "@calculatedFrom(" 39 6 113) (mkPtok 6 ")" 40 0 115)) (mkPtok 5 "@calculatedFrom(" 39 6 113) (mkPtok 31 """it's""" 39 23 114) (mkPtok 6 ")" 40 0 115)))] (InerObjectField (mkSpan (mkPtok 42 "Foo" 40 2 116) (mkPtok 40 "," 43 11 129)) None (InerObjectDecl (mkSpan (mkPtok 42 "Foo" 40 2 116) (mkPtok 3 "}" 43 8 128)) (mkPtok 42 "Foo" 40 2 116) (mkPtok 2 "{" 41 4 117) [(MetaField (mkSpan (mkPtok 16 "char[]" 41 6 118) (mkPtok 40 "," 42 0 121)) None (mkMetaDecl (mkSpan (mkPtok 16 "char[]" 41 6 118) (mkPtok 40 "," 42 0 121)) (TyDynamic (mkSpan (mkPtok 16 "char[]" 41 6 118) (mkPtok 16 "char[]" 41 6 118)) (mkDynamicString (mkSpan (mkPtok 16 "char[]" 41 6 118) (mkPtok 16 "char[]" 41 6 118)) (mkPtok 16 "char[]" 41 6 118))) (mkPtok 42 "calculatedFrom" 41 12 119) (Some (mkPtok 43 "``" 41 27 120)) (mkPtok 40 "," 42 0 121))); (MetaField (mkSpan (mkPtok 36 "repeat" 42 2 122) (mkPtok 40 "," 43 7 127)) (Some (mkPtok 36 "repeat" 42 2 122)) (mkMetaDecl (mkSpan (mkPtok 12 "char[" 42 9 123) (mkPtok 40 "," 43 7 127)) (TyFixed (mkSpan (mkPtok 12 "char[" 42 9 123) (mkPtok 13 "]" 43 0 125)) (mkFixedString (mkSpan (mkPtok 12 "char[" 42 9 123) (mkPtok 13 "]" 43 0 125)) (mkPtok 12 "char[" 42 9 123) (mkPtok 30 "3" 42 15 124) (mkPtok 13 "]" 43 0 125))) (mkPtok 42 "Header" 43 1 126) None (mkPtok 40 "," 43 7 127)))] (mkPtok 3 "}" 43 8 128)) (mkPtok 40 "," 43 11 129))); (mkFieldWithAttr (mkSpan (mkPtok 5 "@calculatedFrom(" 43 13 130) (mkPtok 40 "," 52 0 149)) [(FACalculatedFrom (mkSpan (mkPtok 5 "@calculatedFrom(" 43 13 130) (mkPtok 6 ")" 43 39 132)) (mkCalculatedFrom (mkSpan (mkPtok 5 "@calculatedFrom(" 43 13 130) (mkPtok 6 ")" 43 39 132)) (mkPtok 5 "@calculatedFrom(" 43 13 130) (mkPtok 31 """`tick`""" 43 30 131) (mkPtok 6 ")" 43 39 132))); (FACalculatedFrom (mkSpan (mkPtok 5 "@calculatedFrom(" 43 41 133) (mkPtok 6 ")" 44 13 135)) (mkCalculatedFrom (mkSpan (mkPtok 5 "@calculatedFrom(" 43 41 133) (mkPtok 6 ")" 44 13 135)) (mkPtok 5 "@calculatedFrom(" 43 41 133) (mkPtok 31 """packet""" 44 4 134) (mkPtok 6 ")" 44 13 135))); (FAPadding (mkSpan (mkPtok 32 "@leftPad" 45 0 137) (mkPtok 6 ")" 46 1 139)) (mkPaddingAttr (mkSpan (mkPtok 32 "@leftPad" 45 0 137) (mkPtok 6 ")" 46 1 139)) (mkPtok 32 "@leftPad" 45 0 137) (mkPtok 8 "(" 46 0 138) None (mkPtok 6 ")" 46 1 139)))] (CheckSumField (mkSpan (mkPtok 16 "char[]" 47 0 140) (mkPtok 40 "," 52 0 149)) (mkChecksumFieldDecl (mkSpan (mkPtok 16 "char[]" 47 0 140) (mkPtok 40 "," 52 0 149)) (Some (TyDynamic (mkSpan (mkPtok 16 "char[]" 47 0 140) (mkPtok 16 "char[]" 47 0 140)) (mkDynamicString (mkSpan (mkPtok 16 "char[]" 47 0 140) (mkPtok 16 "char[]" 47 0 140)) (mkPtok 16 "char[]" 47 0 140)))) (mkPtok 42 "repeatCount" 47 7 141) (mkCalculatedFrom (mkSpan (mkPtok 5 "@calculatedFrom(" 47 19 142) (mkPtok 6 ")" 48 8 145)) (mkPtok 5 "@calculatedFrom(" 47 19 142) (mkPtok 31 """packet""" 48 0 144) (mkPtok 6 ")" 48 8 145)) (Some (mkPtok 43 "`u8 x,`" 49 0 146)) (mkPtok 40 "," 52 0 149)))); (mkFieldWithAttr (mkSpan (mkPtok 20 "u8" 52 2 150) (mkPtok 40 "," 53 0 153)) [] (MetaField (mkSpan (mkPtok 20 "u8" 52 2 150) (mkPtok 40 "," 53 0 153)) None (mkMetaDecl (mkSpan (mkPtok 20 "u8" 52 2 150) (mkPtok 40 "," 53 0 153)) (TyBasic (mkSpan (mkPtok 20 "u8" 52 2 150) (mkPtok 20 "u8" 52 2 150)) (mkBasicType (mkSpan (mkPtok 20 "u8" 52 2 150) (mkPtok 20 "u8" 52 2 150)) (mkPtok 20 "u8" 52 2 150))) (mkPtok 42 "crc" 52 5 151) (Some (mkPtok 43 "`a\`" 52 9 152)) (mkPtok 40 "," 53 0 153))))] (mkPtok 3 "}" 54 0 154)))])).
-Eval vm_compute in ("<<<M1585>>>" ++ check (runes_of_ascii "packet falsey
-    {MetaDataX, } root
-packet A { @rightPad('\x00' )
-x_y_z string_ `tab	here` ,
-@tag( 10) match	Foo as
-    uint8x {
-    ""// no comment"": // " ++ [27880; 37322]%N ++ runes_of_ascii "
-repeatCount 3 // `tick` ""quote"" 'q'
-:	lengthOf
-    [	10 , ""a	b"" ,
-""a\""b""	] :	len
-    00//
-:len ,}
-    ,@calculatedFrom(
-""" ++ [233]%N ++ runes_of_ascii "t" ++ [233]%N ++ runes_of_ascii """  )char[]Z9_
-    ,	repeat stringy
-`tab	here`
-, match MetaDataX	as T { ""// no comment""	: Packet , 42
-: int ,	} , char[ 7
-] MetaDataX`a\` , msg_type chars ,
-    int8 msg_type`doc`
-,char[]
-    msg_type @calculatedFrom(
-""\n"" )
-, }packet x_y_z {
-}	root//
-packet float { @tag(65535 ) repeat char[] x_y_z
-, match asx as // c
-As
-{
-    4294967296 :u
-, 0 // " ++ [27880; 37322]%N ++ runes_of_ascii "
-:
-Foo""" ++ [128512]%N ++ runes_of_ascii """ : u
-    ,  00 :f32a ,255 : u
-    , }, len {
-    repeat pack { float32	len `tab	here` , char[ 10
-    ]
-u
-,Packet ,repeat i8 int
-    ,} , } ,@leftPad /// triple
-( ) @calculatedFrom( // `tick` ""quote"" 'q'
-""{,}""
-    ) repeat //x
-string
-    int, // a // b
-@tag( 0 ) i64 float // @lengthOf(
-@lengthOf( asx)
-// `tick` ""quote"" 'q'
-// " ++ [27880; 37322]%N ++ runes_of_ascii "
-`// not a comment` ,
-    @calculatedFrom( ""packet""  )
-@leftPad ( )
-repeat	uint64 o ,o
-    //x
-    { i8
-    Z9_ @calculatedFrom(
-    ""a	b""),	roots // `tick` ""quote"" 'q'
-`it's`  ,  i8i8 crc , } , @tag( 10 ) @lengthOf(
-    trueish ) @lengthOf( u128 )char[	42
-] falsey @lengthOf( crc ) , }")).
-Eval vm_compute in ("<<<M1617>>>" ++ check (runes_of_ascii "packet u128
-{
-    //	t
-    MetaDataX float
-`// not a comment` ,
-@tag( 7) match
-calculatedFrom as
-    pack {
-    0
-    :	int , 65535 //x
-: body , [	1
-    , 255 , 0123456789 ,
-    """ ++ [28040; 24687]%N ++ runes_of_ascii """ ,	0 ,  7 , """" ,
-""\" ++ [233]%N ++ runes_of_ascii """	]	: MetaDataX ,//	t
-""a	b""
-    : leftPad ,
-""x y""
-:
-    Logon
-    // trailing space 
-    """ ++ [233]%N ++ runes_of_ascii "t" ++ [233]%N ++ runes_of_ascii """ : Header	, }
-,
-    match len as packetx
-//x
-// `tick` ""quote"" 'q'
-{0 :
-// @lengthOf(
-// `tick` ""quote"" 'q'
-o , [""" ++ [128512]%N ++ runes_of_ascii """,
-""x y"" ] : crc /// triple
-,	10:options1 ,[ 42,
-//
-// " ++ [128512]%N ++ runes_of_ascii " emoji
-""a\""b""
-    /// triple
-    , 42 ,
-    7 ]
-:
-// @lengthOf(
-// a // b
-stringy
-// @lengthOf(
-/// triple
-,  } , @lengthOf(packetx  )
-i16 msg_type ,	} MetaData crc	{ float64 // packet A { u8 x, }
-stringy ,	char[]
-    chars `two words` ,u8x i64_
-,zchar[ 10 ]falsey, }
-packet msg_type{ }
-")).
-Eval vm_compute in ("<<<M1649>>>" ++ check (runes_of_ascii "packet roots { @calculatedFrom(	""\n""
-) f32
-crc@lengthOf( MetaDataX )
-`line1
-line2` ,
-    uint8
-    stringy  , }
-")).
-Eval vm_compute in ("<<<M1681>>>" ++ check (runes_of_ascii "options
-/// triple
-/// triple
-{  lengthOf// trailing space 
-= 255
-; x=	'0' ; crc=
-    '\x00' ;
-roots
-    = ""1"" ;}")).
-Eval vm_compute in ("<<<M1713>>>" ++ check (runes_of_ascii "MetaData
-    calculatedFrom
-    // a // b
-    {
-    // @lengthOf(
-    T
-int ,string i8i8 `// not a comment` ,i16
-charz
-/// triple
-/// triple
-`" ++ [28040; 24687; 31867; 22411]%N ++ runes_of_ascii "`
-    ,	u32 roots ,
-    } packet As
-{ @tag(
-10) @calculatedFrom( ""1"" ) len BodyLength `two words`, repeat
-char[] options1 `tab	here`, }  packet x_y_z // trailing space 
-{
-string
-    metadata	@lengthOf(
-    Pad	) ,
-@rightPad ( ) // " ++ [27880; 37322]%N ++ runes_of_ascii "
-@tag(10 //	t
-) u8x As, // a // b
-}
-")).
-Eval vm_compute in ("<<<M1745>>>" ++ check (runes_of_ascii "root
-packet charz{ u8 As@lengthOf(
-Header
-), }")).
-Eval vm_compute in ("<<<M1777>>>" ++ check (runes_of_ascii "options {  lengthOf	=
-    false ;
-    // c
-    calculatedFrom = 7
-    ; u8x /// triple
-=u8
-;msg_type
-= char[7]  } /// triple")).
-Eval vm_compute in ("<<<T1777>>>" ++ terms [mkTok 1 "options" 1 0 false; mkTok 2 "{" 1 8 false; mkTok 42 "lengthOf" 1 11 false; mkTok 4 "=" 1 20 false; mkTok 11 "false" 2 4 false; mkTok 41 ";" 2 10 false; mkTok 44 "// c" 3 4 true; mkTok 42 "calculatedFrom" 4 4 false; mkTok 4 "=" 4 19 false; mkTok 30 "7" 4 21 false; mkTok 41 ";" 5 4 false; mkTok 42 "u8x" 5 6 false; mkTok 44 "/// triple" 5 10 true; mkTok 4 "=" 6 0 false; mkTok 20 "u8" 6 1 false; mkTok 41 ";" 7 0 false; mkTok 42 "msg_type" 7 1 false; mkTok 4 "=" 8 0 false; mkTok 12 "char[" 8 2 false; mkTok 30 "7" 8 7 false; mkTok 13 "]" 8 8 false; mkTok 3 "}" 8 11 false; mkTok 44 "/// triple" 8 13 true; mkTok 0 "<EOF>" 8 23 false] (mkPacket (mkPtok 1 "options" 1 0 0) (Some (mkPtok 3 "}" 8 11 21)) [(DOption (mkOptionDef (mkSpan (mkPtok 1 "options" 1 0 0) (mkPtok 3 "}" 8 11 21)) (mkPtok 1 "options" 1 0 0) (mkPtok 2 "{" 1 8 1) [(mkOptionDecl (mkSpan (mkPtok 42 "lengthOf" 1 11 2) (mkPtok 41 ";" 2 10 5)) (mkPtok 42 "lengthOf" 1 11 2) (mkPtok 4 "=" 1 20 3) (VFalse (mkSpan (mkPtok 11 "false" 2 4 4) (mkPtok 11 "false" 2 4 4)) (mkPtok 11 "false" 2 4 4)) (Some (mkPtok 41 ";" 2 10 5))); (mkOptionDecl (mkSpan (mkPtok 42 "calculatedFrom" 4 4 7) (mkPtok 41 ";" 5 4 10)) (mkPtok 42 "calculatedFrom" 4 4 7) (mkPtok 4 "=" 4 19 8) (VDigits (mkSpan (mkPtok 30 "7" 4 21 9) (mkPtok 30 "7" 4 21 9)) (mkPtok 30 "7" 4 21 9)) (Some (mkPtok 41 ";" 5 4 10))); (mkOptionDecl (mkSpan (mkPtok 42 "u8x" 5 6 11) (mkPtok 41 ";" 7 0 15)) (mkPtok 42 "u8x" 5 6 11) (mkPtok 4 "=" 6 0 13) (VType (mkSpan (mkPtok 20 "u8" 6 1 14) (mkPtok 20 "u8" 6 1 14)) (TyBasic (mkSpan (mkPtok 20 "u8" 6 1 14) (mkPtok 20 "u8" 6 1 14)) (mkBasicType (mkSpan (mkPtok 20 "u8" 6 1 14) (mkPtok 20 "u8" 6 1 14)) (mkPtok 20 "u8" 6 1 14)))) (Some (mkPtok 41 ";" 7 0 15))); (mkOptionDecl (mkSpan (mkPtok 42 "msg_type" 7 1 16) (mkPtok 13 "]" 8 8 20)) (mkPtok 42 "msg_type" 7 1 16) (mkPtok 4 "=" 8 0 17) (VType (mkSpan (mkPtok 12 "char[" 8 2 18) (mkPtok 13 "]" 8 8 20)) (TyFixed (mkSpan (mkPtok 12 "char[" 8 2 18) (mkPtok 13 "]" 8 8 20)) (mkFixedString (mkSpan (mkPtok 12 "char[" 8 2 18) (mkPtok 13 "]" 8 8 20)) (mkPtok 12 "char[" 8 2 18) (mkPtok 30 "7" 8 7 19) (mkPtok 13 "]" 8 8 20)))) None)] (mkPtok 3 "}" 8 11 21)))])).
-Eval vm_compute in ("<<<M1809>>>" ++ check (runes_of_ascii "packet rootA
-    // trailing space 
-    { @tag(
-007
-    )	u32 x_y_z
-    `say ""hi""` , uint8 string_ , @calculatedFrom( ""1"") @calculatedFrom(
-    ""a\\"" // trailing space 
-) @tag( 4294967296 )repeat
-    string matchKey
-`crlf
-line` ,  }
-")).
-Eval vm_compute in ("<<<M1841>>>" ++ check (runes_of_ascii "
-options // trailing space 
-{stringy =
-10 int=
-    string
-; }
-")).
+u32 a1 // " ++ [27880; 37322]%N ++ runes_of_ascii "
+@calculatedFrom(
+""\n""
+    //
+    ) , char[]
+trueish @calculatedFrom(// " ++ [27880; 37322]%N ++ runes_of_ascii "
+""\" ++ [233]%N ++ runes_of_ascii """ )// c
+, }")).
 Eval vm_compute in ("<<<M1873>>>" ++ check (runes_of_ascii "packet
-    //	t
-    f32a {
-    A`` ,
-f64 As @lengthOf(
-trueish )
-,
-u64 u128
-    @lengthOf( len
-    ), @tag( 10 ) char[ 10 ] zchar
-    //	t
-    @lengthOf(
-    o /// triple
-) `" ++ [28040; 24687; 31867; 22411]%N ++ runes_of_ascii "` ,  match pack as trueish {	255 :
-Logon, [	""" ++ [28040; 24687]%N ++ runes_of_ascii """ ,65535, """ ++ [233]%N ++ runes_of_ascii "t" ++ [233]%N ++ runes_of_ascii """ ,"""" //x
-, ""it's"" ] :
-body , 65535 // trailing space 
-:u , 1 : x
-, } , repeat
-//
-// a // b
-zchar[
-007 ]
-    Pad ,  }
-")).
-Eval vm_compute in ("<<<M1905>>>" ++ check (runes_of_ascii "packet  pack
-{ @calculatedFrom(
-""x y""
-// packet A { u8 x, }
-// packet A { u8 x, }
-)char[ 0 ]
-o ,
-    // trailing space 
-    } //	t
-root
-    packet
-    // `tick` ""quote"" 'q'
-    u128{
-    i32 u@lengthOf(
-    Pad
+    pack//x
+{
+float64 u
+@lengthOf( u8x ) `say ""hi""`,char[]crc @calculatedFrom(
     // packet A { u8 x, }
-    ) , char Logon @calculatedFrom( ""x y""	) , }")).
-Eval vm_compute in ("<<<M1937>>>" ++ check (runes_of_ascii "packet int{ }
+    ""abc""
+    )
+,  repeat
+int16 Header , string // 50% %s
+chars , @tag( 4294967296
+    ) f32 trueish
+    @calculatedFrom(""{,}"" )
+`100% of %d`// `tick` ""quote"" 'q'
+, u128 pack ,
+@leftPad
+() uint32 matchKey  , @rightPad ( '\x00' )
+repeat Z9_ falsey  `crlf
+line` ,
+@rightPad ( ' ' ) char[ 7
+//	t
+//
+]packetx
+,
+match u8x as Z9_ {[0123456789
+// " ++ [27880; 37322]%N ++ runes_of_ascii "
+// @lengthOf(
+,
+// trailing space 
+// trailing space 
+""packet""  ] :
+lengthOf [ 0 , ""abc"" , 0 ]	:  len	,
+    007
+    :
+    i8i8 , ""it's""
+    : T , 255  : crc,
+1
+    :f32a } , }
+options{ i8i8=
+zchar[
+    007 ] u=
+""\n""}MetaData // " ++ [128512]%N ++ runes_of_ascii " emoji
+string_ {
+    // " ++ [27880; 37322]%N ++ runes_of_ascii "
+    f32	i8i8 ,}")).
+Eval vm_compute in ("<<<M1905>>>" ++ check (runes_of_ascii "packet
+    As{ @rightPad//	t
+(
+'0' ) int
+MetaDataX,
+@tag(10 ) float64 float
+@lengthOf( stringy) , repeat u , } // " ++ [27880; 37322]%N)).
+Eval vm_compute in ("<<<M1937>>>" ++ check (runes_of_ascii "packet Foo{
+@calculatedFrom(// a // b
+""{,}"")	match packetx as T	{ ""\n"" : options1
+, [3 ,
+0123456789
+    // trailing space 
+    ]:
+    chars
+[
+    ""a	b""
+// `tick` ""quote"" 'q'
+// trailing space 
+]
+:zchar ,} ,	float32 options1 ,@calculatedFrom(""" ++ [128512]%N ++ runes_of_ascii """)
+match repeatCount as T{ [ """" ,
+007 ]:
+// " ++ [27880; 37322]%N ++ runes_of_ascii "
+//
+int
+,
+    """ ++ [128512]%N ++ runes_of_ascii """
+:
+u8x ,	""a\\"" : len 3
+: a1,4294967296 :	int ,""1""// trailing space 
+: float
+    ,} ,a1 // `tick` ""quote"" 'q'
+repeatCount , @lengthOf(
+string_ ) @lengthOf( chars ) //
+repeat zchar pack // trailing space 
+,	} // " ++ [27880; 37322]%N ++ runes_of_ascii "
+MetaData
+lengthOf  {falsey u8x`two words` , x_y_z i64_ , leftPad
+    stringy , zchar[
+255
+    /// triple
+    ]
+    Packet	`" ++ [28040; 24687; 31867; 22411]%N ++ runes_of_ascii "` , char u128 `a\`// trailing space 
+, }
+    packet
+Header	{@tag( 42 ) a1	crc , match
+a1 as MetaDataX { [""// no comment"" ]
+: Packet, }	, }
 ")).
 Eval vm_compute in ("<<<M1969>>>" ++ check (runes_of_ascii "
-root packet chars { u128 @calculatedFrom(
-    // packet A { u8 x, }
-    ""\n""
-) `
-` ,  char[]	metadata ,
-@leftPad
-( ) u8x
-    u8x  , match lengthOf as
-    Foo {	0123456789
-: len , 4294967296 :As ,
-    // trailing space 
-    65535: roots	, ""`tick`"" :
-Header }
-, @tag(
-    0123456789
-    //	t
-    ) @tag(// `tick` ""quote"" 'q'
-255 ) @lengthOf( u) repeat// " ++ [27880; 37322]%N ++ runes_of_ascii "
-chars `u8 x,`
-    , char[] packetx , @rightPad( '0'
-    )
-@tag(
-0123456789 ) @calculatedFrom( ""// no comment"")
-int8 calculatedFrom	@lengthOf(u8x ) `it's`
-,
-    repeat u32 asx ,  }MetaData options1 {  i32 stringy
-,leftPad packetx `crlf
-line` , } root packet u {@tag( // `tick` ""quote"" 'q'
-42 ) //	t
-@lengthOf( metadata ) repeat uint8x `" ++ [28040; 24687; 31867; 22411]%N ++ runes_of_ascii "`, }")).
+")).
 Eval vm_compute in ("<<<M2001>>>" ++ check (runes_of_ascii "options {
 	StringPrefixLenType = u16;
 	ArrayPrefixLenType = u16;
@@ -1627,456 +1418,420 @@ packet Detail {
     u16 Code `" ++ [21407; 22240; 20195; 30721]%N ++ runes_of_ascii "`,
 }")).
 Eval vm_compute in ("<<<T2001>>>" ++ terms [mkTok 1 "options" 1 0 false; mkTok 2 "{" 1 8 false; mkTok 42 "StringPrefixLenType" 2 1 false; mkTok 4 "=" 2 21 false; mkTok 21 "u16" 2 23 false; mkTok 41 ";" 2 26 false; mkTok 42 "ArrayPrefixLenType" 3 1 false; mkTok 4 "=" 3 20 false; mkTok 21 "u16" 3 22 false; mkTok 41 ";" 3 25 false; mkTok 3 "}" 4 0 false; mkTok 35 "packet" 6 0 false; mkTok 42 "SampleBinary" 6 7 false; mkTok 2 "{" 6 20 false; mkTok 21 "uint16" 7 4 false; mkTok 42 "MsgType" 7 11 false; mkTok 43 (string_of_bytes [96; 230; 182; 136; 230; 129; 175; 231; 177; 187; 229; 158; 139; 96]%N) 7 19 false; mkTok 40 "," 7 25 false; mkTok 21 "u16" 8 4 false; mkTok 42 "BodyLenght" 8 8 false; mkTok 7 "@lengthOf(" 8 19 false; mkTok 42 "Body" 8 29 false; mkTok 6 ")" 8 33 false; mkTok 43 (string_of_bytes [96; 230; 182; 136; 230; 129; 175; 228; 189; 147; 233; 149; 191; 229; 186; 166; 96]%N) 8 35 false; mkTok 40 "," 8 42 false; mkTok 38 "match" 9 4 false; mkTok 42 "MsgType" 9 10 false; mkTok 17 "as" 9 18 false; mkTok 42 "Body" 9 21 false; mkTok 2 "{" 9 26 false; mkTok 30 "1" 10 8 false; mkTok 39 ":" 10 10 false; mkTok 42 "Logon" 10 12 false; mkTok 40 "," 10 17 false; mkTok 30 "2" 11 8 false; mkTok 39 ":" 11 10 false; mkTok 42 "Logout" 11 12 false; mkTok 40 "," 11 18 false; mkTok 30 "3" 12 8 false; mkTok 39 ":" 12 10 false; mkTok 42 "Heartbeat" 12 12 false; mkTok 40 "," 12 21 false; mkTok 30 "4" 13 8 false; mkTok 39 ":" 13 10 false; mkTok 42 "RiskControlRequest" 13 12 false; mkTok 40 "," 13 30 false; mkTok 30 "5" 14 8 false; mkTok 39 ":" 14 10 false; mkTok 42 "RiskControlResponse" 14 12 false; mkTok 40 "," 14 31 false; mkTok 3 "}" 15 4 false; mkTok 40 "," 15 5 false; mkTok 5 "@calculatedFrom(" 16 8 false; mkTok 31 """CRC32""" 16 24 false; mkTok 6 ")" 16 31 false; mkTok 22 "u32" 17 4 false; mkTok 42 "Ckecksum" 17 8 false; mkTok 43 (string_of_bytes [96; 230; 160; 161; 233; 170; 140; 229; 146; 140; 96]%N) 17 17 false; mkTok 40 "," 17 22 false; mkTok 3 "}" 18 0 false; mkTok 35 "packet" 20 0 false; mkTok 42 "Logon" 20 7 false; mkTok 2 "{" 20 13 false; mkTok 32 "@leftPad" 21 5 false; mkTok 8 "(" 21 13 false; mkTok 33 "'0'" 21 14 false; mkTok 6 ")" 21 17 false; mkTok 12 "char[" 22 4 false; mkTok 30 "10" 22 9 false; mkTok 13 "]" 22 11 false; mkTok 42 "UserName" 22 13 false; mkTok 43 (string_of_bytes [96; 231; 148; 168; 230; 136; 183; 229; 144; 141; 96]%N) 22 22 false; mkTok 40 "," 22 27 false; mkTok 15 "string" 23 4 false; mkTok 42 "Password" 23 11 false; mkTok 43 (string_of_bytes [96; 229; 175; 134; 231; 160; 129; 96]%N) 23 20 false; mkTok 40 "," 23 24 false; mkTok 23 "uint64" 24 4 false; mkTok 42 "ClientId" 24 11 false; mkTok 43 (string_of_bytes [96; 229; 174; 162; 230; 136; 183; 231; 171; 175; 73; 68; 96]%N) 24 20 false; mkTok 40 "," 24 27 false; mkTok 21 "u16" 25 4 false; mkTok 42 "HeartbeatInterval" 25 8 false; mkTok 43 (string_of_bytes [96; 229; 191; 131; 232; 183; 179; 233; 151; 180; 233; 154; 148; 96]%N) 25 26 false; mkTok 40 "," 25 32 false; mkTok 3 "}" 26 0 false; mkTok 35 "packet" 28 0 false; mkTok 42 "Logout" 28 7 false; mkTok 2 "{" 28 14 false; mkTok 32 "@rightPad" 29 6 false; mkTok 8 "(" 29 15 false; mkTok 33 "'0'" 29 16 false; mkTok 6 ")" 29 19 false; mkTok 12 "char[" 30 4 false; mkTok 30 "10" 30 9 false; mkTok 13 "]" 30 11 false; mkTok 42 "UserName" 30 13 false; mkTok 43 (string_of_bytes [96; 231; 148; 168; 230; 136; 183; 229; 144; 141; 96]%N) 30 22 false; mkTok 40 "," 30 27 false; mkTok 23 "uint64" 31 4 false; mkTok 42 "ClientId" 31 11 false; mkTok 43 (string_of_bytes [96; 229; 174; 162; 230; 136; 183; 231; 171; 175; 73; 68; 96]%N) 31 20 false; mkTok 40 "," 31 27 false; mkTok 3 "}" 32 0 false; mkTok 35 "packet" 34 0 false; mkTok 42 "Heartbeat" 34 7 false; mkTok 2 "{" 34 17 false; mkTok 3 "}" 35 0 false; mkTok 35 "packet" 37 0 false; mkTok 42 "RiskControlRequest" 37 7 false; mkTok 2 "{" 37 26 false; mkTok 15 "string" 38 4 false; mkTok 42 "UniqueOrderId" 38 11 false; mkTok 43 (string_of_bytes [96; 229; 148; 175; 228; 184; 128; 232; 174; 162; 229; 141; 149; 229; 143; 183; 96]%N) 38 25 false; mkTok 40 "," 38 32 false; mkTok 12 "char[" 39 4 false; mkTok 30 "16" 39 9 false; mkTok 13 "]" 39 11 false; mkTok 42 "ClOrdID" 39 13 false; mkTok 43 (string_of_bytes [96; 229; 174; 162; 230; 136; 183; 232; 174; 162; 229; 141; 149; 229; 143; 183; 96]%N) 39 21 false; mkTok 40 "," 39 28 false; mkTok 12 "char[" 40 4 false; mkTok 30 "3" 40 9 false; mkTok 13 "]" 40 10 false; mkTok 42 "MarketID" 40 12 false; mkTok 43 (string_of_bytes [96; 229; 184; 130; 229; 156; 186; 105; 100; 96]%N) 40 21 false; mkTok 40 "," 40 27 false; mkTok 12 "char[" 41 4 false; mkTok 30 "12" 41 9 false; mkTok 13 "]" 41 11 false; mkTok 42 "SecurityID" 41 13 false; mkTok 43 (string_of_bytes [96; 232; 175; 129; 229; 136; 184; 228; 187; 163; 231; 160; 129; 96]%N) 41 24 false; mkTok 40 "," 41 30 false; mkTok 19 "char" 42 4 false; mkTok 42 "Side" 42 9 false; mkTok 43 (string_of_bytes [96; 228; 185; 176; 229; 141; 150; 230; 150; 185; 229; 144; 145; 96]%N) 42 14 false; mkTok 40 "," 42 20 false; mkTok 19 "char" 43 4 false; mkTok 42 "OrderType" 43 9 false; mkTok 43 (string_of_bytes [96; 232; 174; 162; 229; 141; 149; 231; 177; 187; 229; 158; 139; 96]%N) 43 19 false; mkTok 40 "," 43 25 false; mkTok 23 "u64" 44 4 false; mkTok 42 "Price" 44 8 false; mkTok 43 (string_of_bytes [96; 228; 187; 183; 230; 160; 188; 96]%N) 44 14 false; mkTok 40 "," 44 18 false; mkTok 22 "u32" 45 4 false; mkTok 42 "Qty" 45 8 false; mkTok 43 (string_of_bytes [96; 230; 149; 176; 233; 135; 143; 96]%N) 45 12 false; mkTok 40 "," 45 16 false; mkTok 36 "repeat" 46 4 false; mkTok 15 "string" 46 11 false; mkTok 42 "ExtraInfo" 46 18 false; mkTok 43 (string_of_bytes [96; 233; 153; 132; 229; 138; 160; 228; 191; 161; 230; 129; 175; 96]%N) 46 28 false; mkTok 40 "," 46 34 false; mkTok 36 "repeat" 47 4 false; mkTok 42 "SubOrder" 47 11 false; mkTok 2 "{" 47 20 false; mkTok 12 "char[" 48 6 false; mkTok 30 "16" 48 11 false; mkTok 13 "]" 48 13 false; mkTok 42 "ClOrdID" 48 15 false; mkTok 43 (string_of_bytes [96; 229; 173; 144; 232; 174; 162; 229; 141; 149; 229; 143; 183; 96]%N) 48 23 false; mkTok 40 "," 48 29 false; mkTok 23 "u64" 49 6 false; mkTok 42 "Price" 49 10 false; mkTok 43 (string_of_bytes [96; 229; 173; 144; 232; 174; 162; 229; 141; 149; 228; 187; 183; 230; 160; 188; 96]%N) 49 16 false; mkTok 40 "," 49 23 false; mkTok 22 "u32" 50 6 false; mkTok 42 "Qty" 50 10 false; mkTok 43 (string_of_bytes [96; 229; 173; 144; 232; 174; 162; 229; 141; 149; 230; 149; 176; 233; 135; 143; 96]%N) 50 14 false; mkTok 40 "," 50 21 false; mkTok 3 "}" 51 5 false; mkTok 40 "," 51 6 false; mkTok 3 "}" 52 0 false; mkTok 35 "packet" 54 0 false; mkTok 42 "RiskControlResponse" 54 7 false; mkTok 2 "{" 54 27 false; mkTok 15 "string" 55 4 false; mkTok 42 "UniqueOrderId" 55 11 false; mkTok 43 (string_of_bytes [96; 229; 148; 175; 228; 184; 128; 232; 174; 162; 229; 141; 149; 229; 143; 183; 96]%N) 55 25 false; mkTok 40 "," 55 32 false; mkTok 26 "i32" 56 4 false; mkTok 42 "Status" 56 8 false; mkTok 43 (string_of_bytes [96; 231; 138; 182; 230; 128; 129; 96]%N) 56 15 false; mkTok 40 "," 56 19 false; mkTok 15 "string" 57 4 false; mkTok 42 "Msg" 57 11 false; mkTok 43 (string_of_bytes [96; 231; 187; 147; 230; 158; 156; 228; 191; 161; 230; 129; 175; 96]%N) 57 15 false; mkTok 40 "," 57 21 false; mkTok 36 "repeat" 58 4 false; mkTok 42 "Detail" 58 11 false; mkTok 40 "," 58 17 false; mkTok 3 "}" 59 0 false; mkTok 35 "packet" 61 0 false; mkTok 42 "Detail" 61 7 false; mkTok 2 "{" 61 14 false; mkTok 15 "string" 62 4 false; mkTok 42 "RuleName" 62 11 false; mkTok 43 (string_of_bytes [96; 232; 167; 132; 229; 136; 153; 229; 144; 141; 231; 167; 176; 96]%N) 62 20 false; mkTok 40 "," 62 26 false; mkTok 21 "u16" 63 4 false; mkTok 42 "Code" 63 8 false; mkTok 43 (string_of_bytes [96; 229; 142; 159; 229; 155; 160; 228; 187; 163; 231; 160; 129; 96]%N) 63 13 false; mkTok 40 "," 63 19 false; mkTok 3 "}" 64 0 false; mkTok 0 "<EOF>" 64 1 false] (mkPacket (mkPtok 1 "options" 1 0 0) (Some (mkPtok 3 "}" 64 0 204)) [(DOption (mkOptionDef (mkSpan (mkPtok 1 "options" 1 0 0) (mkPtok 3 "}" 4 0 10)) (mkPtok 1 "options" 1 0 0) (mkPtok 2 "{" 1 8 1) [(mkOptionDecl (mkSpan (mkPtok 42 "StringPrefixLenType" 2 1 2) (mkPtok 41 ";" 2 26 5)) (mkPtok 42 "StringPrefixLenType" 2 1 2) (mkPtok 4 "=" 2 21 3) (VType (mkSpan (mkPtok 21 "u16" 2 23 4) (mkPtok 21 "u16" 2 23 4)) (TyBasic (mkSpan (mkPtok 21 "u16" 2 23 4) (mkPtok 21 "u16" 2 23 4)) (mkBasicType (mkSpan (mkPtok 21 "u16" 2 23 4) (mkPtok 21 "u16" 2 23 4)) (mkPtok 21 "u16" 2 23 4)))) (Some (mkPtok 41 ";" 2 26 5))); (mkOptionDecl (mkSpan (mkPtok 42 "ArrayPrefixLenType" 3 1 6) (mkPtok 41 ";" 3 25 9)) (mkPtok 42 "ArrayPrefixLenType" 3 1 6) (mkPtok 4 "=" 3 20 7) (VType (mkSpan (mkPtok 21 "u16" 3 22 8) (mkPtok 21 "u16" 3 22 8)) (TyBasic (mkSpan (mkPtok 21 "u16" 3 22 8) (mkPtok 21 "u16" 3 22 8)) (mkBasicType (mkSpan (mkPtok 21 "u16" 3 22 8) (mkPtok 21 "u16" 3 22 8)) (mkPtok 21 "u16" 3 22 8)))) (Some (mkPtok 41 ";" 3 25 9)))] (mkPtok 3 "}" 4 0 10))); (DPacket (mkPacketDef (mkSpan (mkPtok 35 "packet" 6 0 11) (mkPtok 3 "}" 18 0 59)) None (mkPtok 35 "packet" 6 0 11) (mkPtok 42 "SampleBinary" 6 7 12) (mkPtok 2 "{" 6 20 13) [(mkFieldWithAttr (mkSpan (mkPtok 21 "uint16" 7 4 14) (mkPtok 40 "," 7 25 17)) [] (MetaField (mkSpan (mkPtok 21 "uint16" 7 4 14) (mkPtok 40 "," 7 25 17)) None (mkMetaDecl (mkSpan (mkPtok 21 "uint16" 7 4 14) (mkPtok 40 "," 7 25 17)) (TyBasic (mkSpan (mkPtok 21 "uint16" 7 4 14) (mkPtok 21 "uint16" 7 4 14)) (mkBasicType (mkSpan (mkPtok 21 "uint16" 7 4 14) (mkPtok 21 "uint16" 7 4 14)) (mkPtok 21 "uint16" 7 4 14))) (mkPtok 42 "MsgType" 7 11 15) (Some (mkPtok 43 (string_of_bytes [96; 230; 182; 136; 230; 129; 175; 231; 177; 187; 229; 158; 139; 96]%N) 7 19 16)) (mkPtok 40 "," 7 25 17)))); (mkFieldWithAttr (mkSpan (mkPtok 21 "u16" 8 4 18) (mkPtok 40 "," 8 42 24)) [] (LengthField (mkSpan (mkPtok 21 "u16" 8 4 18) (mkPtok 40 "," 8 42 24)) (mkLengthFieldDecl (mkSpan (mkPtok 21 "u16" 8 4 18) (mkPtok 40 "," 8 42 24)) (Some (TyBasic (mkSpan (mkPtok 21 "u16" 8 4 18) (mkPtok 21 "u16" 8 4 18)) (mkBasicType (mkSpan (mkPtok 21 "u16" 8 4 18) (mkPtok 21 "u16" 8 4 18)) (mkPtok 21 "u16" 8 4 18)))) (mkPtok 42 "BodyLenght" 8 8 19) (mkLengthOf (mkSpan (mkPtok 7 "@lengthOf(" 8 19 20) (mkPtok 6 ")" 8 33 22)) (mkPtok 7 "@lengthOf(" 8 19 20) (mkPtok 42 "Body" 8 29 21) (mkPtok 6 ")" 8 33 22)) (Some (mkPtok 43 (string_of_bytes [96; 230; 182; 136; 230; 129; 175; 228; 189; 147; 233; 149; 191; 229; 186; 166; 96]%N) 8 35 23)) (mkPtok 40 "," 8 42 24)))); (mkFieldWithAttr (mkSpan (mkPtok 38 "match" 9 4 25) (mkPtok 40 "," 15 5 51)) [] (MatchField (mkSpan (mkPtok 38 "match" 9 4 25) (mkPtok 40 "," 15 5 51)) (mkMatchFieldDecl (mkSpan (mkPtok 38 "match" 9 4 25) (mkPtok 3 "}" 15 4 50)) (mkPtok 38 "match" 9 4 25) (mkPtok 42 "MsgType" 9 10 26) (mkPtok 17 "as" 9 18 27) (mkPtok 42 "Body" 9 21 28) (mkPtok 2 "{" 9 26 29) [(mkMatchPair (mkSpan (mkPtok 30 "1" 10 8 30) (mkPtok 40 "," 10 17 33)) (MKDigits (mkPtok 30 "1" 10 8 30)) (mkPtok 39 ":" 10 10 31) (mkPtok 42 "Logon" 10 12 32) (Some (mkPtok 40 "," 10 17 33))); (mkMatchPair (mkSpan (mkPtok 30 "2" 11 8 34) (mkPtok 40 "," 11 18 37)) (MKDigits (mkPtok 30 "2" 11 8 34)) (mkPtok 39 ":" 11 10 35) (mkPtok 42 "Logout" 11 12 36) (Some (mkPtok 40 "," 11 18 37))); (mkMatchPair (mkSpan (mkPtok 30 "3" 12 8 38) (mkPtok 40 "," 12 21 41)) (MKDigits (mkPtok 30 "3" 12 8 38)) (mkPtok 39 ":" 12 10 39) (mkPtok 42 "Heartbeat" 12 12 40) (Some (mkPtok 40 "," 12 21 41))); (mkMatchPair (mkSpan (mkPtok 30 "4" 13 8 42) (mkPtok 40 "," 13 30 45)) (MKDigits (mkPtok 30 "4" 13 8 42)) (mkPtok 39 ":" 13 10 43) (mkPtok 42 "RiskControlRequest" 13 12 44) (Some (mkPtok 40 "," 13 30 45))); (mkMatchPair (mkSpan (mkPtok 30 "5" 14 8 46) (mkPtok 40 "," 14 31 49)) (MKDigits (mkPtok 30 "5" 14 8 46)) (mkPtok 39 ":" 14 10 47) (mkPtok 42 "RiskControlResponse" 14 12 48) (Some (mkPtok 40 "," 14 31 49)))] (mkPtok 3 "}" 15 4 50)) (mkPtok 40 "," 15 5 51))); (mkFieldWithAttr (mkSpan (mkPtok 5 "@calculatedFrom(" 16 8 52) (mkPtok 40 "," 17 22 58)) [(FACalculatedFrom (mkSpan (mkPtok 5 "@calculatedFrom(" 16 8 52) (mkPtok 6 ")" 16 31 54)) (mkCalculatedFrom (mkSpan (mkPtok 5 "@calculatedFrom(" 16 8 52) (mkPtok 6 ")" 16 31 54)) (mkPtok 5 "@calculatedFrom(" 16 8 52) (mkPtok 31 """CRC32""" 16 24 53) (mkPtok 6 ")" 16 31 54)))] (MetaField (mkSpan (mkPtok 22 "u32" 17 4 55) (mkPtok 40 "," 17 22 58)) None (mkMetaDecl (mkSpan (mkPtok 22 "u32" 17 4 55) (mkPtok 40 "," 17 22 58)) (TyBasic (mkSpan (mkPtok 22 "u32" 17 4 55) (mkPtok 22 "u32" 17 4 55)) (mkBasicType (mkSpan (mkPtok 22 "u32" 17 4 55) (mkPtok 22 "u32" 17 4 55)) (mkPtok 22 "u32" 17 4 55))) (mkPtok 42 "Ckecksum" 17 8 56) (Some (mkPtok 43 (string_of_bytes [96; 230; 160; 161; 233; 170; 140; 229; 146; 140; 96]%N) 17 17 57)) (mkPtok 40 "," 17 22 58))))] (mkPtok 3 "}" 18 0 59))); (DPacket (mkPacketDef (mkSpan (mkPtok 35 "packet" 20 0 60) (mkPtok 3 "}" 26 0 85)) None (mkPtok 35 "packet" 20 0 60) (mkPtok 42 "Logon" 20 7 61) (mkPtok 2 "{" 20 13 62) [(mkFieldWithAttr (mkSpan (mkPtok 32 "@leftPad" 21 5 63) (mkPtok 40 "," 22 27 72)) [(FAPadding (mkSpan (mkPtok 32 "@leftPad" 21 5 63) (mkPtok 6 ")" 21 17 66)) (mkPaddingAttr (mkSpan (mkPtok 32 "@leftPad" 21 5 63) (mkPtok 6 ")" 21 17 66)) (mkPtok 32 "@leftPad" 21 5 63) (mkPtok 8 "(" 21 13 64) (Some (mkPtok 33 "'0'" 21 14 65)) (mkPtok 6 ")" 21 17 66)))] (MetaField (mkSpan (mkPtok 12 "char[" 22 4 67) (mkPtok 40 "," 22 27 72)) None (mkMetaDecl (mkSpan (mkPtok 12 "char[" 22 4 67) (mkPtok 40 "," 22 27 72)) (TyFixed (mkSpan (mkPtok 12 "char[" 22 4 67) (mkPtok 13 "]" 22 11 69)) (mkFixedString (mkSpan (mkPtok 12 "char[" 22 4 67) (mkPtok 13 "]" 22 11 69)) (mkPtok 12 "char[" 22 4 67) (mkPtok 30 "10" 22 9 68) (mkPtok 13 "]" 22 11 69))) (mkPtok 42 "UserName" 22 13 70) (Some (mkPtok 43 (string_of_bytes [96; 231; 148; 168; 230; 136; 183; 229; 144; 141; 96]%N) 22 22 71)) (mkPtok 40 "," 22 27 72)))); (mkFieldWithAttr (mkSpan (mkPtok 15 "string" 23 4 73) (mkPtok 40 "," 23 24 76)) [] (MetaField (mkSpan (mkPtok 15 "string" 23 4 73) (mkPtok 40 "," 23 24 76)) None (mkMetaDecl (mkSpan (mkPtok 15 "string" 23 4 73) (mkPtok 40 "," 23 24 76)) (TyDynamic (mkSpan (mkPtok 15 "string" 23 4 73) (mkPtok 15 "string" 23 4 73)) (mkDynamicString (mkSpan (mkPtok 15 "string" 23 4 73) (mkPtok 15 "string" 23 4 73)) (mkPtok 15 "string" 23 4 73))) (mkPtok 42 "Password" 23 11 74) (Some (mkPtok 43 (string_of_bytes [96; 229; 175; 134; 231; 160; 129; 96]%N) 23 20 75)) (mkPtok 40 "," 23 24 76)))); (mkFieldWithAttr (mkSpan (mkPtok 23 "uint64" 24 4 77) (mkPtok 40 "," 24 27 80)) [] (MetaField (mkSpan (mkPtok 23 "uint64" 24 4 77) (mkPtok 40 "," 24 27 80)) None (mkMetaDecl (mkSpan (mkPtok 23 "uint64" 24 4 77) (mkPtok 40 "," 24 27 80)) (TyBasic (mkSpan (mkPtok 23 "uint64" 24 4 77) (mkPtok 23 "uint64" 24 4 77)) (mkBasicType (mkSpan (mkPtok 23 "uint64" 24 4 77) (mkPtok 23 "uint64" 24 4 77)) (mkPtok 23 "uint64" 24 4 77))) (mkPtok 42 "ClientId" 24 11 78) (Some (mkPtok 43 (string_of_bytes [96; 229; 174; 162; 230; 136; 183; 231; 171; 175; 73; 68; 96]%N) 24 20 79)) (mkPtok 40 "," 24 27 80)))); (mkFieldWithAttr (mkSpan (mkPtok 21 "u16" 25 4 81) (mkPtok 40 "," 25 32 84)) [] (MetaField (mkSpan (mkPtok 21 "u16" 25 4 81) (mkPtok 40 "," 25 32 84)) None (mkMetaDecl (mkSpan (mkPtok 21 "u16" 25 4 81) (mkPtok 40 "," 25 32 84)) (TyBasic (mkSpan (mkPtok 21 "u16" 25 4 81) (mkPtok 21 "u16" 25 4 81)) (mkBasicType (mkSpan (mkPtok 21 "u16" 25 4 81) (mkPtok 21 "u16" 25 4 81)) (mkPtok 21 "u16" 25 4 81))) (mkPtok 42 "HeartbeatInterval" 25 8 82) (Some (mkPtok 43 (string_of_bytes [96; 229; 191; 131; 232; 183; 179; 233; 151; 180; 233; 154; 148; 96]%N) 25 26 83)) (mkPtok 40 "," 25 32 84))))] (mkPtok 3 "}" 26 0 85))); (DPacket (mkPacketDef (mkSpan (mkPtok 35 "packet" 28 0 86) (mkPtok 3 "}" 32 0 103)) None (mkPtok 35 "packet" 28 0 86) (mkPtok 42 "Logout" 28 7 87) (mkPtok 2 "{" 28 14 88) [(mkFieldWithAttr (mkSpan (mkPtok 32 "@rightPad" 29 6 89) (mkPtok 40 "," 30 27 98)) [(FAPadding (mkSpan (mkPtok 32 "@rightPad" 29 6 89) (mkPtok 6 ")" 29 19 92)) (mkPaddingAttr (mkSpan (mkPtok 32 "@rightPad" 29 6 89) (mkPtok 6 ")" 29 19 92)) (mkPtok 32 "@rightPad" 29 6 89) (mkPtok 8 "(" 29 15 90) (Some (mkPtok 33 "'0'" 29 16 91)) (mkPtok 6 ")" 29 19 92)))] (MetaField (mkSpan (mkPtok 12 "char[" 30 4 93) (mkPtok 40 "," 30 27 98)) None (mkMetaDecl (mkSpan (mkPtok 12 "char[" 30 4 93) (mkPtok 40 "," 30 27 98)) (TyFixed (mkSpan (mkPtok 12 "char[" 30 4 93) (mkPtok 13 "]" 30 11 95)) (mkFixedString (mkSpan (mkPtok 12 "char[" 30 4 93) (mkPtok 13 "]" 30 11 95)) (mkPtok 12 "char[" 30 4 93) (mkPtok 30 "10" 30 9 94) (mkPtok 13 "]" 30 11 95))) (mkPtok 42 "UserName" 30 13 96) (Some (mkPtok 43 (string_of_bytes [96; 231; 148; 168; 230; 136; 183; 229; 144; 141; 96]%N) 30 22 97)) (mkPtok 40 "," 30 27 98)))); (mkFieldWithAttr (mkSpan (mkPtok 23 "uint64" 31 4 99) (mkPtok 40 "," 31 27 102)) [] (MetaField (mkSpan (mkPtok 23 "uint64" 31 4 99) (mkPtok 40 "," 31 27 102)) None (mkMetaDecl (mkSpan (mkPtok 23 "uint64" 31 4 99) (mkPtok 40 "," 31 27 102)) (TyBasic (mkSpan (mkPtok 23 "uint64" 31 4 99) (mkPtok 23 "uint64" 31 4 99)) (mkBasicType (mkSpan (mkPtok 23 "uint64" 31 4 99) (mkPtok 23 "uint64" 31 4 99)) (mkPtok 23 "uint64" 31 4 99))) (mkPtok 42 "ClientId" 31 11 100) (Some (mkPtok 43 (string_of_bytes [96; 229; 174; 162; 230; 136; 183; 231; 171; 175; 73; 68; 96]%N) 31 20 101)) (mkPtok 40 "," 31 27 102))))] (mkPtok 3 "}" 32 0 103))); (DPacket (mkPacketDef (mkSpan (mkPtok 35 "packet" 34 0 104) (mkPtok 3 "}" 35 0 107)) None (mkPtok 35 "packet" 34 0 104) (mkPtok 42 "Heartbeat" 34 7 105) (mkPtok 2 "{" 34 17 106) [] (mkPtok 3 "}" 35 0 107))); (DPacket (mkPacketDef (mkSpan (mkPtok 35 "packet" 37 0 108) (mkPtok 3 "}" 52 0 173)) None (mkPtok 35 "packet" 37 0 108) (mkPtok 42 "RiskControlRequest" 37 7 109) (mkPtok 2 "{" 37 26 110) [(mkFieldWithAttr (mkSpan (mkPtok 15 "string" 38 4 111) (mkPtok 40 "," 38 32 114)) [] (MetaField (mkSpan (mkPtok 15 "string" 38 4 111) (mkPtok 40 "," 38 32 114)) None (mkMetaDecl (mkSpan (mkPtok 15 "string" 38 4 111) (mkPtok 40 "," 38 32 114)) (TyDynamic (mkSpan (mkPtok 15 "string" 38 4 111) (mkPtok 15 "string" 38 4 111)) (mkDynamicString (mkSpan (mkPtok 15 "string" 38 4 111) (mkPtok 15 "string" 38 4 111)) (mkPtok 15 "string" 38 4 111))) (mkPtok 42 "UniqueOrderId" 38 11 112) (Some (mkPtok 43 (string_of_bytes [96; 229; 148; 175; 228; 184; 128; 232; 174; 162; 229; 141; 149; 229; 143; 183; 96]%N) 38 25 113)) (mkPtok 40 "," 38 32 114)))); (mkFieldWithAttr (mkSpan (mkPtok 12 "char[" 39 4 115) (mkPtok 40 "," 39 28 120)) [] (MetaField (mkSpan (mkPtok 12 "char[" 39 4 115) (mkPtok 40 "," 39 28 120)) None (mkMetaDecl (mkSpan (mkPtok 12 "char[" 39 4 115) (mkPtok 40 "," 39 28 120)) (TyFixed (mkSpan (mkPtok 12 "char[" 39 4 115) (mkPtok 13 "]" 39 11 117)) (mkFixedString (mkSpan (mkPtok 12 "char[" 39 4 115) (mkPtok 13 "]" 39 11 117)) (mkPtok 12 "char[" 39 4 115) (mkPtok 30 "16" 39 9 116) (mkPtok 13 "]" 39 11 117))) (mkPtok 42 "ClOrdID" 39 13 118) (Some (mkPtok 43 (string_of_bytes [96; 229; 174; 162; 230; 136; 183; 232; 174; 162; 229; 141; 149; 229; 143; 183; 96]%N) 39 21 119)) (mkPtok 40 "," 39 28 120)))); (mkFieldWithAttr (mkSpan (mkPtok 12 "char[" 40 4 121) (mkPtok 40 "," 40 27 126)) [] (MetaField (mkSpan (mkPtok 12 "char[" 40 4 121) (mkPtok 40 "," 40 27 126)) None (mkMetaDecl (mkSpan (mkPtok 12 "char[" 40 4 121) (mkPtok 40 "," 40 27 126)) (TyFixed (mkSpan (mkPtok 12 "char[" 40 4 121) (mkPtok 13 "]" 40 10 123)) (mkFixedString (mkSpan (mkPtok 12 "char[" 40 4 121) (mkPtok 13 "]" 40 10 123)) (mkPtok 12 "char[" 40 4 121) (mkPtok 30 "3" 40 9 122) (mkPtok 13 "]" 40 10 123))) (mkPtok 42 "MarketID" 40 12 124) (Some (mkPtok 43 (string_of_bytes [96; 229; 184; 130; 229; 156; 186; 105; 100; 96]%N) 40 21 125)) (mkPtok 40 "," 40 27 126)))); (mkFieldWithAttr (mkSpan (mkPtok 12 "char[" 41 4 127) (mkPtok 40 "," 41 30 132)) [] (MetaField (mkSpan (mkPtok 12 "char[" 41 4 127) (mkPtok 40 "," 41 30 132)) None (mkMetaDecl (mkSpan (mkPtok 12 "char[" 41 4 127) (mkPtok 40 "," 41 30 132)) (TyFixed (mkSpan (mkPtok 12 "char[" 41 4 127) (mkPtok 13 "]" 41 11 129)) (mkFixedString (mkSpan (mkPtok 12 "char[" 41 4 127) (mkPtok 13 "]" 41 11 129)) (mkPtok 12 "char[" 41 4 127) (mkPtok 30 "12" 41 9 128) (mkPtok 13 "]" 41 11 129))) (mkPtok 42 "SecurityID" 41 13 130) (Some (mkPtok 43 (string_of_bytes [96; 232; 175; 129; 229; 136; 184; 228; 187; 163; 231; 160; 129; 96]%N) 41 24 131)) (mkPtok 40 "," 41 30 132)))); (mkFieldWithAttr (mkSpan (mkPtok 19 "char" 42 4 133) (mkPtok 40 "," 42 20 136)) [] (MetaField (mkSpan (mkPtok 19 "char" 42 4 133) (mkPtok 40 "," 42 20 136)) None (mkMetaDecl (mkSpan (mkPtok 19 "char" 42 4 133) (mkPtok 40 "," 42 20 136)) (TyBasic (mkSpan (mkPtok 19 "char" 42 4 133) (mkPtok 19 "char" 42 4 133)) (mkBasicType (mkSpan (mkPtok 19 "char" 42 4 133) (mkPtok 19 "char" 42 4 133)) (mkPtok 19 "char" 42 4 133))) (mkPtok 42 "Side" 42 9 134) (Some (mkPtok 43 (string_of_bytes [96; 228; 185; 176; 229; 141; 150; 230; 150; 185; 229; 144; 145; 96]%N) 42 14 135)) (mkPtok 40 "," 42 20 136)))); (mkFieldWithAttr (mkSpan (mkPtok 19 "char" 43 4 137) (mkPtok 40 "," 43 25 140)) [] (MetaField (mkSpan (mkPtok 19 "char" 43 4 137) (mkPtok 40 "," 43 25 140)) None (mkMetaDecl (mkSpan (mkPtok 19 "char" 43 4 137) (mkPtok 40 "," 43 25 140)) (TyBasic (mkSpan (mkPtok 19 "char" 43 4 137) (mkPtok 19 "char" 43 4 137)) (mkBasicType (mkSpan (mkPtok 19 "char" 43 4 137) (mkPtok 19 "char" 43 4 137)) (mkPtok 19 "char" 43 4 137))) (mkPtok 42 "OrderType" 43 9 138) (Some (mkPtok 43 (string_of_bytes [96; 232; 174; 162; 229; 141; 149; 231; 177; 187; 229; 158; 139; 96]%N) 43 19 139)) (mkPtok 40 "," 43 25 140)))); (mkFieldWithAttr (mkSpan (mkPtok 23 "u64" 44 4 141) (mkPtok 40 "," 44 18 144)) [] (MetaField (mkSpan (mkPtok 23 "u64" 44 4 141) (mkPtok 40 "," 44 18 144)) None (mkMetaDecl (mkSpan (mkPtok 23 "u64" 44 4 141) (mkPtok 40 "," 44 18 144)) (TyBasic (mkSpan (mkPtok 23 "u64" 44 4 141) (mkPtok 23 "u64" 44 4 141)) (mkBasicType (mkSpan (mkPtok 23 "u64" 44 4 141) (mkPtok 23 "u64" 44 4 141)) (mkPtok 23 "u64" 44 4 141))) (mkPtok 42 "Price" 44 8 142) (Some (mkPtok 43 (string_of_bytes [96; 228; 187; 183; 230; 160; 188; 96]%N) 44 14 143)) (mkPtok 40 "," 44 18 144)))); (mkFieldWithAttr (mkSpan (mkPtok 22 "u32" 45 4 145) (mkPtok 40 "," 45 16 148)) [] (MetaField (mkSpan (mkPtok 22 "u32" 45 4 145) (mkPtok 40 "," 45 16 148)) None (mkMetaDecl (mkSpan (mkPtok 22 "u32" 45 4 145) (mkPtok 40 "," 45 16 148)) (TyBasic (mkSpan (mkPtok 22 "u32" 45 4 145) (mkPtok 22 "u32" 45 4 145)) (mkBasicType (mkSpan (mkPtok 22 "u32" 45 4 145) (mkPtok 22 "u32" 45 4 145)) (mkPtok 22 "u32" 45 4 145))) (mkPtok 42 "Qty" 45 8 146) (Some (mkPtok 43 (string_of_bytes [96; 230; 149; 176; 233; 135; 143; 96]%N) 45 12 147)) (mkPtok 40 "," 45 16 148)))); (mkFieldWithAttr (mkSpan (mkPtok 36 "repeat" 46 4 149) (mkPtok 40 "," 46 34 153)) [] (MetaField (mkSpan (mkPtok 36 "repeat" 46 4 149) (mkPtok 40 "," 46 34 153)) (Some (mkPtok 36 "repeat" 46 4 149)) (mkMetaDecl (mkSpan (mkPtok 15 "string" 46 11 150) (mkPtok 40 "," 46 34 153)) (TyDynamic (mkSpan (mkPtok 15 "string" 46 11 150) (mkPtok 15 "string" 46 11 150)) (mkDynamicString (mkSpan (mkPtok 15 "string" 46 11 150) (mkPtok 15 "string" 46 11 150)) (mkPtok 15 "string" 46 11 150))) (mkPtok 42 "ExtraInfo" 46 18 151) (Some (mkPtok 43 (string_of_bytes [96; 233; 153; 132; 229; 138; 160; 228; 191; 161; 230; 129; 175; 96]%N) 46 28 152)) (mkPtok 40 "," 46 34 153)))); (mkFieldWithAttr (mkSpan (mkPtok 36 "repeat" 47 4 154) (mkPtok 40 "," 51 6 172)) [] (InerObjectField (mkSpan (mkPtok 36 "repeat" 47 4 154) (mkPtok 40 "," 51 6 172)) (Some (mkPtok 36 "repeat" 47 4 154)) (InerObjectDecl (mkSpan (mkPtok 42 "SubOrder" 47 11 155) (mkPtok 3 "}" 51 5 171)) (mkPtok 42 "SubOrder" 47 11 155) (mkPtok 2 "{" 47 20 156) [(MetaField (mkSpan (mkPtok 12 "char[" 48 6 157) (mkPtok 40 "," 48 29 162)) None (mkMetaDecl (mkSpan (mkPtok 12 "char[" 48 6 157) (mkPtok 40 "," 48 29 162)) (TyFixed (mkSpan (mkPtok 12 "char[" 48 6 157) (mkPtok 13 "]" 48 13 159)) (mkFixedString (mkSpan (mkPtok 12 "char[" 48 6 157) (mkPtok 13 "]" 48 13 159)) (mkPtok 12 "char[" 48 6 157) (mkPtok 30 "16" 48 11 158) (mkPtok 13 "]" 48 13 159))) (mkPtok 42 "ClOrdID" 48 15 160) (Some (mkPtok 43 (string_of_bytes [96; 229; 173; 144; 232; 174; 162; 229; 141; 149; 229; 143; 183; 96]%N) 48 23 161)) (mkPtok 40 "," 48 29 162))); (MetaField (mkSpan (mkPtok 23 "u64" 49 6 163) (mkPtok 40 "," 49 23 166)) None (mkMetaDecl (mkSpan (mkPtok 23 "u64" 49 6 163) (mkPtok 40 "," 49 23 166)) (TyBasic (mkSpan (mkPtok 23 "u64" 49 6 163) (mkPtok 23 "u64" 49 6 163)) (mkBasicType (mkSpan (mkPtok 23 "u64" 49 6 163) (mkPtok 23 "u64" 49 6 163)) (mkPtok 23 "u64" 49 6 163))) (mkPtok 42 "Price" 49 10 164) (Some (mkPtok 43 (string_of_bytes [96; 229; 173; 144; 232; 174; 162; 229; 141; 149; 228; 187; 183; 230; 160; 188; 96]%N) 49 16 165)) (mkPtok 40 "," 49 23 166))); (MetaField (mkSpan (mkPtok 22 "u32" 50 6 167) (mkPtok 40 "," 50 21 170)) None (mkMetaDecl (mkSpan (mkPtok 22 "u32" 50 6 167) (mkPtok 40 "," 50 21 170)) (TyBasic (mkSpan (mkPtok 22 "u32" 50 6 167) (mkPtok 22 "u32" 50 6 167)) (mkBasicType (mkSpan (mkPtok 22 "u32" 50 6 167) (mkPtok 22 "u32" 50 6 167)) (mkPtok 22 "u32" 50 6 167))) (mkPtok 42 "Qty" 50 10 168) (Some (mkPtok 43 (string_of_bytes [96; 229; 173; 144; 232; 174; 162; 229; 141; 149; 230; 149; 176; 233; 135; 143; 96]%N) 50 14 169)) (mkPtok 40 "," 50 21 170)))] (mkPtok 3 "}" 51 5 171)) (mkPtok 40 "," 51 6 172)))] (mkPtok 3 "}" 52 0 173))); (DPacket (mkPacketDef (mkSpan (mkPtok 35 "packet" 54 0 174) (mkPtok 3 "}" 59 0 192)) None (mkPtok 35 "packet" 54 0 174) (mkPtok 42 "RiskControlResponse" 54 7 175) (mkPtok 2 "{" 54 27 176) [(mkFieldWithAttr (mkSpan (mkPtok 15 "string" 55 4 177) (mkPtok 40 "," 55 32 180)) [] (MetaField (mkSpan (mkPtok 15 "string" 55 4 177) (mkPtok 40 "," 55 32 180)) None (mkMetaDecl (mkSpan (mkPtok 15 "string" 55 4 177) (mkPtok 40 "," 55 32 180)) (TyDynamic (mkSpan (mkPtok 15 "string" 55 4 177) (mkPtok 15 "string" 55 4 177)) (mkDynamicString (mkSpan (mkPtok 15 "string" 55 4 177) (mkPtok 15 "string" 55 4 177)) (mkPtok 15 "string" 55 4 177))) (mkPtok 42 "UniqueOrderId" 55 11 178) (Some (mkPtok 43 (string_of_bytes [96; 229; 148; 175; 228; 184; 128; 232; 174; 162; 229; 141; 149; 229; 143; 183; 96]%N) 55 25 179)) (mkPtok 40 "," 55 32 180)))); (mkFieldWithAttr (mkSpan (mkPtok 26 "i32" 56 4 181) (mkPtok 40 "," 56 19 184)) [] (MetaField (mkSpan (mkPtok 26 "i32" 56 4 181) (mkPtok 40 "," 56 19 184)) None (mkMetaDecl (mkSpan (mkPtok 26 "i32" 56 4 181) (mkPtok 40 "," 56 19 184)) (TyBasic (mkSpan (mkPtok 26 "i32" 56 4 181) (mkPtok 26 "i32" 56 4 181)) (mkBasicType (mkSpan (mkPtok 26 "i32" 56 4 181) (mkPtok 26 "i32" 56 4 181)) (mkPtok 26 "i32" 56 4 181))) (mkPtok 42 "Status" 56 8 182) (Some (mkPtok 43 (string_of_bytes [96; 231; 138; 182; 230; 128; 129; 96]%N) 56 15 183)) (mkPtok 40 "," 56 19 184)))); (mkFieldWithAttr (mkSpan (mkPtok 15 "string" 57 4 185) (mkPtok 40 "," 57 21 188)) [] (MetaField (mkSpan (mkPtok 15 "string" 57 4 185) (mkPtok 40 "," 57 21 188)) None (mkMetaDecl (mkSpan (mkPtok 15 "string" 57 4 185) (mkPtok 40 "," 57 21 188)) (TyDynamic (mkSpan (mkPtok 15 "string" 57 4 185) (mkPtok 15 "string" 57 4 185)) (mkDynamicString (mkSpan (mkPtok 15 "string" 57 4 185) (mkPtok 15 "string" 57 4 185)) (mkPtok 15 "string" 57 4 185))) (mkPtok 42 "Msg" 57 11 186) (Some (mkPtok 43 (string_of_bytes [96; 231; 187; 147; 230; 158; 156; 228; 191; 161; 230; 129; 175; 96]%N) 57 15 187)) (mkPtok 40 "," 57 21 188)))); (mkFieldWithAttr (mkSpan (mkPtok 36 "repeat" 58 4 189) (mkPtok 40 "," 58 17 191)) [] (ObjectField (mkSpan (mkPtok 36 "repeat" 58 4 189) (mkPtok 40 "," 58 17 191)) (Some (mkPtok 36 "repeat" 58 4 189)) (mkPtok 42 "Detail" 58 11 190) None None (mkPtok 40 "," 58 17 191)))] (mkPtok 3 "}" 59 0 192))); (DPacket (mkPacketDef (mkSpan (mkPtok 35 "packet" 61 0 193) (mkPtok 3 "}" 64 0 204)) None (mkPtok 35 "packet" 61 0 193) (mkPtok 42 "Detail" 61 7 194) (mkPtok 2 "{" 61 14 195) [(mkFieldWithAttr (mkSpan (mkPtok 15 "string" 62 4 196) (mkPtok 40 "," 62 26 199)) [] (MetaField (mkSpan (mkPtok 15 "string" 62 4 196) (mkPtok 40 "," 62 26 199)) None (mkMetaDecl (mkSpan (mkPtok 15 "string" 62 4 196) (mkPtok 40 "," 62 26 199)) (TyDynamic (mkSpan (mkPtok 15 "string" 62 4 196) (mkPtok 15 "string" 62 4 196)) (mkDynamicString (mkSpan (mkPtok 15 "string" 62 4 196) (mkPtok 15 "string" 62 4 196)) (mkPtok 15 "string" 62 4 196))) (mkPtok 42 "RuleName" 62 11 197) (Some (mkPtok 43 (string_of_bytes [96; 232; 167; 132; 229; 136; 153; 229; 144; 141; 231; 167; 176; 96]%N) 62 20 198)) (mkPtok 40 "," 62 26 199)))); (mkFieldWithAttr (mkSpan (mkPtok 21 "u16" 63 4 200) (mkPtok 40 "," 63 19 203)) [] (MetaField (mkSpan (mkPtok 21 "u16" 63 4 200) (mkPtok 40 "," 63 19 203)) None (mkMetaDecl (mkSpan (mkPtok 21 "u16" 63 4 200) (mkPtok 40 "," 63 19 203)) (TyBasic (mkSpan (mkPtok 21 "u16" 63 4 200) (mkPtok 21 "u16" 63 4 200)) (mkBasicType (mkSpan (mkPtok 21 "u16" 63 4 200) (mkPtok 21 "u16" 63 4 200)) (mkPtok 21 "u16" 63 4 200))) (mkPtok 42 "Code" 63 8 201) (Some (mkPtok 43 (string_of_bytes [96; 229; 142; 159; 229; 155; 160; 228; 187; 163; 231; 160; 129; 96]%N) 63 13 202)) (mkPtok 40 "," 63 19 203))))] (mkPtok 3 "}" 64 0 204)))])).
-Eval vm_compute in ("<<<M2033>>>" ++ check (runes_of_ascii "options{ i64_ =")).
-Eval vm_compute in ("<<<M2065>>>" ++ check (runes_of_ascii "options{ i64_ = string ; trueish =
-    '\x00'
-    leftPad = ""a\\"" ""a\\"" /// triple
-; crc
-    = 255; uint8x
-=
-""abc""
-    ;}")).
-Eval vm_compute in ("<<<M2097>>>" ++ check (runes_of_ascii "options{ i64_ = string ; trueish =
-    '\x00'
-    leftPad = ""a\\"" /// triple
-; crc
-    = 255; (
-=
-""abc""
-    ;}")).
-Eval vm_compute in ("<<<M2129>>>" ++ check (runes_of_ascii "options{ i64_ = string ; trueish \ =
-    '\x00'
-    leftPad = ""a\\"" /// triple
-; crc
-    = 255; uint8x
-=
-""abc""
-    ;}")).
-Eval vm_compute in ("<<<M2161>>>" ++ check (runes_of_ascii "  packet
-asx
-{
-/// triple
-// @lengthOf(
-u32 stringy stringy
-`" ++ [28040; 24687; 31867; 22411]%N ++ runes_of_ascii "` ,} MetaData
-    A {string  _x, zchar Header `a\`
-// @lengthOf(
+Eval vm_compute in ("<<<M2033>>>" ++ check (runes_of_ascii "MetaData repeatCount { float64")).
+Eval vm_compute in ("<<<M2065>>>" ++ check (runes_of_ascii "MetaData repeatCount { float64 packetx,
+} root packet  metadata {
+char char _x @lengthOf( trueish ), @leftPad
+( ' '// " ++ [27880; 37322]%N ++ runes_of_ascii "
+)/// triple
+char[] len`doc` , // packet A { u8 x, }
+repeatCount , }
+")).
+Eval vm_compute in ("<<<M2097>>>" ++ check (runes_of_ascii "MetaData repeatCount { float64 packetx,
+} root packet  metadata {
+char _x @lengthOf( trueish ), packet
+( ' '// " ++ [27880; 37322]%N ++ runes_of_ascii "
+)/// triple
+char[] len`doc` , // packet A { u8 x, }
+repeatCount , }
+")).
+Eval vm_compute in ("<<<M2129>>>" ++ check (runes_of_ascii "MetaData repeatCount { float64 packetx,
+} root packet  metadata {
+char _x @lengthOf( trueish ), @leftPad
+( ' '// " ++ [27880; 37322]%N ++ runes_of_ascii "
+)/// triple
+char[] len`doc`  // packet A { u8 x, }
+repeatCount , }
+")).
+Eval vm_compute in ("<<<M2161>>>" ++ check (runes_of_ascii "MetaData repeatCount { float64 packetx,
+} root packet  metadata {
+char _x @lengthOf( trueish ), @leftPad
+( ' '// " ++ [27880; 37322]%N ++ runes_of_ascii "
+)/// triple
+char[] len`doc` , // packet A { u8 x, }
+" ++ [127]%N ++ runes_of_ascii " repeatCount , }
+")).
+Eval vm_compute in ("<<<M2193>>>" ++ check (runes_of_ascii "options{
+leftPad
+    =""" ++ [233]%N ++ runes_of_ascii "t" ++ [233]%N ++ runes_of_ascii """
+;
+a1 = true ; packetx=  '\x00' ; packetx
+=  """ ++ [28040; 24687]%N ++ runes_of_ascii """MetaDataX= // " ++ [27880; 37322]%N ++ runes_of_ascii "
+false }root // c
+packet // packet A { u8 x, }
+Pad { repeat
+u8 Header
 // packet A { u8 x, }
-, char[] MetaDataX
-,zchar[ 1 ]
-    matchKey
-    , char[] //
-u,	char[0123456789 ]
-    matchKey
-    `{ , }`, }
+//	t
+`{ , }`
+// a // b
+//x
+, }
 ")).
-Eval vm_compute in ("<<<M2193>>>" ++ check (runes_of_ascii "  packet
-asx
-{
-/// triple
-// @lengthOf(
-u32 stringy
-`" ++ [28040; 24687; 31867; 22411]%N ++ runes_of_ascii "` ,} MetaData
-    A @rightPad string  _x, zchar Header `a\`
-// @lengthOf(
+Eval vm_compute in ("<<<M2225>>>" ++ check (runes_of_ascii "options{
+leftPad
+    =65535
+;
+a1 = true ; packetx  '\x00' ; packetx
+=  """ ++ [28040; 24687]%N ++ runes_of_ascii """MetaDataX= // " ++ [27880; 37322]%N ++ runes_of_ascii "
+false }root // c
+packet // packet A { u8 x, }
+Pad { repeat
+u8 Header
 // packet A { u8 x, }
-, char[] MetaDataX
-,zchar[ 1 ]
-    matchKey
-    , char[] //
-u,	char[0123456789 ]
-    matchKey
-    `{ , }`, }
+//	t
+`{ , }`
+// a // b
+//x
+, }
 ")).
-Eval vm_compute in ("<<<M2225>>>" ++ check (runes_of_ascii "  packet
-asx
-{
-/// triple
-// @lengthOf(
-u32 stringy
-`" ++ [28040; 24687; 31867; 22411]%N ++ runes_of_ascii "` ,} MetaData
-    A {string  _x, zchar Header `a\`
-// @lengthOf(
+Eval vm_compute in ("<<<M2257>>>" ++ check (runes_of_ascii "options{
+leftPad
+    =65535
+;
+a1 = true ; packetx=  '\x00' ; packetx
+=  """ ++ [28040; 24687]%N ++ runes_of_ascii """=MetaDataX // " ++ [27880; 37322]%N ++ runes_of_ascii "
+false }root // c
+packet // packet A { u8 x, }
+Pad { repeat
+u8 Header
 // packet A { u8 x, }
- char[] MetaDataX
-,zchar[ 1 ]
-    matchKey
-    , char[] //
-u,	char[0123456789 ]
-    matchKey
-    `{ , }`, }
+//	t
+`{ , }`
+// a // b
+//x
+, }
 ")).
-Eval vm_compute in ("<<<M2257>>>" ++ check (runes_of_ascii "  packet
-asx
-{
-/// triple
-// @lengthOf(
-u32 stringy
-`" ++ [28040; 24687; 31867; 22411]%N ++ runes_of_ascii "` ,} MetaData
-    A {string  _x, zchar Header `a\`
-// @lengthOf(
+Eval vm_compute in ("<<<M2289>>>" ++ check (runes_of_ascii "options{
+leftPad
+    =65535
+;
+a1 = true ; packetx=  '\x00' ; packetx
+=  """ ++ [28040; 24687]%N ++ runes_of_ascii """MetaDataX= // " ++ [27880; 37322]%N ++ runes_of_ascii "
+false }root // c
+packet")).
+Eval vm_compute in ("<<<M2321>>>" ++ check (runes_of_ascii "options{
+leftPad
+    =65535
+;
+a1 = true ; packetx=  '\x00' ; packetx
+=  """ ++ [28040; 24687]%N ++ runes_of_ascii """MetaDataX= // " ++ [27880; 37322]%N ++ runes_of_ascii "
+false }root // c
+packet // packet A { u8 x, }
+Pad { repeat
+u8 Header
 // packet A { u8 x, }
-, char[] MetaDataX
-,zchar[ 1 matchKey
-    ]
-    , char[] //
-u,	char[0123456789 ]
-    matchKey
-    `{ , }`, }
+//	t
+`{ , }`
+// a // b
+//x
+, } }
 ")).
-Eval vm_compute in ("<<<M2289>>>" ++ check (runes_of_ascii "  packet
-asx
-{
-/// triple
-// @lengthOf(
-u32 stringy
-`" ++ [28040; 24687; 31867; 22411]%N ++ runes_of_ascii "` ,} MetaData
-    A {string  _x, zchar Header `a\`
-// @lengthOf(
-// packet A { u8 x, }
-, char[] MetaDataX
-,zchar[ 1 ]
-    matchKey
-    , char[] //
-u,")).
-Eval vm_compute in ("<<<M2321>>>" ++ check (runes_of_ascii "  packet
-asx
-{
-/// triple
-// @lengthOf(
-u32 stringy
-`" ++ [28040; 24687; 31867; 22411]%N ++ runes_of_ascii "` ,} MetaData
-    A {string  _x, zchar Header `a\`
-// @lengthOf(
-// packet A { u8 x, }
-, char[] MetaDataX
-,zchar[ 1 ]
-    matchKey
-    , char[] //
-u,	char[0123456789 ]
-    matchKey
- ")).
-Eval vm_compute in ("<<<M2353>>>" ++ check (runes_of_ascii "root
-    packet
-{
-Packet // trailing space 
-matchKey `tab	here` ,}")).
-Eval vm_compute in ("<<<M2385>>>" ++ check (runes_of_ascii "root
-    packet
-Packet
-{ // trailing space 
-matchKey `tab	here` " ++ [8232]%N ++ runes_of_ascii ",}")).
-Eval vm_compute in ("<<<M2417>>>" ++ check (runes_of_ascii "options{ falsey // a // b
-
-    '0' } options { repeatCount =
-true ; string_// a // b
-=
-// c
-// " ++ [27880; 37322]%N ++ runes_of_ascii "
-int64
-// trailing space 
-/// triple
-; } // @lengthOf(")).
-Eval vm_compute in ("<<<M2449>>>" ++ check (runes_of_ascii "options{ falsey // a // b
-=
-    '0' } options { repeatCount true
-= ; string_// a // b
-=
-// c
-// " ++ [27880; 37322]%N ++ runes_of_ascii "
-int64
-// trailing space 
-/// triple
-; } // @lengthOf(")).
-Eval vm_compute in ("<<<M2481>>>" ++ check (runes_of_ascii "options{ falsey // a // b
-=
-    '0' } options { repeatCount =
-true ; string_// a // b
-=
-// c
-// " ++ [27880; 37322]%N ++ runes_of_ascii "
-int64")).
-Eval vm_compute in ("<<<M2513>>>" ++ check (runes_of_ascii "options}root packet
-metadata {
-@lengthOf(x ) float32
-body ``, }
-    MetaData
-Z9_
-    {
-    string string_ , Logon x
-,
-uint32
-    // packet A { u8 x, }
-    Z9_,asx
-_x
-    `tab	here` , }
-")).
-Eval vm_compute in ("<<<M2545>>>" ++ check (runes_of_ascii "options{}root packet
-metadata {
-x@lengthOf( ) float32
-body ``, }
-    MetaData
-Z9_
-    {
-    string string_ , Logon x
-,
-uint32
-    // packet A { u8 x, }
-    Z9_,asx
-_x
-    `tab	here` , }
-")).
-Eval vm_compute in ("<<<M2577>>>" ++ check (runes_of_ascii "options{}root packet
-metadata {
-@lengthOf(x ) float32
-body ``")).
-Eval vm_compute in ("<<<M2609>>>" ++ check (runes_of_ascii "options{}root packet
-metadata {
-@lengthOf(x ) float32
-body ``, }
-    MetaData
-Z9_
-    {
-    string string_ , , Logon x
-,
-uint32
-    // packet A { u8 x, }
-    Z9_,asx
-_x
-    `tab	here` , }
-")).
-Eval vm_compute in ("<<<M2641>>>" ++ check (runes_of_ascii "options{}root packet
-metadata {
-@lengthOf(x ) float32
-body ``, }
-    MetaData
-Z9_
-    {
-    string string_ , Logon x
-,
-uint32
-    // packet A { u8 x, }
-    Z9_:asx
-_x
-    `tab	here` , }
-")).
-Eval vm_compute in ("<<<M2673>>>" ++ check (runes_of_ascii "options{}root packet
-metadata {
-@lengthOf(x ) float32
-body ``, }
-    M|etaData
-Z9_
-    {
-    string string_ , Logon x
-,
-uint32
-    // packet A { u8 x, }
-    Z9_,asx
-_x
-    `tab	here` , }
-")).
-Eval vm_compute in ("<<<M2705>>>" ++ check (runes_of_ascii "options {
-    falsey= =
-""a\\"" ; }")).
-Eval vm_compute in ("<<<M2737>>>" ++ check (runes_of_ascii "options {
-    fal""sey=
-""a\\"" ; }")).
-Eval vm_compute in ("<<<M2769>>>" ++ check (runes_of_ascii "MetaData f32a
-{
-    //	t
-    }")).
-Eval vm_compute in ("<<<M2801>>>" ++ check (runes_of_ascii "MetaData f32a
-{
-    //	t
-    }root
-    pa~cket tag  {
+Eval vm_compute in ("<<<M2353>>>" ++ check (runes_of_ascii "
+packet {
+float	@calculatedFrom( """ ++ [233]%N ++ runes_of_ascii "t" ++ [233]%N ++ runes_of_ascii """ )
+@rightPad ( '\x00' )
+    @calculatedFrom( ""x y"" ) string chars  ,
+    // a // b
+    char[0 ]
+    u	@lengthOf( i8i8 ) `{ , }` ,repeat char[] o //x
+`// not a comment`, } // c")).
+Eval vm_compute in ("<<<M2385>>>" ++ check (runes_of_ascii "
+packet float
+{	@calculatedFrom( """ ++ [233]%N ++ runes_of_ascii "t" ++ [233]%N ++ runes_of_ascii """ )
+@rightPad")).
+Eval vm_compute in ("<<<M2417>>>" ++ check (runes_of_ascii "
+packet float
+{	@calculatedFrom( """ ++ [233]%N ++ runes_of_ascii "t" ++ [233]%N ++ runes_of_ascii """ )
+@rightPad ( '\x00' )
+    @calculatedFrom( ""x y"" ) string chars chars  ,
+    // a // b
+    char[0 ]
+    u	@lengthOf( i8i8 ) `{ , }` ,repeat char[] o //x
+`// not a comment`, } // c")).
+Eval vm_compute in ("<<<M2449>>>" ++ check (runes_of_ascii "
+packet float
+{	@calculatedFrom( """ ++ [233]%N ++ runes_of_ascii "t" ++ [233]%N ++ runes_of_ascii """ )
+@rightPad ( '\x00' )
+    @calculatedFrom( ""x y"" ) string chars  ,
+    // a // b
+    char[0 ]
+    u	repeat i8i8 ) `{ , }` ,repeat char[] o //x
+`// not a comment`, } // c")).
+Eval vm_compute in ("<<<M2481>>>" ++ check (runes_of_ascii "
+packet float
+{	@calculatedFrom( """ ++ [233]%N ++ runes_of_ascii "t" ++ [233]%N ++ runes_of_ascii """ )
+@rightPad ( '\x00' )
+    @calculatedFrom( ""x y"" ) string chars  ,
+    // a // b
+    char[0 ]
+    u	@lengthOf( i8i8 ) `{ , }` ,repeat char[]  //x
+`// not a comment`, } // c")).
+Eval vm_compute in ("<<<M2513>>>" ++ check (runes_of_ascii "
+packet float
+{	@calculatedFrom( """ ++ [233]%N ++ runes_of_ascii "t" ++ [233]%N ++ runes_of_ascii """ )
+@leftpad@rightPad ( '\x00' )
+    @calculatedFrom( ""x y"" ) string chars  ,
+    // a // b
+    char[0 ]
+    u	@lengthOf( i8i8 ) `{ , }` ,repeat char[] o //x
+`// not a comment`, } // c")).
+Eval vm_compute in ("<<<M2545>>>" ++ check (runes_of_ascii "root packet u128{
+    }
+    zchar[ 65535 ] u `" ++ [28040; 24687; 31867; 22411]%N ++ runes_of_ascii "` ,// `tick` ""quote"" 'q'
+} packet i64_ {repeatCount
+    `
+` ,	} // " ++ [128512]%N ++ runes_of_ascii " emoji")).
+Eval vm_compute in ("<<<M2577>>>" ++ check (runes_of_ascii "root packet u128{
+    repeat
+    zchar[ 65535 ] u `" ++ [28040; 24687; 31867; 22411]%N ++ runes_of_ascii "` ,// `tick` ""quote"" 'q'
+ packet i64_ {repeatCount
+    `
+` ,	} // " ++ [128512]%N ++ runes_of_ascii " emoji")).
+Eval vm_compute in ("<<<M2609>>>" ++ check (runes_of_ascii "root packet u128{
+    repeat
+    zchar[ 65535 ] u `" ++ [28040; 24687; 31867; 22411]%N ++ runes_of_ascii "` ,// `tick` ""quote"" 'q'
+} packet i64_ {repeatCount
+    `
+` }	, // " ++ [128512]%N ++ runes_of_ascii " emoji")).
+Eval vm_compute in ("<<<M2641>>>" ++ check (runes_of_ascii "
+char[
+roots { int8
+    BodyLength ,//	t
 }
 ")).
+Eval vm_compute in ("<<<M2673>>>" ++ check (runes_of_ascii "
+MetaData
+roots { int8
+    BodyLength")).
+Eval vm_compute in ("<<<M2705>>>" ++ check (runes_of_ascii "options {Packet Packet = ""CRC32""i8i8 = false; leftPad =
+    '\x00'
+    // `tick` ""quote"" 'q'
+    ; o=255  ;
+    // packet A { u8 x, }
+    }")).
+Eval vm_compute in ("<<<M2737>>>" ++ check (runes_of_ascii "options {Packet = ""CRC32""i8i8 = false[ leftPad =
+    '\x00'
+    // `tick` ""quote"" 'q'
+    ; o=255  ;
+    // packet A { u8 x, }
+    }")).
+Eval vm_compute in ("<<<M2769>>>" ++ check (runes_of_ascii "options {Packet = ""CRC32""i8i8 = false; leftPad =
+    '\x00'
+    // `tick` ""quote"" 'q'
+    ; o=  ;
+    // packet A { u8 x, }
+    }")).
+Eval vm_compute in ("<<<M2801>>>" ++ check (runes_of_ascii "options {Packet = ""CRC32""i8i8 = false; leftPad'\x01' =
+    '\x00'
+    // `tick` ""quote"" 'q'
+    ; o=255  ;
+    // packet A { u8 x, }
+    }")).
 Eval vm_compute in ("<<<M2833>>>" ++ check (runes_of_ascii "
-options
-    {msg_type =
-    }  float32 root
-packet Z9_{ char /// triple
-crc @lengthOf(
-options1 ) //
-,} MetaData a1{}
-")).
+packet metadata { @rightPad (
+    // packet A { u8 x, }
+    repeat ) repeat u32	A
+,matchKey ,
+    @lengthOf( string_ ) @lengthOf( body )
+    // a // b
+    @lengthOf(float  )	repeat
+int32 u8x
+    // c
+    `tab	here`
+, } // a // b")).
 Eval vm_compute in ("<<<M2865>>>" ++ check (runes_of_ascii "
-options
-    {msg_type =
-    float32  }root
-packet Z9_{")).
+packet metadata { @rightPad (
+    // packet A { u8 x, }
+    ' ' ) repeat u32	A
+,matchKey 
+    @lengthOf( string_ ) @lengthOf( body )
+    // a // b
+    @lengthOf(float  )	repeat
+int32 u8x
+    // c
+    `tab	here`
+, } // a // b")).
 Eval vm_compute in ("<<<M2897>>>" ++ check (runes_of_ascii "
-options
-    {msg_type =
-    float32  }root
-packet Z9_{ char /// triple
-crc @lengthOf(
-options1 ) //
-,} MetaData MetaData a1{}
-")).
+packet metadata { @rightPad (
+    // packet A { u8 x, }
+    ' ' ) repeat u32	A
+,matchKey ,
+    @lengthOf( string_ ) @lengthOf( body @lengthOf(
+    // a // b
+    )float  )	repeat
+int32 u8x
+    // c
+    `tab	here`
+, } // a // b")).
 Eval vm_compute in ("<<<M2929>>>" ++ check (runes_of_ascii "
-options
-    {msg_type =
-    float32  }root
-packet Z9_{ char /// triple
-crc @lengthOf(
-options1 ) //
-,} MetaDat`a a1{}
-")).
-Eval vm_compute in ("<<<M2961>>>" ++ check (runes_of_ascii "packet crc{ // " ++ [128512]%N ++ runes_of_ascii " emoji
-repeat")).
-Eval vm_compute in ("<<<M2993>>>" ++ check (runes_of_ascii "packet crc{ // " ++ [128512]%N ++ runes_of_ascii " emoji
-repeat string i8i8
-`a\`, }
-|")).
-Eval vm_compute in ("<<<M3025>>>" ++ check (runes_of_ascii "packet BodyLength {} zchar MetaData{ zchar[// @lengthOf(
-42 ]
-    pack , string_
-A , char[]crc , _x trueish ,
-// " ++ [27880; 37322]%N ++ runes_of_ascii "
-// " ++ [128512]%N ++ runes_of_ascii " emoji
-zchar[
-    3 ]	T // trailing space 
-, } packet body
-{
-    }
-")).
-Eval vm_compute in ("<<<M3057>>>" ++ check (runes_of_ascii "packet BodyLength {} MetaData zchar{ zchar[// @lengthOf(
-42 ]")).
-Eval vm_compute in ("<<<M3089>>>" ++ check (runes_of_ascii "packet BodyLength {} MetaData zchar{ zchar[// @lengthOf(
-42 ]
-    pack , string_
-A , char[]crc , , _x trueish ,
-// " ++ [27880; 37322]%N ++ runes_of_ascii "
-// " ++ [128512]%N ++ runes_of_ascii " emoji
-zchar[
-    3 ]	T // trailing space 
-, } packet body
-{
-    }
-")).
-Eval vm_compute in ("<<<M3121>>>" ++ check (runes_of_ascii "packet BodyLength {} MetaData zchar{ zchar[// @lengthOf(
-42 ]
-    pack , string_
-A , char[]crc , _x trueish ,
-// " ++ [27880; 37322]%N ++ runes_of_ascii "
-// " ++ [128512]%N ++ runes_of_ascii " emoji
-zchar[
-    3 @calculatedFrom(	T // trailing space 
-, } packet body
-{
-    }
-")).
-Eval vm_compute in ("<<<M3153>>>" ++ check (runes_of_ascii "packet BodyLength {} MetaData zchar{ zchar[// @lengthOf(
-42 ]
-    pack , string_
-A , char[]crc , _x trueish ,
-// " ++ [27880; 37322]%N ++ runes_of_ascii "
-// " ++ [128512]%N ++ runes_of_ascii " emoji
-zchar[
-    3 ]	T // trailing space 
-, } packet body
-{
-    
-")).
-Eval vm_compute in ("<<<M3185>>>" ++ check (runes_of_ascii "packet
-string_ string_ {@lengthOf( int ) match packetx as f32a {
-    1 :	calculatedFrom , }  ,
-    } packet len
-    //	t
-    { @calculatedFrom( """ ++ [233]%N ++ runes_of_ascii "t" ++ [233]%N ++ runes_of_ascii """ ) body Header , char[] lengthOf  `two words` ,chars{repeat string_ matchKey ,
-    } ,
-    }
-")).
-Eval vm_compute in ("<<<M3217>>>" ++ check (runes_of_ascii "packet
-string_ {@lengthOf( int ) match @rightPad as f32a {
-    1 :	calculatedFrom , }  ,
-    } packet len
-    //	t
-    { @calculatedFrom( """ ++ [233]%N ++ runes_of_ascii "t" ++ [233]%N ++ runes_of_ascii """ ) body Header , char[] lengthOf  `two words` ,chars{repeat string_ matchKey ,
-    } ,
-    }
-")).
-Eval vm_compute in ("<<<M3249>>>" ++ check (runes_of_ascii "packet
-string_ {@lengthOf( int ) match packetx as f32a {
-    1 :	calculatedFrom  }  ,
-    } packet len
-    //	t
-    { @calculatedFrom( """ ++ [233]%N ++ runes_of_ascii "t" ++ [233]%N ++ runes_of_ascii """ ) body Header , char[] lengthOf  `two words` ,chars{repeat string_ matchKey ,
-    } ,
-    }
-")).
-Eval vm_compute in ("<<<M3281>>>" ++ check (runes_of_ascii "packet
-string_ {@lengthOf( int ) match packetx as f32a {
-    1 :	calculatedFrom , }  ,
-    } packet len
-    //	t
-    @calculatedFrom( { """ ++ [233]%N ++ runes_of_ascii "t" ++ [233]%N ++ runes_of_ascii """ ) body Header , char[] lengthOf  `two words` ,chars{repeat string_ matchKey ,
-    } ,
-    }
-")).
-Eval vm_compute in ("<<<M3313>>>" ++ check (runes_of_ascii "packet
-string_ {@lengthOf( int ) match packetx as f32a {
-    1 :	calculatedFrom , }  ,
-    } packet len
-    //	t
-    { @calculatedFrom( """ ++ [233]%N ++ runes_of_ascii "t" ++ [233]%N ++ runes_of_ascii """ ) body Header")).
-Eval vm_compute in ("<<<M3345>>>" ++ check (runes_of_ascii "packet
-string_ {@lengthOf( int ) match packetx as f32a {
-    1 :	calculatedFrom , }  ,
-    } packet len
-    //	t
-    { @calculatedFrom( """ ++ [233]%N ++ runes_of_ascii "t" ++ [233]%N ++ runes_of_ascii """ ) body Header , char[] lengthOf  `two words` ,chars{repeat repeat string_ matchKey ,
-    } ,
-    }
-")).
-Eval vm_compute in ("<<<M3377>>>" ++ check (runes_of_ascii "packet
-string_ {@lengthOf( int ) match packetx as f32a {
-    1 :	calculatedFrom , }  ,
-    } packet len
-    //	t
-    { @calculatedFrom( """ ++ [233]%N ++ runes_of_ascii "t" ++ [233]%N ++ runes_of_ascii """ ) body Header , char[] lengthOf  `two words` ,chars{repeat string_ matchKey ,
-    } ,")).
-Eval vm_compute in ("<<<M3409>>>" ++ check (runes_of_ascii "/// triple
-root
-packet // packet A { u8 x, }
-chars { @lengthOf() charz
-stringy,  @tag(  0 ) // a // b
-asx
-    As
+packet metadata { @rightPad (
+    // packet A { u8 x, }
+    ' ' ) repeat u32	A
+,matchKey ,
+    @lengthOf( string_ ) @lengthOf( body )
+    // a // b
+    @lengthOf(float  )	repeat
+int32")).
+Eval vm_compute in ("<<<M2961>>>" ++ check (runes_of_ascii "
+packet metadata { @rightPad (
+    // packet A { u8 x, }
+    ' ' ) repeat u32	A
+,matchKey ,
+    @lengthOf( string_ ) @lengthOf( body )
+    // a // b
+    @lengthOf(float  )	repeat
+int32 u8x
+    // c
+    `tab	here`
+, } // a // b@x ")).
+Eval vm_compute in ("<<<M2993>>>" ++ check (runes_of_ascii "packet x{
+string
+zchar } //	t
 ,
-// trailing space 
-// trailing space 
-x_y_z {
-repeat i16 charz , } ,	int16  crc ,}
 ")).
-Eval vm_compute in ("<<<M3441>>>" ++ check (runes_of_ascii "/// triple
-root
-packet // packet A { u8 x, }
-chars { @lengthOf(charz )
-stringy,  @tag(  0 ) ) // a // b
-asx
-    As
-,
-// trailing space 
-// trailing space 
-x_y_z {
-repeat i16 charz , } ,	int16  crc ,}
+Eval vm_compute in ("<<<M3025>>>" ++ check (runes_of_ascii "
+] Logon
+{ // c
+}root packet
+    Pad {
+    } options
+{
+u
+    =
+    ""CRC32""
+    // " ++ [128512]%N ++ runes_of_ascii " emoji
+    i64_ = u16;
+T =65535 x = ' '
+    ; u128
+= true ; }")).
+Eval vm_compute in ("<<<M3057>>>" ++ check (runes_of_ascii "
+MetaData Logon
+{ // c
+}root packet
+    Pad 
+    } options
+{
+u
+    =
+    ""CRC32""
+    // " ++ [128512]%N ++ runes_of_ascii " emoji
+    i64_ = u16;
+T =65535 x = ' '
+    ; u128
+= true ; }")).
+Eval vm_compute in ("<<<M3089>>>" ++ check (runes_of_ascii "
+MetaData Logon
+{ // c
+}root packet
+    Pad {
+    } options
+{
+u
+    =
+    i64_
+    // " ++ [128512]%N ++ runes_of_ascii " emoji
+    ""CRC32"" = u16;
+T =65535 x = ' '
+    ; u128
+= true ; }")).
+Eval vm_compute in ("<<<M3121>>>" ++ check (runes_of_ascii "
+MetaData Logon
+{ // c
+}root packet
+    Pad {
+    } options
+{
+u
+    =
+    ""CRC32""
+    // " ++ [128512]%N ++ runes_of_ascii " emoji
+    i64_ = u16;
+T")).
+Eval vm_compute in ("<<<M3153>>>" ++ check (runes_of_ascii "
+MetaData Logon
+{ // c
+}root packet
+    Pad {
+    } options
+{
+u
+    =
+    ""CRC32""
+    // " ++ [128512]%N ++ runes_of_ascii " emoji
+    i64_ = u16;
+T =65535 x = ' '
+    ; u128
+= = true ; }")).
+Eval vm_compute in ("<<<M3185>>>" ++ check (runes_of_ascii "
+MetaData Logon
+{ // c
+}root packet
+    Pad {
+    } op@leftpadtions
+{
+u
+    =
+    ""CRC32""
+    // " ++ [128512]%N ++ runes_of_ascii " emoji
+    i64_ = u16;
+T =65535 x = ' '
+    ; u128
+= true ; }")).
+Eval vm_compute in ("<<<M3217>>>" ++ check (runes_of_ascii "MetaData body{}")).
+Eval vm_compute in ("<<<M3249>>>" ++ check (runes_of_ascii "MetaData body{}
+packet	Packet { x_y_z @calculatedFrom(  ""a\\"")// `tick` ""quote"" 'q'
+, , }
 ")).
-Eval vm_compute in ("<<<M3473>>>" ++ check (runes_of_ascii "/// triple
-root
-packet // packet A { u8 x, }
-chars { @lengthOf(charz )
-stringy,  @tag(  0 ) // a // b
-asx
-    As
-,
-// trailing space 
-// trailing space 
-x_y_z {
-repeat i16 charz ,  ,	int16  crc ,}
+Eval vm_compute in ("<<<M3281>>>" ++ check (runes_of_ascii "f32a packet {} root packet len {repeat u // " ++ [128512]%N ++ runes_of_ascii " emoji
+`{ , }` , }
 ")).
+Eval vm_compute in ("<<<M3313>>>" ++ check (runes_of_ascii "packet f32a {} root packet")).
+Eval vm_compute in ("<<<M3345>>>" ++ check (runes_of_ascii "packet f32a {} root pac")).
+Eval vm_compute in ("<<<M3377>>>" ++ check (runes_of_ascii "options{ _x=""\" ++ [233]%N ++ runes_of_ascii """;
+    Logon = 10	; Foo= ;
+i64_= char[]} options {
+matchKey = ""// no comment"" // a // b
+falsey = string
+; trueish =
+    4294967296
+options1=
+    ""it's"" string_	= true } options {
+    /// triple
+    }")).
+Eval vm_compute in ("<<<M3409>>>" ++ check (runes_of_ascii "options{ _x=;""\" ++ [233]%N ++ runes_of_ascii """
+    Logon = 10	; Foo= 7;
+i64_= char[]} options {
+matchKey = ""// no comment"" // a // b
+falsey = string
+; trueish =
+    4294967296
+options1=
+    ""it's"" string_	= true } options {
+    /// triple
+    }")).
+Eval vm_compute in ("<<<M3441>>>" ++ check (runes_of_ascii "options{ _x=""\" ++ [233]%N ++ runes_of_ascii """;
+    Logon } 10	; Foo= 7;
+i64_= char[]} options {
+matchKey = ""// no comment"" // a // b
+falsey = string
+; trueish =
+    4294967296
+options1=
+    ""it's"" string_	= true } options {
+    /// triple
+    }")).
+Eval vm_compute in ("<<<M3473>>>" ++ check (runes_of_ascii "options{ _x=""\" ++ [233]%N ++ runes_of_ascii """;
+    Logon = 10	; Foo= 7;
+;= char[]} options {
+matchKey = ""// no comment"" // a // b
+falsey = string
+; trueish =
+    4294967296
+options1=
+    ""it's"" string_	= true } options {
+    /// triple
+    }")).
 Eval vm_compute in ("<<<M3505>>>" ++ check (runes_of_ascii "uint88")).
 Eval vm_compute in ("<<<M3537>>>" ++ check (runes_of_ascii "'0'")).
 Eval vm_compute in ("<<<M3569>>>" ++ check (runes_of_ascii "//x")).
@@ -2086,10 +1841,10 @@ Eval vm_compute in ("<<<M3665>>>" ++ check (runes_of_ascii "packet A { B { u8 x,
 Eval vm_compute in ("<<<M3697>>>" ++ check (runes_of_ascii "packet A { } ;")).
 Eval vm_compute in ("<<<M3729>>>" ++ check (runes_of_ascii "options { a 1; }")).
 Eval vm_compute in ("<<<M3761>>>" ++ check ([65279]%N)).
-Eval vm_compute in ("<<<M3793>>>" ++ check (runes_of_ascii "P?I_o8^pTv>JgR2'&=tR9h^b39Uo\Zqt4vj+X6")).
-Eval vm_compute in ("<<<M3825>>>" ++ check (runes_of_ascii "a;#""|IsnltjpaR)")).
-Eval vm_compute in ("<<<M3857>>>" ++ check (runes_of_ascii "5~gSA-")).
-Eval vm_compute in ("<<<M3889>>>" ++ check (runes_of_ascii "2%%!(C+fku2,$qS#Fv\L")).
-Eval vm_compute in ("<<<M3921>>>" ++ check (runes_of_ascii "[J=X@9EiY<Sn8xxL+0G@6&jzS~^")).
-Eval vm_compute in ("<<<M3953>>>" ++ check (runes_of_ascii "-yk:)""sx^BC1O(FDb9")).
-Eval vm_compute in ("<<<M3985>>>" ++ check (runes_of_ascii "ENk~:b zSsN:y=2/X:u5Y$ f v")).
+Eval vm_compute in ("<<<M3793>>>" ++ check (runes_of_ascii "ggR""-UYZ=E_[,]3Rnmhdcmvf_FI\>mp+")).
+Eval vm_compute in ("<<<M3825>>>" ++ check (runes_of_ascii "4G")).
+Eval vm_compute in ("<<<M3857>>>" ++ check (runes_of_ascii "4&PSOT|i?)22nvS9n9L3hDE>{>[")).
+Eval vm_compute in ("<<<M3889>>>" ++ check (runes_of_ascii ";K8w~")).
+Eval vm_compute in ("<<<M3921>>>" ++ check (runes_of_ascii "wX[!^R@26n2EkG8Vr]H&Yfjp`H:{yU/KlLz")).
+Eval vm_compute in ("<<<M3953>>>" ++ check (runes_of_ascii "`0i(AQ-WHPEB_qz&p{2~W(jP;<(c=%")).
+Eval vm_compute in ("<<<M3985>>>" ++ check (runes_of_ascii "=1Bqz|")).
